@@ -1,0 +1,12262 @@
+	.file	"test_foam.c"
+	.text
+.Ltext0:
+	.file 0 "/repo/aldor/aldor/src" "test/test_foam.c"
+	.section	.rodata
+.LC0:
+	.string	"testCall"
+.LC1:
+	.string	"testDDecl"
+.LC2:
+	.string	"testConstructors"
+.LC3:
+	.string	"testTests"
+.LC4:
+	.string	"testHash"
+.LC5:
+	.string	"testSIntReduce"
+.LC6:
+	.string	"testFoamBuffer"
+.LC7:
+	.string	"testIter"
+	.text
+	.globl	foamTest
+	.type	foamTest, @function
+foamTest:
+.LFB0:
+	.file 1 "test/test_foam.c"
+	.loc 1 20 1
+	.cfi_startproc
+	pushq	%rbp
+	.cfi_def_cfa_offset 16
+	.cfi_offset 6, -16
+	movq	%rsp, %rbp
+	.cfi_def_cfa_register 6
+	.loc 1 21 2
+	call	sxiInit@PLT
+	.loc 1 23 2
+	leaq	testCall(%rip), %rax
+	movq	%rax, %rsi
+	leaq	.LC0(%rip), %rax
+	movq	%rax, %rdi
+	call	showTest@PLT
+	.loc 1 24 2
+	leaq	testDDecl(%rip), %rax
+	movq	%rax, %rsi
+	leaq	.LC1(%rip), %rax
+	movq	%rax, %rdi
+	call	showTest@PLT
+	.loc 1 25 2
+	leaq	testConstructors(%rip), %rax
+	movq	%rax, %rsi
+	leaq	.LC2(%rip), %rax
+	movq	%rax, %rdi
+	call	showTest@PLT
+	.loc 1 26 2
+	leaq	testTests(%rip), %rax
+	movq	%rax, %rsi
+	leaq	.LC3(%rip), %rax
+	movq	%rax, %rdi
+	call	showTest@PLT
+	.loc 1 27 2
+	leaq	testHash(%rip), %rax
+	movq	%rax, %rsi
+	leaq	.LC4(%rip), %rax
+	movq	%rax, %rdi
+	call	showTest@PLT
+	.loc 1 28 2
+	leaq	testSIntReduce(%rip), %rax
+	movq	%rax, %rsi
+	leaq	.LC5(%rip), %rax
+	movq	%rax, %rdi
+	call	showTest@PLT
+	.loc 1 29 2
+	leaq	testFoamBuffer(%rip), %rax
+	movq	%rax, %rsi
+	leaq	.LC6(%rip), %rax
+	movq	%rax, %rdi
+	call	showTest@PLT
+	.loc 1 30 2
+	leaq	testIter(%rip), %rax
+	movq	%rax, %rsi
+	leaq	.LC7(%rip), %rax
+	movq	%rax, %rdi
+	call	showTest@PLT
+	.loc 1 31 1
+	nop
+	popq	%rbp
+	.cfi_def_cfa 7, 8
+	ret
+	.cfi_endproc
+.LFE0:
+	.size	foamTest, .-foamTest
+	.section	.rodata
+.LC8:
+	.string	"foamOCallArgc"
+.LC9:
+	.string	"argc"
+.LC10:
+	.string	"protocol"
+.LC11:
+	.string	"op"
+	.text
+	.type	testCall, @function
+testCall:
+.LFB1:
+	.loc 1 35 1
+	.cfi_startproc
+	pushq	%rbp
+	.cfi_def_cfa_offset 16
+	.cfi_offset 6, -16
+	movq	%rsp, %rbp
+	.cfi_def_cfa_register 6
+	pushq	%r12
+	pushq	%rbx
+	subq	$16, %rsp
+	.cfi_offset 12, -24
+	.cfi_offset 3, -32
+	.loc 1 38 9
+	movl	$0, %esi
+	movl	$0, %edi
+	movl	$0, %eax
+	call	foamNew@PLT
+	movq	%rax, %rbx
+	movl	$0, %esi
+	movl	$0, %edi
+	movl	$0, %eax
+	call	foamNew@PLT
+	movq	%rbx, %r8
+	movq	%rax, %rcx
+	movl	$30, %edx
+	movl	$3, %esi
+	movl	$80, %edi
+	movl	$0, %eax
+	call	foamNew@PLT
+	movq	%rax, -24(%rbp)
+	.loc 1 39 48
+	movq	-24(%rbp), %rax
+	movq	40(%rax), %rax
+	.loc 1 39 55
+	subl	$3, %eax
+	.loc 1 39 2
+	movl	%eax, %edx
+	movl	$0, %esi
+	leaq	.LC8(%rip), %rax
+	movq	%rax, %rdi
+	call	testIntEqual@PLT
+	.loc 1 41 9
+	movl	$1, %edx
+	movl	$1, %esi
+	movl	$5, %edi
+	movl	$0, %eax
+	call	foamNew@PLT
+	movq	%rax, %r12
+	movl	$0, %esi
+	movl	$0, %edi
+	movl	$0, %eax
+	call	foamNew@PLT
+	movq	%rax, %rbx
+	movl	$0, %esi
+	movl	$0, %edi
+	movl	$0, %eax
+	call	foamNew@PLT
+	movq	%r12, %r9
+	movq	%rbx, %r8
+	movq	%rax, %rcx
+	movl	$30, %edx
+	movl	$4, %esi
+	movl	$80, %edi
+	movl	$0, %eax
+	call	foamNew@PLT
+	movq	%rax, -24(%rbp)
+	.loc 1 42 48
+	movq	-24(%rbp), %rax
+	movq	40(%rax), %rax
+	.loc 1 42 55
+	subl	$3, %eax
+	.loc 1 42 2
+	movl	%eax, %edx
+	movl	$1, %esi
+	leaq	.LC8(%rip), %rax
+	movq	%rax, %rdi
+	call	testIntEqual@PLT
+	.loc 1 44 9
+	movl	$0, %edx
+	movl	$1, %esi
+	movl	$51, %edi
+	movl	$0, %eax
+	call	foamNew@PLT
+	movl	$0, %ecx
+	movq	%rax, %rdx
+	movl	$15, %esi
+	movl	$2, %edi
+	movl	$0, %eax
+	call	foamNewPCall@PLT
+	movq	%rax, -24(%rbp)
+	.loc 1 45 39
+	movq	-24(%rbp), %rax
+	movq	40(%rax), %rax
+	.loc 1 45 46
+	subl	$3, %eax
+	.loc 1 45 2
+	movl	%eax, %edx
+	movl	$0, %esi
+	leaq	.LC9(%rip), %rax
+	movq	%rax, %rdi
+	call	testIntEqual@PLT
+	.loc 1 46 56
+	movq	-24(%rbp), %rax
+	movq	48(%rax), %rax
+	.loc 1 46 2
+	movl	%eax, %edx
+	movl	$2, %esi
+	leaq	.LC10(%rip), %rax
+	movq	%rax, %rdi
+	call	testIntEqual@PLT
+	.loc 1 48 9
+	movl	$0, %edx
+	movl	$1, %esi
+	movl	$51, %edi
+	movl	$0, %eax
+	call	foamNew@PLT
+	movl	$0, %edx
+	movq	%rax, %rsi
+	movl	$8, %edi
+	movl	$0, %eax
+	call	foamNewCCall@PLT
+	movq	%rax, -24(%rbp)
+	.loc 1 49 39
+	movq	-24(%rbp), %rax
+	movq	40(%rax), %rax
+	.loc 1 49 46
+	subl	$2, %eax
+	.loc 1 49 2
+	movl	%eax, %edx
+	movl	$0, %esi
+	leaq	.LC9(%rip), %rax
+	movq	%rax, %rdi
+	call	testIntEqual@PLT
+	.loc 1 50 2
+	movq	-24(%rbp), %rax
+	movq	56(%rax), %rbx
+	movl	$0, %edx
+	movl	$1, %esi
+	movl	$51, %edi
+	movl	$0, %eax
+	call	foamNew@PLT
+	movq	%rbx, %rsi
+	movq	%rax, %rdi
+	call	foamEqual@PLT
+	movl	%eax, %esi
+	leaq	.LC11(%rip), %rax
+	movq	%rax, %rdi
+	call	testTrue@PLT
+	.loc 1 52 9
+	movl	$1, %edx
+	movl	$1, %esi
+	movl	$49, %edi
+	movl	$0, %eax
+	call	foamNew@PLT
+	movq	%rax, %rbx
+	movl	$0, %edx
+	movl	$1, %esi
+	movl	$51, %edi
+	movl	$0, %eax
+	call	foamNew@PLT
+	movl	$0, %ecx
+	movq	%rbx, %rdx
+	movq	%rax, %rsi
+	movl	$8, %edi
+	movl	$0, %eax
+	call	foamNewCCall@PLT
+	movq	%rax, -24(%rbp)
+	.loc 1 53 39
+	movq	-24(%rbp), %rax
+	movq	40(%rax), %rax
+	.loc 1 53 46
+	subl	$2, %eax
+	.loc 1 53 2
+	movl	%eax, %edx
+	movl	$1, %esi
+	leaq	.LC9(%rip), %rax
+	movq	%rax, %rdi
+	call	testIntEqual@PLT
+	.loc 1 54 2
+	movq	-24(%rbp), %rax
+	movq	64(%rax), %rbx
+	movl	$1, %edx
+	movl	$1, %esi
+	movl	$49, %edi
+	movl	$0, %eax
+	call	foamNew@PLT
+	movq	%rbx, %rsi
+	movq	%rax, %rdi
+	call	foamEqual@PLT
+	movl	%eax, %esi
+	leaq	.LC11(%rip), %rax
+	movq	%rax, %rdi
+	call	testTrue@PLT
+	.loc 1 55 1
+	nop
+	addq	$16, %rsp
+	popq	%rbx
+	popq	%r12
+	popq	%rbp
+	.cfi_def_cfa 7, 8
+	ret
+	.cfi_endproc
+.LFE1:
+	.size	testCall, .-testCall
+	.section	.rodata
+.LC12:
+	.string	"fred"
+.LC13:
+	.string	"tag"
+	.text
+	.type	testDDecl, @function
+testDDecl:
+.LFB2:
+	.loc 1 59 1
+	.cfi_startproc
+	pushq	%rbp
+	.cfi_def_cfa_offset 16
+	.cfi_offset 6, -16
+	movq	%rsp, %rbp
+	.cfi_def_cfa_register 6
+	subq	$16, %rsp
+	.loc 1 60 15
+	leaq	.LC12(%rip), %rax
+	movq	%rax, %rdi
+	call	strCopy@PLT
+	movl	$4, %r9d
+	movl	$32767, %r8d
+	movq	%rax, %rcx
+	movl	$5, %edx
+	movl	$4, %esi
+	movl	$47, %edi
+	movl	$0, %eax
+	call	foamNew@PLT
+	movl	$0, %edx
+	movq	%rax, %rsi
+	movl	$3, %edi
+	movl	$0, %eax
+	call	foamNewDDecl@PLT
+	movq	%rax, -8(%rbp)
+	.loc 1 63 47
+	movq	-8(%rbp), %rax
+	movzbl	(%rax), %eax
+	.loc 1 63 2
+	movzbl	%al, %eax
+	movl	%eax, %edx
+	movl	$68, %esi
+	leaq	.LC13(%rip), %rax
+	movq	%rax, %rdi
+	call	testIntEqual@PLT
+	.loc 1 64 40
+	movq	-8(%rbp), %rax
+	movq	40(%rax), %rax
+	.loc 1 64 47
+	subl	$1, %eax
+	.loc 1 64 2
+	movl	%eax, %edx
+	movl	$1, %esi
+	leaq	.LC9(%rip), %rax
+	movq	%rax, %rdi
+	call	testIntEqual@PLT
+	.loc 1 65 1
+	nop
+	leave
+	.cfi_def_cfa 7, 8
+	ret
+	.cfi_endproc
+.LFE2:
+	.size	testDDecl, .-testDDecl
+	.section	.rodata
+.LC14:
+	.string	"arg1"
+	.text
+	.type	testConstructors, @function
+testConstructors:
+.LFB3:
+	.loc 1 69 1
+	.cfi_startproc
+	pushq	%rbp
+	.cfi_def_cfa_offset 16
+	.cfi_offset 6, -16
+	movq	%rsp, %rbp
+	.cfi_def_cfa_register 6
+	subq	$32, %rsp
+	.loc 1 71 9
+	movl	$0, %esi
+	movl	$2, %edi
+	movl	$0, %eax
+	call	foamNewBCall@PLT
+	movq	%rax, -8(%rbp)
+	.loc 1 72 40
+	movq	-8(%rbp), %rax
+	movq	40(%rax), %rax
+	.loc 1 72 2
+	movl	%eax, %edx
+	movl	$1, %esi
+	leaq	.LC9(%rip), %rax
+	movq	%rax, %rdi
+	call	testIntEqual@PLT
+	.loc 1 73 56
+	movq	-8(%rbp), %rax
+	movq	48(%rax), %rax
+	.loc 1 73 2
+	movl	%eax, %edx
+	movl	$2, %esi
+	leaq	.LC13(%rip), %rax
+	movq	%rax, %rdi
+	call	testIntEqual@PLT
+	.loc 1 75 9
+	movl	$0, %edx
+	movl	$1, %esi
+	movl	$50, %edi
+	movl	$0, %eax
+	call	foamNew@PLT
+	movq	%rax, -16(%rbp)
+	.loc 1 76 9
+	movl	$0, %edx
+	movl	$1, %esi
+	movl	$50, %edi
+	movl	$0, %eax
+	call	foamNew@PLT
+	movq	%rax, -24(%rbp)
+	.loc 1 77 9
+	movq	-16(%rbp), %rax
+	movl	$0, %edx
+	movq	%rax, %rsi
+	movl	$2, %edi
+	movl	$0, %eax
+	call	foamNewBCall@PLT
+	movq	%rax, -8(%rbp)
+	.loc 1 78 39
+	movq	-8(%rbp), %rax
+	movq	40(%rax), %rax
+	.loc 1 78 46
+	subl	$1, %eax
+	.loc 1 78 2
+	movl	%eax, %edx
+	movl	$1, %esi
+	leaq	.LC9(%rip), %rax
+	movq	%rax, %rdi
+	call	testIntEqual@PLT
+	.loc 1 79 56
+	movq	-8(%rbp), %rax
+	movq	48(%rax), %rax
+	.loc 1 79 2
+	movl	%eax, %edx
+	movl	$2, %esi
+	leaq	.LC13(%rip), %rax
+	movq	%rax, %rdi
+	call	testIntEqual@PLT
+	.loc 1 80 53
+	movq	-8(%rbp), %rax
+	movq	56(%rax), %rdx
+	.loc 1 80 2
+	movq	-16(%rbp), %rax
+	movq	%rax, %rsi
+	leaq	.LC14(%rip), %rax
+	movq	%rax, %rdi
+	call	testPointerEqual@PLT
+	.loc 1 82 9
+	movq	-24(%rbp), %rdx
+	movq	-16(%rbp), %rax
+	movl	$0, %ecx
+	movq	%rax, %rsi
+	movl	$2, %edi
+	movl	$0, %eax
+	call	foamNewBCall@PLT
+	movq	%rax, -8(%rbp)
+	.loc 1 83 39
+	movq	-8(%rbp), %rax
+	movq	40(%rax), %rax
+	.loc 1 83 46
+	subl	$1, %eax
+	.loc 1 83 2
+	movl	%eax, %edx
+	movl	$2, %esi
+	leaq	.LC9(%rip), %rax
+	movq	%rax, %rdi
+	call	testIntEqual@PLT
+	.loc 1 84 56
+	movq	-8(%rbp), %rax
+	movq	48(%rax), %rax
+	.loc 1 84 2
+	movl	%eax, %edx
+	movl	$2, %esi
+	leaq	.LC13(%rip), %rax
+	movq	%rax, %rdi
+	call	testIntEqual@PLT
+	.loc 1 85 53
+	movq	-8(%rbp), %rax
+	movq	56(%rax), %rdx
+	.loc 1 85 2
+	movq	-16(%rbp), %rax
+	movq	%rax, %rsi
+	leaq	.LC14(%rip), %rax
+	movq	%rax, %rdi
+	call	testPointerEqual@PLT
+	.loc 1 86 53
+	movq	-8(%rbp), %rax
+	movq	64(%rax), %rdx
+	.loc 1 86 2
+	movq	-24(%rbp), %rax
+	movq	%rax, %rsi
+	leaq	.LC14(%rip), %rax
+	movq	%rax, %rdi
+	call	testPointerEqual@PLT
+	.loc 1 87 1
+	nop
+	leave
+	.cfi_def_cfa 7, 8
+	ret
+	.cfi_endproc
+.LFE3:
+	.size	testConstructors, .-testConstructors
+	.section	.rodata
+.LC15:
+	.string	""
+	.text
+	.type	testTests, @function
+testTests:
+.LFB4:
+	.loc 1 91 1
+	.cfi_startproc
+	pushq	%rbp
+	.cfi_def_cfa_offset 16
+	.cfi_offset 6, -16
+	movq	%rsp, %rbp
+	.cfi_def_cfa_register 6
+	pushq	%r12
+	pushq	%rbx
+	subq	$16, %rsp
+	.cfi_offset 12, -24
+	.cfi_offset 3, -32
+	.loc 1 92 14
+	movl	$1, %edx
+	movl	$1, %esi
+	movl	$50, %edi
+	movl	$0, %eax
+	call	foamNew@PLT
+	movq	%rax, %rbx
+	movl	$1, %edx
+	movl	$1, %esi
+	movl	$50, %edi
+	movl	$0, %eax
+	call	foamNew@PLT
+	movq	%rbx, %rcx
+	movq	%rax, %rdx
+	movl	$2, %esi
+	movl	$31, %edi
+	movl	$0, %eax
+	call	foamNew@PLT
+	movq	%rax, -24(%rbp)
+	.loc 1 93 2
+	movq	-24(%rbp), %rax
+	movq	%rax, %rdi
+	call	foamIsMultiAssign@PLT
+	movl	%eax, %esi
+	leaq	.LC15(%rip), %rax
+	movq	%rax, %rdi
+	call	testFalse@PLT
+	.loc 1 95 9
+	movl	$3, %edx
+	movl	$1, %esi
+	movl	$50, %edi
+	movl	$0, %eax
+	call	foamNew@PLT
+	movq	%rax, %rbx
+	movl	$2, %edx
+	movl	$1, %esi
+	movl	$50, %edi
+	movl	$0, %eax
+	call	foamNew@PLT
+	movq	%rax, %r12
+	movl	$1, %edx
+	movl	$1, %esi
+	movl	$50, %edi
+	movl	$0, %eax
+	call	foamNew@PLT
+	movq	%r12, %rcx
+	movq	%rax, %rdx
+	movl	$2, %esi
+	movl	$82, %edi
+	movl	$0, %eax
+	call	foamNew@PLT
+	movq	%rbx, %rcx
+	movq	%rax, %rdx
+	movl	$2, %esi
+	movl	$31, %edi
+	movl	$0, %eax
+	call	foamNew@PLT
+	movq	%rax, -24(%rbp)
+	.loc 1 97 2
+	movq	-24(%rbp), %rax
+	movq	%rax, %rdi
+	call	foamIsMultiAssign@PLT
+	movl	%eax, %esi
+	leaq	.LC15(%rip), %rax
+	movq	%rax, %rdi
+	call	testTrue@PLT
+	.loc 1 98 1
+	nop
+	addq	$16, %rsp
+	popq	%rbx
+	popq	%r12
+	popq	%rbp
+	.cfi_def_cfa 7, 8
+	ret
+	.cfi_endproc
+.LFE4:
+	.size	testTests, .-testTests
+	.section	.rodata
+.LC16:
+	.string	"1"
+	.text
+	.type	testIter, @function
+testIter:
+.LFB5:
+	.loc 1 103 1
+	.cfi_startproc
+	pushq	%rbp
+	.cfi_def_cfa_offset 16
+	.cfi_offset 6, -16
+	movq	%rsp, %rbp
+	.cfi_def_cfa_register 6
+	pushq	%r13
+	pushq	%r12
+	pushq	%rbx
+	subq	$24, %rsp
+	.cfi_offset 13, -24
+	.cfi_offset 12, -32
+	.cfi_offset 3, -40
+	.loc 1 106 8
+	movl	$0, %edi
+	movl	$0, %eax
+	call	foamNewSeq@PLT
+	movq	%rax, -40(%rbp)
+	.loc 1 107 4
+	movl	$-1, -44(%rbp)
+	.loc 1 108 6
+	movl	-44(%rbp), %edx
+	movq	-40(%rbp), %rax
+	movl	%edx, %esi
+	movq	%rax, %rdi
+	call	foamSeqNextReachable@PLT
+	movl	%eax, -44(%rbp)
+	.loc 1 109 2
+	movl	-44(%rbp), %eax
+	movl	%eax, %edx
+	movl	$-1, %esi
+	leaq	.LC16(%rip), %rax
+	movq	%rax, %rdi
+	call	testIntEqual@PLT
+	.loc 1 111 8
+	movl	$10, %edx
+	movl	$1, %esi
+	movl	$60, %edi
+	movl	$0, %eax
+	call	foamNew@PLT
+	movq	%rax, %r12
+	movl	$10, %edx
+	movl	$1, %esi
+	movl	$35, %edi
+	movl	$0, %eax
+	call	foamNew@PLT
+	movq	%rax, %rbx
+	movl	$0, %esi
+	movl	$15, %edi
+	movl	$0, %eax
+	call	foamNew@PLT
+	movl	$0, %ecx
+	movq	%r12, %rdx
+	movq	%rbx, %rsi
+	movq	%rax, %rdi
+	movl	$0, %eax
+	call	foamNewSeq@PLT
+	movq	%rax, -40(%rbp)
+	.loc 1 115 4
+	movl	$-1, -44(%rbp)
+	.loc 1 116 6
+	movl	-44(%rbp), %edx
+	movq	-40(%rbp), %rax
+	movl	%edx, %esi
+	movq	%rax, %rdi
+	call	foamSeqNextReachable@PLT
+	movl	%eax, -44(%rbp)
+	.loc 1 117 2
+	movl	-44(%rbp), %eax
+	movl	%eax, %edx
+	movl	$0, %esi
+	leaq	.LC15(%rip), %rax
+	movq	%rax, %rdi
+	call	testIntEqual@PLT
+	.loc 1 118 6
+	movl	-44(%rbp), %edx
+	movq	-40(%rbp), %rax
+	movl	%edx, %esi
+	movq	%rax, %rdi
+	call	foamSeqNextReachable@PLT
+	movl	%eax, -44(%rbp)
+	.loc 1 119 2
+	movl	-44(%rbp), %eax
+	movl	%eax, %edx
+	movl	$1, %esi
+	leaq	.LC15(%rip), %rax
+	movq	%rax, %rdi
+	call	testIntEqual@PLT
+	.loc 1 120 6
+	movl	-44(%rbp), %edx
+	movq	-40(%rbp), %rax
+	movl	%edx, %esi
+	movq	%rax, %rdi
+	call	foamSeqNextReachable@PLT
+	movl	%eax, -44(%rbp)
+	.loc 1 121 2
+	movl	-44(%rbp), %eax
+	movl	%eax, %edx
+	movl	$2, %esi
+	leaq	.LC15(%rip), %rax
+	movq	%rax, %rdi
+	call	testIntEqual@PLT
+	.loc 1 122 6
+	movl	-44(%rbp), %edx
+	movq	-40(%rbp), %rax
+	movl	%edx, %esi
+	movq	%rax, %rdi
+	call	foamSeqNextReachable@PLT
+	movl	%eax, -44(%rbp)
+	.loc 1 123 2
+	movl	-44(%rbp), %eax
+	movl	%eax, %edx
+	movl	$-1, %esi
+	leaq	.LC15(%rip), %rax
+	movq	%rax, %rdi
+	call	testIntEqual@PLT
+	.loc 1 125 8
+	movl	$10, %edx
+	movl	$1, %esi
+	movl	$60, %edi
+	movl	$0, %eax
+	call	foamNew@PLT
+	movq	%rax, %r13
+	movl	$0, %esi
+	movl	$15, %edi
+	movl	$0, %eax
+	call	foamNew@PLT
+	movq	%rax, %r12
+	movl	$10, %edx
+	movl	$1, %esi
+	movl	$35, %edi
+	movl	$0, %eax
+	call	foamNew@PLT
+	movq	%rax, %rbx
+	movl	$0, %esi
+	movl	$15, %edi
+	movl	$0, %eax
+	call	foamNew@PLT
+	movl	$0, %r8d
+	movq	%r13, %rcx
+	movq	%r12, %rdx
+	movq	%rbx, %rsi
+	movq	%rax, %rdi
+	movl	$0, %eax
+	call	foamNewSeq@PLT
+	movq	%rax, -40(%rbp)
+	.loc 1 130 4
+	movl	$-1, -44(%rbp)
+	.loc 1 131 6
+	movl	-44(%rbp), %edx
+	movq	-40(%rbp), %rax
+	movl	%edx, %esi
+	movq	%rax, %rdi
+	call	foamSeqNextReachable@PLT
+	movl	%eax, -44(%rbp)
+	.loc 1 132 2
+	movl	-44(%rbp), %eax
+	movl	%eax, %edx
+	movl	$0, %esi
+	leaq	.LC15(%rip), %rax
+	movq	%rax, %rdi
+	call	testIntEqual@PLT
+	.loc 1 133 6
+	movl	-44(%rbp), %edx
+	movq	-40(%rbp), %rax
+	movl	%edx, %esi
+	movq	%rax, %rdi
+	call	foamSeqNextReachable@PLT
+	movl	%eax, -44(%rbp)
+	.loc 1 134 2
+	movl	-44(%rbp), %eax
+	movl	%eax, %edx
+	movl	$1, %esi
+	leaq	.LC15(%rip), %rax
+	movq	%rax, %rdi
+	call	testIntEqual@PLT
+	.loc 1 135 6
+	movl	-44(%rbp), %edx
+	movq	-40(%rbp), %rax
+	movl	%edx, %esi
+	movq	%rax, %rdi
+	call	foamSeqNextReachable@PLT
+	movl	%eax, -44(%rbp)
+	.loc 1 136 2
+	movl	-44(%rbp), %eax
+	movl	%eax, %edx
+	movl	$3, %esi
+	leaq	.LC15(%rip), %rax
+	movq	%rax, %rdi
+	call	testIntEqual@PLT
+	.loc 1 137 6
+	movl	-44(%rbp), %edx
+	movq	-40(%rbp), %rax
+	movl	%edx, %esi
+	movq	%rax, %rdi
+	call	foamSeqNextReachable@PLT
+	movl	%eax, -44(%rbp)
+	.loc 1 138 2
+	movl	-44(%rbp), %eax
+	movl	%eax, %edx
+	movl	$-1, %esi
+	leaq	.LC15(%rip), %rax
+	movq	%rax, %rdi
+	call	testIntEqual@PLT
+	.loc 1 139 1
+	nop
+	addq	$24, %rsp
+	popq	%rbx
+	popq	%r12
+	popq	%r13
+	popq	%rbp
+	.cfi_def_cfa 7, 8
+	ret
+	.cfi_endproc
+.LFE5:
+	.size	testIter, .-testIter
+	.type	oldHashCombine, @function
+oldHashCombine:
+.LFB6:
+	.loc 1 144 1
+	.cfi_startproc
+	pushq	%rbp
+	.cfi_def_cfa_offset 16
+	.cfi_offset 6, -16
+	movq	%rsp, %rbp
+	.cfi_def_cfa_register 6
+	movq	%rdi, -8(%rbp)
+	movq	%rsi, -16(%rbp)
+	.loc 1 145 32
+	movq	-16(%rbp), %rax
+	salq	$6, %rax
+	andl	$1073741760, %eax
+	movq	%rax, %rdx
+	.loc 1 145 38
+	movq	-8(%rbp), %rax
+	leaq	(%rdx,%rax), %rcx
+	.loc 1 145 44
+	movabsq	$-9223371736207055287, %rdx
+	movq	%rcx, %rax
+	imulq	%rdx
+	leaq	(%rdx,%rcx), %rax
+	sarq	$29, %rax
+	movq	%rcx, %rdx
+	sarq	$63, %rdx
+	subq	%rdx, %rax
+	imulq	$1073741789, %rax, %rdx
+	movq	%rcx, %rax
+	subq	%rdx, %rax
+	.loc 1 147 1
+	popq	%rbp
+	.cfi_def_cfa 7, 8
+	ret
+	.cfi_endproc
+.LFE6:
+	.size	oldHashCombine, .-oldHashCombine
+	.section	.rodata
+.LC17:
+	.string	"UnivariateLaurentSeries"
+.LC18:
+	.string	"UnivariateTaylorSeries"
+.LC19:
+	.string	"Fraction"
+.LC20:
+	.string	"Integer"
+.LC21:
+	.string	"->"
+.LC22:
+	.string	"INT"
+.LC23:
+	.string	"FRAC"
+.LC24:
+	.string	"ULS"
+.LC25:
+	.string	"UTS"
+.LC26:
+	.string	"FR_INT"
+.LC27:
+	.string	"X -> X"
+.LC28:
+	.string	"(X, X) -> X"
+.LC29:
+	.string	"T1"
+.LC30:
+	.string	"HULS_FI"
+.LC31:
+	.string	"HUTS_FI"
+.LC32:
+	.string	"(UTS_FI, X) -> X"
+	.text
+	.type	testHash, @function
+testHash:
+.LFB7:
+	.loc 1 161 1
+	.cfi_startproc
+	pushq	%rbp
+	.cfi_def_cfa_offset 16
+	.cfi_offset 6, -16
+	movq	%rsp, %rbp
+	.cfi_def_cfa_register 6
+	pushq	%rbx
+	subq	$72, %rsp
+	.cfi_offset 3, -24
+	.loc 1 162 14
+	leaq	.LC17(%rip), %rax
+	movq	%rax, %rdi
+	call	strHash@PLT
+	.loc 1 162 7
+	movq	%rax, -24(%rbp)
+	.loc 1 163 14
+	leaq	.LC18(%rip), %rax
+	movq	%rax, %rdi
+	call	strHash@PLT
+	.loc 1 163 7
+	movq	%rax, -32(%rbp)
+	.loc 1 164 15
+	leaq	.LC19(%rip), %rax
+	movq	%rax, %rdi
+	call	strHash@PLT
+	.loc 1 164 7
+	movq	%rax, -40(%rbp)
+	.loc 1 165 14
+	leaq	.LC20(%rip), %rax
+	movq	%rax, %rdi
+	call	strHash@PLT
+	.loc 1 165 7
+	movq	%rax, -48(%rbp)
+	.loc 1 166 18
+	leaq	.LC21(%rip), %rax
+	movq	%rax, %rdi
+	call	strHash@PLT
+	.loc 1 166 7
+	movq	%rax, -56(%rbp)
+	.loc 1 167 7
+	movq	$32236, -64(%rbp)
+	.loc 1 172 2
+	movq	-48(%rbp), %rax
+	movl	%eax, %edx
+	movl	$484208045, %esi
+	leaq	.LC22(%rip), %rax
+	movq	%rax, %rdi
+	call	testIntEqual@PLT
+	.loc 1 173 2
+	movq	-40(%rbp), %rax
+	movl	%eax, %edx
+	movl	$777777278, %esi
+	leaq	.LC23(%rip), %rax
+	movq	%rax, %rdi
+	call	testIntEqual@PLT
+	.loc 1 174 2
+	movq	-24(%rbp), %rax
+	movl	%eax, %edx
+	movl	$241975245, %esi
+	leaq	.LC24(%rip), %rax
+	movq	%rax, %rdi
+	call	testIntEqual@PLT
+	.loc 1 175 2
+	movq	-32(%rbp), %rax
+	movl	%eax, %edx
+	movl	$585167620, %esi
+	leaq	.LC25(%rip), %rax
+	movq	%rax, %rdi
+	call	testIntEqual@PLT
+	.loc 1 176 2
+	movq	-56(%rbp), %rax
+	movl	%eax, %edx
+	movl	$51489085, %esi
+	leaq	.LC21(%rip), %rax
+	movq	%rax, %rdi
+	call	testIntEqual@PLT
+	.loc 1 178 2
+	movq	-40(%rbp), %rax
+	movl	%eax, %edx
+	movq	-48(%rbp), %rax
+	movl	%edx, %esi
+	movl	%eax, %edi
+	call	hashCombinePair@PLT
+	movl	%eax, %edx
+	movl	$850477418, %esi
+	leaq	.LC26(%rip), %rax
+	movq	%rax, %rdi
+	call	testIntEqual@PLT
+	.loc 1 181 2
+	movq	-56(%rbp), %rax
+	movl	%eax, %esi
+	movl	$134808007, %edi
+	call	hashCombinePair@PLT
+	movq	-64(%rbp), %rdx
+	movl	%eax, %esi
+	movl	%edx, %edi
+	call	hashCombinePair@PLT
+	movl	%eax, %esi
+	movl	$134808007, %edi
+	call	hashCombinePair@PLT
+	movl	%eax, %edx
+	movl	$1021768245, %esi
+	leaq	.LC27(%rip), %rax
+	movq	%rax, %rdi
+	call	testIntEqual@PLT
+	.loc 1 186 2
+	movq	-56(%rbp), %rax
+	movl	%eax, %esi
+	movl	$134808007, %edi
+	call	hashCombinePair@PLT
+	movl	%eax, %esi
+	movl	$134808007, %edi
+	call	hashCombinePair@PLT
+	movq	-64(%rbp), %rdx
+	movl	%eax, %esi
+	movl	%edx, %edi
+	call	hashCombinePair@PLT
+	movl	%eax, %esi
+	movl	$134808007, %edi
+	call	hashCombinePair@PLT
+	movl	%eax, %edx
+	movl	$898414238, %esi
+	leaq	.LC28(%rip), %rax
+	movq	%rax, %rdi
+	call	testIntEqual@PLT
+	.loc 1 193 2
+	movq	-56(%rbp), %rax
+	movl	%eax, %edx
+	movq	-48(%rbp), %rax
+	movl	%edx, %esi
+	movl	%eax, %edi
+	call	hashCombinePair@PLT
+	movl	%eax, %esi
+	movl	$134808007, %edi
+	call	hashCombinePair@PLT
+	movq	-64(%rbp), %rdx
+	movl	%eax, %esi
+	movl	%edx, %edi
+	call	hashCombinePair@PLT
+	movl	%eax, %esi
+	movl	$134808007, %edi
+	call	hashCombinePair@PLT
+	movl	%eax, %edx
+	movl	$972614544, %esi
+	leaq	.LC29(%rip), %rax
+	movq	%rax, %rdi
+	call	testIntEqual@PLT
+	.loc 1 200 12
+	movq	-24(%rbp), %rax
+	movl	%eax, %ebx
+	movq	-40(%rbp), %rax
+	movl	%eax, %edx
+	movq	-48(%rbp), %rax
+	movl	%edx, %esi
+	movl	%eax, %edi
+	call	hashCombinePair@PLT
+	movl	%ebx, %esi
+	movl	%eax, %edi
+	call	hashCombinePair@PLT
+	movl	%eax, %esi
+	movl	$7, %edi
+	call	hashCombinePair@PLT
+	movl	%eax, %esi
+	movl	$7, %edi
+	call	hashCombinePair@PLT
+	.loc 1 200 10
+	cltq
+	movq	%rax, -72(%rbp)
+	.loc 1 203 2
+	movq	-72(%rbp), %rax
+	movl	%eax, %edx
+	movl	$794083080, %esi
+	leaq	.LC30(%rip), %rax
+	movq	%rax, %rdi
+	call	testIntEqual@PLT
+	.loc 1 209 12
+	movq	-32(%rbp), %rax
+	movl	%eax, %ebx
+	movq	-40(%rbp), %rax
+	movl	%eax, %edx
+	movq	-48(%rbp), %rax
+	movl	%edx, %esi
+	movl	%eax, %edi
+	call	hashCombinePair@PLT
+	movl	%ebx, %esi
+	movl	%eax, %edi
+	call	hashCombinePair@PLT
+	movl	%eax, %esi
+	movl	$7, %edi
+	call	hashCombinePair@PLT
+	movl	%eax, %esi
+	movl	$7, %edi
+	call	hashCombinePair@PLT
+	.loc 1 209 10
+	cltq
+	movq	%rax, -80(%rbp)
+	.loc 1 212 2
+	movq	-80(%rbp), %rax
+	movl	%eax, %edx
+	movl	$659312886, %esi
+	leaq	.LC31(%rip), %rax
+	movq	%rax, %rdi
+	call	testIntEqual@PLT
+	.loc 1 217 2
+	movq	-56(%rbp), %rax
+	movl	%eax, %edx
+	movq	-80(%rbp), %rax
+	movl	%edx, %esi
+	movl	%eax, %edi
+	call	hashCombinePair@PLT
+	movq	-72(%rbp), %rdx
+	movl	%eax, %esi
+	movl	%edx, %edi
+	call	hashCombinePair@PLT
+	movq	-64(%rbp), %rdx
+	movl	%eax, %esi
+	movl	%edx, %edi
+	call	hashCombinePair@PLT
+	movq	-72(%rbp), %rdx
+	movl	%eax, %esi
+	movl	%edx, %edi
+	call	hashCombinePair@PLT
+	movl	%eax, %edx
+	movl	$937065739, %esi
+	leaq	.LC32(%rip), %rax
+	movq	%rax, %rdi
+	call	testIntEqual@PLT
+	.loc 1 222 2
+	movq	-56(%rbp), %rax
+	movl	%eax, %esi
+	movl	$134808007, %edi
+	call	hashCombinePair@PLT
+	movl	%eax, %esi
+	movl	$134808007, %edi
+	call	hashCombinePair@PLT
+	movq	-64(%rbp), %rdx
+	movl	%eax, %esi
+	movl	%edx, %edi
+	call	hashCombinePair@PLT
+	movl	%eax, %esi
+	movl	$134808007, %edi
+	call	hashCombinePair@PLT
+	movl	%eax, %edx
+	movl	$898414238, %esi
+	leaq	.LC28(%rip), %rax
+	movq	%rax, %rdi
+	call	testIntEqual@PLT
+	.loc 1 226 1
+	nop
+	movq	-8(%rbp), %rbx
+	leave
+	.cfi_def_cfa 7, 8
+	ret
+	.cfi_endproc
+.LFE7:
+	.size	testHash, .-testHash
+	.section	.rodata
+.LC33:
+	.string	"t0"
+.LC34:
+	.string	"t1"
+	.text
+	.type	testSIntReduce, @function
+testSIntReduce:
+.LFB8:
+	.loc 1 231 1
+	.cfi_startproc
+	pushq	%rbp
+	.cfi_def_cfa_offset 16
+	.cfi_offset 6, -16
+	movq	%rsp, %rbp
+	.cfi_def_cfa_register 6
+	subq	$16, %rsp
+.LBB2:
+	.loc 1 232 36
+	movabsq	$1099511627776, %rax
+	movq	%rax, %rdx
+	movl	$1, %esi
+	movl	$5, %edi
+	movl	$0, %eax
+	call	foamNew@PLT
+	movq	%rax, -8(%rbp)
+	.loc 1 232 85
+	movq	-8(%rbp), %rax
+	movq	%rax, %rdi
+	call	foamSIntReduce@PLT
+	movq	%rax, -16(%rbp)
+	.loc 1 232 107
+	movq	-8(%rbp), %rax
+	cmpq	-16(%rbp), %rax
+	sete	%al
+	movzbl	%al, %eax
+	movl	%eax, %esi
+	leaq	.LC33(%rip), %rax
+	movq	%rax, %rdi
+	call	testFalse@PLT
+	.loc 1 232 148
+	movabsq	$-1099511627776, %rax
+	movq	%rax, %rdx
+	movl	$1, %esi
+	movl	$5, %edi
+	movl	$0, %eax
+	call	foamNew@PLT
+	movq	%rax, -8(%rbp)
+	.loc 1 232 200
+	movq	-8(%rbp), %rax
+	movq	%rax, %rdi
+	call	foamSIntReduce@PLT
+	movq	%rax, -16(%rbp)
+	.loc 1 232 222
+	movq	-8(%rbp), %rax
+	cmpq	-16(%rbp), %rax
+	sete	%al
+	movzbl	%al, %eax
+	movl	%eax, %esi
+	leaq	.LC33(%rip), %rax
+	movq	%rax, %rdi
+	call	testFalse@PLT
+	.loc 1 232 256
+	movabsq	$1099511627776, %rax
+	movq	%rax, %rdx
+	movl	$1, %esi
+	movl	$5, %edi
+	movl	$0, %eax
+	call	foamNew@PLT
+	movq	%rax, %rdi
+	call	foamSIntReduce@PLT
+	movq	%rax, %rdx
+	movq	-16(%rbp), %rax
+	movq	%rax, %rsi
+	movq	%rdx, %rdi
+	call	foamEqual@PLT
+	movl	%eax, %esi
+	leaq	.LC33(%rip), %rax
+	movq	%rax, %rdi
+	call	testFalse@PLT
+	.loc 1 232 378
+	movq	-16(%rbp), %rax
+	movzbl	(%rax), %eax
+	.loc 1 232 348
+	cmpb	$78, %al
+	jne	.L11
+	.loc 1 232 419 discriminator 1
+	movq	-16(%rbp), %rax
+	movq	48(%rax), %rax
+	.loc 1 232 348 discriminator 1
+	cmpq	$97, %rax
+	jne	.L11
+	.loc 1 232 348 is_stmt 0 discriminator 3
+	movl	$1, %eax
+	jmp	.L12
+.L11:
+	.loc 1 232 348 discriminator 4
+	movl	$0, %eax
+.L12:
+	.loc 1 232 348 discriminator 6
+	movl	%eax, %esi
+	leaq	.LC34(%rip), %rax
+	movq	%rax, %rdi
+	call	testTrue@PLT
+.LBE2:
+	.loc 1 248 1 is_stmt 1 discriminator 6
+	nop
+	leave
+	.cfi_def_cfa 7, 8
+	ret
+	.cfi_endproc
+.LFE8:
+	.size	testSIntReduce, .-testSIntReduce
+	.section	.rodata
+.LC35:
+	.string	"t2"
+	.text
+	.type	testFoamBuffer, @function
+testFoamBuffer:
+.LFB9:
+	.loc 1 253 1
+	.cfi_startproc
+	pushq	%rbp
+	.cfi_def_cfa_offset 16
+	.cfi_offset 6, -16
+	movq	%rsp, %rbp
+	.cfi_def_cfa_register 6
+	subq	$16, %rsp
+	.loc 1 257 10
+	movl	$23, %edx
+	movl	$1, %esi
+	movl	$5, %edi
+	movl	$0, %eax
+	call	foamNew@PLT
+	movq	%rax, -8(%rbp)
+	.loc 1 258 10
+	movl	$24, %edx
+	movl	$1, %esi
+	movl	$5, %edi
+	movl	$0, %eax
+	call	foamNew@PLT
+	movq	%rax, -16(%rbp)
+	.loc 1 260 2
+	movq	-8(%rbp), %rax
+	movq	%rax, %rdi
+	call	tFoamToBuffer
+	movq	%rax, %rdx
+	movq	-8(%rbp), %rax
+	movq	%rax, %rsi
+	movq	%rdx, %rdi
+	call	foamVerifyBuffer@PLT
+	movl	%eax, %esi
+	leaq	.LC34(%rip), %rax
+	movq	%rax, %rdi
+	call	testTrue@PLT
+	.loc 1 261 2
+	movq	-16(%rbp), %rax
+	movq	%rax, %rdi
+	call	tFoamToBuffer
+	movq	%rax, %rdx
+	movq	-8(%rbp), %rax
+	movq	%rax, %rsi
+	movq	%rdx, %rdi
+	call	foamVerifyBuffer@PLT
+	movl	%eax, %esi
+	leaq	.LC35(%rip), %rax
+	movq	%rax, %rdi
+	call	testFalse@PLT
+	.loc 1 262 1
+	nop
+	leave
+	.cfi_def_cfa 7, 8
+	ret
+	.cfi_endproc
+.LFE9:
+	.size	testFoamBuffer, .-testFoamBuffer
+	.type	tFoamToBuffer, @function
+tFoamToBuffer:
+.LFB10:
+	.loc 1 266 1
+	.cfi_startproc
+	pushq	%rbp
+	.cfi_def_cfa_offset 16
+	.cfi_offset 6, -16
+	movq	%rsp, %rbp
+	.cfi_def_cfa_register 6
+	subq	$32, %rsp
+	movq	%rdi, -24(%rbp)
+	.loc 1 267 15
+	call	bufNew@PLT
+	movq	%rax, -8(%rbp)
+	.loc 1 268 2
+	movq	-24(%rbp), %rdx
+	movq	-8(%rbp), %rax
+	movq	%rdx, %rsi
+	movq	%rax, %rdi
+	call	foamToBuffer@PLT
+	.loc 1 270 9
+	movq	-8(%rbp), %rax
+	.loc 1 271 1
+	leave
+	.cfi_def_cfa 7, 8
+	ret
+	.cfi_endproc
+.LFE10:
+	.size	tFoamToBuffer, .-tFoamToBuffer
+.Letext0:
+	.file 2 "/usr/include/x86_64-linux-gnu/bits/types.h"
+	.file 3 "/usr/lib/gcc/x86_64-linux-gnu/12/include/stddef.h"
+	.file 4 "/usr/include/x86_64-linux-gnu/bits/types/struct_FILE.h"
+	.file 5 "/usr/include/x86_64-linux-gnu/bits/types/FILE.h"
+	.file 6 "./cport.h"
+	.file 7 "./buffer.h"
+	.file 8 "./axlgen.h"
+	.file 9 "./fname.h"
+	.file 10 "./srcpos.h"
+	.file 11 "./bigint.h"
+	.file 12 "./axlobs.h"
+	.file 13 "./symbol.h"
+	.file 14 "./absyn.h"
+	.file 15 "./syme.h"
+	.file 16 "./foam.h"
+	.file 17 "./lib.h"
+	.file 18 "./util.h"
+	.file 19 "./strops.h"
+	.file 20 "test/testlib.h"
+	.file 21 "./sexpr.h"
+	.section	.debug_info,"",@progbits
+.Ldebug_info0:
+	.long	0x41e2
+	.value	0x5
+	.byte	0x1
+	.byte	0x8
+	.long	.Ldebug_abbrev0
+	.uleb128 0x22
+	.long	.LASF859
+	.byte	0xc
+	.long	.LASF0
+	.long	.LASF1
+	.quad	.Ltext0
+	.quad	.Letext0-.Ltext0
+	.long	.Ldebug_line0
+	.uleb128 0x23
+	.byte	0x4
+	.byte	0x5
+	.string	"int"
+	.uleb128 0xe
+	.byte	0x1
+	.byte	0x8
+	.long	.LASF2
+	.uleb128 0xe
+	.byte	0x2
+	.byte	0x7
+	.long	.LASF3
+	.uleb128 0xe
+	.byte	0x4
+	.byte	0x7
+	.long	.LASF4
+	.uleb128 0xe
+	.byte	0x8
+	.byte	0x7
+	.long	.LASF5
+	.uleb128 0xe
+	.byte	0x1
+	.byte	0x6
+	.long	.LASF6
+	.uleb128 0xe
+	.byte	0x2
+	.byte	0x5
+	.long	.LASF7
+	.uleb128 0xe
+	.byte	0x8
+	.byte	0x5
+	.long	.LASF8
+	.uleb128 0x9
+	.long	.LASF9
+	.byte	0x2
+	.byte	0x98
+	.byte	0x12
+	.long	0x5f
+	.uleb128 0x9
+	.long	.LASF10
+	.byte	0x2
+	.byte	0x99
+	.byte	0x12
+	.long	0x5f
+	.uleb128 0x24
+	.byte	0x8
+	.uleb128 0x7
+	.long	0x85
+	.uleb128 0xe
+	.byte	0x1
+	.byte	0x6
+	.long	.LASF11
+	.uleb128 0x25
+	.long	0x85
+	.uleb128 0xe
+	.byte	0x4
+	.byte	0x4
+	.long	.LASF12
+	.uleb128 0xe
+	.byte	0x8
+	.byte	0x4
+	.long	.LASF13
+	.uleb128 0x9
+	.long	.LASF14
+	.byte	0x3
+	.byte	0xd6
+	.byte	0x1b
+	.long	0x4a
+	.uleb128 0xf
+	.long	.LASF67
+	.byte	0xd8
+	.byte	0x4
+	.byte	0x31
+	.byte	0x8
+	.long	0x232
+	.uleb128 0x6
+	.long	.LASF15
+	.byte	0x4
+	.byte	0x33
+	.byte	0x7
+	.long	0x2e
+	.byte	0
+	.uleb128 0x6
+	.long	.LASF16
+	.byte	0x4
+	.byte	0x36
+	.byte	0x9
+	.long	0x80
+	.byte	0x8
+	.uleb128 0x6
+	.long	.LASF17
+	.byte	0x4
+	.byte	0x37
+	.byte	0x9
+	.long	0x80
+	.byte	0x10
+	.uleb128 0x6
+	.long	.LASF18
+	.byte	0x4
+	.byte	0x38
+	.byte	0x9
+	.long	0x80
+	.byte	0x18
+	.uleb128 0x6
+	.long	.LASF19
+	.byte	0x4
+	.byte	0x39
+	.byte	0x9
+	.long	0x80
+	.byte	0x20
+	.uleb128 0x6
+	.long	.LASF20
+	.byte	0x4
+	.byte	0x3a
+	.byte	0x9
+	.long	0x80
+	.byte	0x28
+	.uleb128 0x6
+	.long	.LASF21
+	.byte	0x4
+	.byte	0x3b
+	.byte	0x9
+	.long	0x80
+	.byte	0x30
+	.uleb128 0x6
+	.long	.LASF22
+	.byte	0x4
+	.byte	0x3c
+	.byte	0x9
+	.long	0x80
+	.byte	0x38
+	.uleb128 0x6
+	.long	.LASF23
+	.byte	0x4
+	.byte	0x3d
+	.byte	0x9
+	.long	0x80
+	.byte	0x40
+	.uleb128 0x6
+	.long	.LASF24
+	.byte	0x4
+	.byte	0x40
+	.byte	0x9
+	.long	0x80
+	.byte	0x48
+	.uleb128 0x6
+	.long	.LASF25
+	.byte	0x4
+	.byte	0x41
+	.byte	0x9
+	.long	0x80
+	.byte	0x50
+	.uleb128 0x6
+	.long	.LASF26
+	.byte	0x4
+	.byte	0x42
+	.byte	0x9
+	.long	0x80
+	.byte	0x58
+	.uleb128 0x6
+	.long	.LASF27
+	.byte	0x4
+	.byte	0x44
+	.byte	0x16
+	.long	0x24b
+	.byte	0x60
+	.uleb128 0x6
+	.long	.LASF28
+	.byte	0x4
+	.byte	0x46
+	.byte	0x14
+	.long	0x250
+	.byte	0x68
+	.uleb128 0x6
+	.long	.LASF29
+	.byte	0x4
+	.byte	0x48
+	.byte	0x7
+	.long	0x2e
+	.byte	0x70
+	.uleb128 0x6
+	.long	.LASF30
+	.byte	0x4
+	.byte	0x49
+	.byte	0x7
+	.long	0x2e
+	.byte	0x74
+	.uleb128 0x6
+	.long	.LASF31
+	.byte	0x4
+	.byte	0x4a
+	.byte	0xb
+	.long	0x66
+	.byte	0x78
+	.uleb128 0x6
+	.long	.LASF32
+	.byte	0x4
+	.byte	0x4d
+	.byte	0x12
+	.long	0x3c
+	.byte	0x80
+	.uleb128 0x6
+	.long	.LASF33
+	.byte	0x4
+	.byte	0x4e
+	.byte	0xf
+	.long	0x51
+	.byte	0x82
+	.uleb128 0x6
+	.long	.LASF34
+	.byte	0x4
+	.byte	0x4f
+	.byte	0x8
+	.long	0x255
+	.byte	0x83
+	.uleb128 0x6
+	.long	.LASF35
+	.byte	0x4
+	.byte	0x51
+	.byte	0xf
+	.long	0x265
+	.byte	0x88
+	.uleb128 0x6
+	.long	.LASF36
+	.byte	0x4
+	.byte	0x59
+	.byte	0xd
+	.long	0x72
+	.byte	0x90
+	.uleb128 0x6
+	.long	.LASF37
+	.byte	0x4
+	.byte	0x5b
+	.byte	0x17
+	.long	0x26f
+	.byte	0x98
+	.uleb128 0x6
+	.long	.LASF38
+	.byte	0x4
+	.byte	0x5c
+	.byte	0x19
+	.long	0x279
+	.byte	0xa0
+	.uleb128 0x6
+	.long	.LASF39
+	.byte	0x4
+	.byte	0x5d
+	.byte	0x14
+	.long	0x250
+	.byte	0xa8
+	.uleb128 0x6
+	.long	.LASF40
+	.byte	0x4
+	.byte	0x5e
+	.byte	0x9
+	.long	0x7e
+	.byte	0xb0
+	.uleb128 0x6
+	.long	.LASF41
+	.byte	0x4
+	.byte	0x5f
+	.byte	0xa
+	.long	0x9f
+	.byte	0xb8
+	.uleb128 0x6
+	.long	.LASF42
+	.byte	0x4
+	.byte	0x60
+	.byte	0x7
+	.long	0x2e
+	.byte	0xc0
+	.uleb128 0x6
+	.long	.LASF43
+	.byte	0x4
+	.byte	0x62
+	.byte	0x8
+	.long	0x27e
+	.byte	0xc4
+	.byte	0
+	.uleb128 0x9
+	.long	.LASF44
+	.byte	0x5
+	.byte	0x7
+	.byte	0x19
+	.long	0xab
+	.uleb128 0x26
+	.long	.LASF860
+	.byte	0x4
+	.byte	0x2b
+	.byte	0xe
+	.uleb128 0xc
+	.long	.LASF45
+	.uleb128 0x7
+	.long	0x246
+	.uleb128 0x7
+	.long	0xab
+	.uleb128 0x10
+	.long	0x85
+	.long	0x265
+	.uleb128 0x11
+	.long	0x4a
+	.byte	0
+	.byte	0
+	.uleb128 0x7
+	.long	0x23e
+	.uleb128 0xc
+	.long	.LASF46
+	.uleb128 0x7
+	.long	0x26a
+	.uleb128 0xc
+	.long	.LASF47
+	.uleb128 0x7
+	.long	0x274
+	.uleb128 0x10
+	.long	0x85
+	.long	0x28e
+	.uleb128 0x11
+	.long	0x4a
+	.byte	0x13
+	.byte	0
+	.uleb128 0x7
+	.long	0x232
+	.uleb128 0xe
+	.byte	0x8
+	.byte	0x5
+	.long	.LASF48
+	.uleb128 0x7
+	.long	0x8c
+	.uleb128 0xb
+	.long	.LASF49
+	.byte	0x6
+	.value	0x138
+	.byte	0x17
+	.long	0x35
+	.uleb128 0xb
+	.long	.LASF50
+	.byte	0x6
+	.value	0x139
+	.byte	0x18
+	.long	0x3c
+	.uleb128 0xb
+	.long	.LASF51
+	.byte	0x6
+	.value	0x13a
+	.byte	0x17
+	.long	0x4a
+	.uleb128 0xb
+	.long	.LASF52
+	.byte	0x6
+	.value	0x141
+	.byte	0x10
+	.long	0x5f
+	.uleb128 0xb
+	.long	.LASF53
+	.byte	0x6
+	.value	0x142
+	.byte	0x19
+	.long	0x4a
+	.uleb128 0xb
+	.long	.LASF54
+	.byte	0x6
+	.value	0x14e
+	.byte	0x16
+	.long	0x43
+	.uleb128 0xb
+	.long	.LASF55
+	.byte	0x6
+	.value	0x156
+	.byte	0xd
+	.long	0x2e
+	.uleb128 0xb
+	.long	.LASF56
+	.byte	0x6
+	.value	0x157
+	.byte	0xf
+	.long	0x2d3
+	.uleb128 0xb
+	.long	.LASF57
+	.byte	0x6
+	.value	0x158
+	.byte	0x10
+	.long	0x9f
+	.uleb128 0xb
+	.long	.LASF58
+	.byte	0x6
+	.value	0x159
+	.byte	0xf
+	.long	0x2b9
+	.uleb128 0xb
+	.long	.LASF59
+	.byte	0x6
+	.value	0x16a
+	.byte	0xf
+	.long	0x80
+	.uleb128 0xb
+	.long	.LASF60
+	.byte	0x6
+	.value	0x16b
+	.byte	0x15
+	.long	0x29a
+	.uleb128 0xb
+	.long	.LASF61
+	.byte	0x6
+	.value	0x176
+	.byte	0x11
+	.long	0x91
+	.uleb128 0xb
+	.long	.LASF62
+	.byte	0x6
+	.value	0x178
+	.byte	0x10
+	.long	0x98
+	.uleb128 0xb
+	.long	.LASF63
+	.byte	0x6
+	.value	0x17a
+	.byte	0x10
+	.long	0x98
+	.uleb128 0x9
+	.long	.LASF64
+	.byte	0x7
+	.byte	0x10
+	.byte	0x18
+	.long	0x36e
+	.uleb128 0x7
+	.long	0x373
+	.uleb128 0xc
+	.long	.LASF65
+	.uleb128 0x7
+	.long	0x2e
+	.uleb128 0x9
+	.long	.LASF66
+	.byte	0x8
+	.byte	0x28
+	.byte	0x1b
+	.long	0x389
+	.uleb128 0x7
+	.long	0x38e
+	.uleb128 0xf
+	.long	.LASF68
+	.byte	0x50
+	.byte	0x9
+	.byte	0xe
+	.byte	0x8
+	.long	0x3a9
+	.uleb128 0x6
+	.long	.LASF69
+	.byte	0x9
+	.byte	0xf
+	.byte	0x9
+	.long	0x10f3
+	.byte	0
+	.byte	0
+	.uleb128 0x9
+	.long	.LASF70
+	.byte	0x8
+	.byte	0x29
+	.byte	0xf
+	.long	0x2b9
+	.uleb128 0x9
+	.long	.LASF71
+	.byte	0x8
+	.byte	0x2a
+	.byte	0x1b
+	.long	0x3c1
+	.uleb128 0x7
+	.long	0x3c6
+	.uleb128 0xf
+	.long	.LASF72
+	.byte	0x10
+	.byte	0xa
+	.byte	0x43
+	.byte	0x8
+	.long	0x3ee
+	.uleb128 0x6
+	.long	.LASF73
+	.byte	0xa
+	.byte	0x44
+	.byte	0x9
+	.long	0x3a9
+	.byte	0
+	.uleb128 0x6
+	.long	.LASF74
+	.byte	0xa
+	.byte	0x45
+	.byte	0xe
+	.long	0x3ee
+	.byte	0x8
+	.byte	0
+	.uleb128 0x9
+	.long	.LASF75
+	.byte	0x8
+	.byte	0x2b
+	.byte	0x19
+	.long	0x3fa
+	.uleb128 0x27
+	.long	.LASF87
+	.byte	0x8
+	.byte	0xa
+	.byte	0x3e
+	.byte	0x7
+	.long	0x41e
+	.uleb128 0x1a
+	.long	.LASF73
+	.byte	0x3f
+	.byte	0x9
+	.long	0x3a9
+	.uleb128 0x1a
+	.long	.LASF76
+	.byte	0x40
+	.byte	0xd
+	.long	0x3b5
+	.byte	0
+	.uleb128 0x9
+	.long	.LASF77
+	.byte	0x8
+	.byte	0x2e
+	.byte	0x17
+	.long	0x42a
+	.uleb128 0x7
+	.long	0x42f
+	.uleb128 0xf
+	.long	.LASF78
+	.byte	0x40
+	.byte	0xb
+	.byte	0x11
+	.byte	0x8
+	.long	0x471
+	.uleb128 0x6
+	.long	.LASF79
+	.byte	0xb
+	.byte	0x12
+	.byte	0x7
+	.long	0x2ed
+	.byte	0
+	.uleb128 0x6
+	.long	.LASF80
+	.byte	0xb
+	.byte	0x13
+	.byte	0x9
+	.long	0x307
+	.byte	0x8
+	.uleb128 0x6
+	.long	.LASF81
+	.byte	0xb
+	.byte	0x14
+	.byte	0x9
+	.long	0x307
+	.byte	0x10
+	.uleb128 0x6
+	.long	.LASF82
+	.byte	0xb
+	.byte	0x15
+	.byte	0x8
+	.long	0x3c48
+	.byte	0x18
+	.byte	0
+	.uleb128 0x9
+	.long	.LASF83
+	.byte	0xc
+	.byte	0x19
+	.byte	0x19
+	.long	0x47d
+	.uleb128 0x7
+	.long	0x482
+	.uleb128 0xf
+	.long	.LASF84
+	.byte	0x10
+	.byte	0xd
+	.byte	0x19
+	.byte	0x8
+	.long	0x4aa
+	.uleb128 0x6
+	.long	.LASF85
+	.byte	0xd
+	.byte	0x1a
+	.byte	0x13
+	.long	0x1103
+	.byte	0
+	.uleb128 0x16
+	.string	"str"
+	.byte	0xd
+	.byte	0x1b
+	.byte	0x9
+	.long	0x321
+	.byte	0x8
+	.byte	0
+	.uleb128 0x1b
+	.string	"Doc"
+	.byte	0x1c
+	.long	0x4b4
+	.uleb128 0x7
+	.long	0x4b9
+	.uleb128 0x28
+	.string	"doc"
+	.uleb128 0x9
+	.long	.LASF86
+	.byte	0xc
+	.byte	0x1d
+	.byte	0x17
+	.long	0x4ca
+	.uleb128 0x7
+	.long	0x4cf
+	.uleb128 0x1c
+	.long	.LASF88
+	.byte	0x80
+	.byte	0xe
+	.value	0x2e0
+	.long	0x892
+	.uleb128 0x4
+	.long	.LASF89
+	.byte	0xe
+	.value	0x2e4
+	.byte	0xf
+	.long	0x11d7
+	.uleb128 0x4
+	.long	.LASF90
+	.byte	0xe
+	.value	0x2e5
+	.byte	0xf
+	.long	0x1295
+	.uleb128 0x4
+	.long	.LASF91
+	.byte	0xe
+	.value	0x2ec
+	.byte	0x11
+	.long	0x12bf
+	.uleb128 0x4
+	.long	.LASF92
+	.byte	0xe
+	.value	0x2ed
+	.byte	0xe
+	.long	0x12e9
+	.uleb128 0x4
+	.long	.LASF93
+	.byte	0xe
+	.value	0x2ee
+	.byte	0x10
+	.long	0x1313
+	.uleb128 0x4
+	.long	.LASF94
+	.byte	0xe
+	.value	0x2f0
+	.byte	0x13
+	.long	0x133d
+	.uleb128 0x4
+	.long	.LASF95
+	.byte	0xe
+	.value	0x2f1
+	.byte	0x16
+	.long	0x1367
+	.uleb128 0x4
+	.long	.LASF96
+	.byte	0xe
+	.value	0x2f2
+	.byte	0x15
+	.long	0x13bb
+	.uleb128 0x4
+	.long	.LASF97
+	.byte	0xe
+	.value	0x2f3
+	.byte	0x14
+	.long	0x1391
+	.uleb128 0x4
+	.long	.LASF98
+	.byte	0xe
+	.value	0x2f6
+	.byte	0xf
+	.long	0x13e5
+	.uleb128 0x4
+	.long	.LASF99
+	.byte	0xe
+	.value	0x2f7
+	.byte	0xf
+	.long	0x141d
+	.uleb128 0x4
+	.long	.LASF100
+	.byte	0xe
+	.value	0x2f8
+	.byte	0x11
+	.long	0x1447
+	.uleb128 0x4
+	.long	.LASF101
+	.byte	0xe
+	.value	0x2f9
+	.byte	0x12
+	.long	0x147e
+	.uleb128 0x4
+	.long	.LASF102
+	.byte	0xe
+	.value	0x2fa
+	.byte	0x12
+	.long	0x14a8
+	.uleb128 0x4
+	.long	.LASF103
+	.byte	0xe
+	.value	0x2fb
+	.byte	0x11
+	.long	0x14e0
+	.uleb128 0x4
+	.long	.LASF104
+	.byte	0xe
+	.value	0x2fc
+	.byte	0x13
+	.long	0x150a
+	.uleb128 0x4
+	.long	.LASF105
+	.byte	0xe
+	.value	0x2fd
+	.byte	0x13
+	.long	0x1534
+	.uleb128 0x4
+	.long	.LASF106
+	.byte	0xe
+	.value	0x2fe
+	.byte	0x14
+	.long	0x15cd
+	.uleb128 0x4
+	.long	.LASF107
+	.byte	0xe
+	.value	0x2ff
+	.byte	0x13
+	.long	0x1605
+	.uleb128 0x4
+	.long	.LASF108
+	.byte	0xe
+	.value	0x300
+	.byte	0x11
+	.long	0x163d
+	.uleb128 0x4
+	.long	.LASF109
+	.byte	0xe
+	.value	0x301
+	.byte	0x13
+	.long	0x1667
+	.uleb128 0x4
+	.long	.LASF110
+	.byte	0xe
+	.value	0x302
+	.byte	0x12
+	.long	0x1691
+	.uleb128 0x4
+	.long	.LASF111
+	.byte	0xe
+	.value	0x303
+	.byte	0x13
+	.long	0x16c9
+	.uleb128 0x4
+	.long	.LASF112
+	.byte	0xe
+	.value	0x304
+	.byte	0xe
+	.long	0x156b
+	.uleb128 0x4
+	.long	.LASF113
+	.byte	0xe
+	.value	0x305
+	.byte	0x16
+	.long	0x1595
+	.uleb128 0x4
+	.long	.LASF114
+	.byte	0xe
+	.value	0x306
+	.byte	0x12
+	.long	0x16f3
+	.uleb128 0x4
+	.long	.LASF115
+	.byte	0xe
+	.value	0x307
+	.byte	0x10
+	.long	0x172b
+	.uleb128 0x4
+	.long	.LASF116
+	.byte	0xe
+	.value	0x308
+	.byte	0x12
+	.long	0x1763
+	.uleb128 0x4
+	.long	.LASF117
+	.byte	0xe
+	.value	0x309
+	.byte	0x12
+	.long	0x17a9
+	.uleb128 0x4
+	.long	.LASF118
+	.byte	0xe
+	.value	0x30a
+	.byte	0xf
+	.long	0x17d3
+	.uleb128 0x4
+	.long	.LASF119
+	.byte	0xe
+	.value	0x30b
+	.byte	0x11
+	.long	0x17fd
+	.uleb128 0x4
+	.long	.LASF120
+	.byte	0xe
+	.value	0x30c
+	.byte	0xf
+	.long	0x1827
+	.uleb128 0x4
+	.long	.LASF121
+	.byte	0xe
+	.value	0x30d
+	.byte	0x19
+	.long	0x186d
+	.uleb128 0x4
+	.long	.LASF122
+	.byte	0xe
+	.value	0x30e
+	.byte	0x19
+	.long	0x18a5
+	.uleb128 0x4
+	.long	.LASF123
+	.byte	0xe
+	.value	0x30f
+	.byte	0x10
+	.long	0x18dd
+	.uleb128 0x4
+	.long	.LASF124
+	.byte	0xe
+	.value	0x310
+	.byte	0x14
+	.long	0x1907
+	.uleb128 0x4
+	.long	.LASF125
+	.byte	0xe
+	.value	0x311
+	.byte	0x10
+	.long	0x193f
+	.uleb128 0x4
+	.long	.LASF126
+	.byte	0xe
+	.value	0x312
+	.byte	0xf
+	.long	0x1969
+	.uleb128 0x4
+	.long	.LASF127
+	.byte	0xe
+	.value	0x313
+	.byte	0x10
+	.long	0x19a1
+	.uleb128 0x4
+	.long	.LASF128
+	.byte	0xe
+	.value	0x314
+	.byte	0x10
+	.long	0x19cb
+	.uleb128 0x4
+	.long	.LASF129
+	.byte	0xe
+	.value	0x315
+	.byte	0xe
+	.long	0x19f5
+	.uleb128 0x4
+	.long	.LASF130
+	.byte	0xe
+	.value	0x316
+	.byte	0x12
+	.long	0x1a3b
+	.uleb128 0x4
+	.long	.LASF131
+	.byte	0xe
+	.value	0x317
+	.byte	0x12
+	.long	0x1a73
+	.uleb128 0x4
+	.long	.LASF132
+	.byte	0xe
+	.value	0x318
+	.byte	0x13
+	.long	0x1aab
+	.uleb128 0x4
+	.long	.LASF133
+	.byte	0xe
+	.value	0x319
+	.byte	0x11
+	.long	0x1ad5
+	.uleb128 0x4
+	.long	.LASF134
+	.byte	0xe
+	.value	0x31a
+	.byte	0x12
+	.long	0x1b0d
+	.uleb128 0x4
+	.long	.LASF135
+	.byte	0xe
+	.value	0x31b
+	.byte	0xf
+	.long	0x1b53
+	.uleb128 0x4
+	.long	.LASF136
+	.byte	0xe
+	.value	0x31c
+	.byte	0x11
+	.long	0x1b8b
+	.uleb128 0x4
+	.long	.LASF137
+	.byte	0xe
+	.value	0x31d
+	.byte	0x11
+	.long	0x1bb5
+	.uleb128 0x4
+	.long	.LASF138
+	.byte	0xe
+	.value	0x31e
+	.byte	0x13
+	.long	0x1bdf
+	.uleb128 0x4
+	.long	.LASF139
+	.byte	0xe
+	.value	0x31f
+	.byte	0x13
+	.long	0x1c17
+	.uleb128 0x4
+	.long	.LASF140
+	.byte	0xe
+	.value	0x320
+	.byte	0x11
+	.long	0x1c4f
+	.uleb128 0x4
+	.long	.LASF141
+	.byte	0xe
+	.value	0x321
+	.byte	0xf
+	.long	0x1c6b
+	.uleb128 0x4
+	.long	.LASF142
+	.byte	0xe
+	.value	0x322
+	.byte	0x13
+	.long	0x1c95
+	.uleb128 0x4
+	.long	.LASF143
+	.byte	0xe
+	.value	0x323
+	.byte	0xe
+	.long	0x1cb1
+	.uleb128 0x4
+	.long	.LASF144
+	.byte	0xe
+	.value	0x324
+	.byte	0x11
+	.long	0x1cdb
+	.uleb128 0x4
+	.long	.LASF145
+	.byte	0xe
+	.value	0x325
+	.byte	0x13
+	.long	0x1d05
+	.uleb128 0x4
+	.long	.LASF146
+	.byte	0xe
+	.value	0x326
+	.byte	0x15
+	.long	0x1d4b
+	.uleb128 0x4
+	.long	.LASF147
+	.byte	0xe
+	.value	0x327
+	.byte	0x13
+	.long	0x1d83
+	.uleb128 0x4
+	.long	.LASF148
+	.byte	0xe
+	.value	0x328
+	.byte	0x11
+	.long	0x1dbb
+	.uleb128 0x4
+	.long	.LASF149
+	.byte	0xe
+	.value	0x329
+	.byte	0x15
+	.long	0x1de5
+	.uleb128 0x4
+	.long	.LASF150
+	.byte	0xe
+	.value	0x32a
+	.byte	0x12
+	.long	0x1e0f
+	.uleb128 0x4
+	.long	.LASF151
+	.byte	0xe
+	.value	0x32b
+	.byte	0x16
+	.long	0x1e47
+	.uleb128 0x4
+	.long	.LASF152
+	.byte	0xe
+	.value	0x32c
+	.byte	0x15
+	.long	0x1e7f
+	.uleb128 0x4
+	.long	.LASF153
+	.byte	0xe
+	.value	0x32d
+	.byte	0x12
+	.long	0x1eb7
+	.uleb128 0x4
+	.long	.LASF154
+	.byte	0xe
+	.value	0x32e
+	.byte	0x12
+	.long	0x1ee1
+	.uleb128 0x4
+	.long	.LASF155
+	.byte	0xe
+	.value	0x32f
+	.byte	0x14
+	.long	0x1f19
+	.uleb128 0x4
+	.long	.LASF156
+	.byte	0xe
+	.value	0x330
+	.byte	0x10
+	.long	0x1f43
+	.uleb128 0x4
+	.long	.LASF157
+	.byte	0xe
+	.value	0x331
+	.byte	0xf
+	.long	0x1f6d
+	.uleb128 0x4
+	.long	.LASF158
+	.byte	0xe
+	.value	0x332
+	.byte	0x11
+	.long	0x1fc0
+	.uleb128 0x4
+	.long	.LASF159
+	.byte	0xe
+	.value	0x333
+	.byte	0x11
+	.long	0x1ff8
+	.uleb128 0x4
+	.long	.LASF160
+	.byte	0xe
+	.value	0x334
+	.byte	0x10
+	.long	0x2022
+	.uleb128 0x4
+	.long	.LASF161
+	.byte	0xe
+	.value	0x335
+	.byte	0x11
+	.long	0x205a
+	.byte	0
+	.uleb128 0x9
+	.long	.LASF162
+	.byte	0xc
+	.byte	0x23
+	.byte	0x17
+	.long	0x89e
+	.uleb128 0x7
+	.long	0x8a3
+	.uleb128 0xf
+	.long	.LASF163
+	.byte	0x40
+	.byte	0xf
+	.byte	0xcf
+	.byte	0x8
+	.long	0x93f
+	.uleb128 0x6
+	.long	.LASF164
+	.byte	0xf
+	.byte	0xd0
+	.byte	0x8
+	.long	0x29f
+	.byte	0
+	.uleb128 0x6
+	.long	.LASF165
+	.byte	0xf
+	.byte	0xd1
+	.byte	0x8
+	.long	0x29f
+	.byte	0x1
+	.uleb128 0x6
+	.long	.LASF166
+	.byte	0xf
+	.byte	0xd2
+	.byte	0x9
+	.long	0x2ac
+	.byte	0x2
+	.uleb128 0x16
+	.string	"id"
+	.byte	0xf
+	.byte	0xd4
+	.byte	0x9
+	.long	0x471
+	.byte	0x8
+	.uleb128 0x16
+	.string	"lib"
+	.byte	0xf
+	.byte	0xd5
+	.byte	0x6
+	.long	0xd8d
+	.byte	0x10
+	.uleb128 0x6
+	.long	.LASF167
+	.byte	0xf
+	.byte	0xd6
+	.byte	0x7
+	.long	0x2fa
+	.byte	0x18
+	.uleb128 0x6
+	.long	.LASF168
+	.byte	0xf
+	.byte	0xd7
+	.byte	0x8
+	.long	0x93f
+	.byte	0x20
+	.uleb128 0x6
+	.long	.LASF169
+	.byte	0xf
+	.byte	0xd9
+	.byte	0xf
+	.long	0x43
+	.byte	0x28
+	.uleb128 0x6
+	.long	.LASF170
+	.byte	0xf
+	.byte	0xda
+	.byte	0xf
+	.long	0x43
+	.byte	0x2c
+	.uleb128 0x6
+	.long	.LASF171
+	.byte	0xf
+	.byte	0xdb
+	.byte	0x7
+	.long	0x892
+	.byte	0x30
+	.uleb128 0x6
+	.long	.LASF172
+	.byte	0xf
+	.byte	0xdc
+	.byte	0x9
+	.long	0x10b5
+	.byte	0x38
+	.byte	0
+	.uleb128 0x9
+	.long	.LASF173
+	.byte	0xc
+	.byte	0x24
+	.byte	0x18
+	.long	0x94b
+	.uleb128 0x7
+	.long	0x950
+	.uleb128 0xc
+	.long	.LASF174
+	.uleb128 0x9
+	.long	.LASF175
+	.byte	0xc
+	.byte	0x25
+	.byte	0x18
+	.long	0x961
+	.uleb128 0x7
+	.long	0x966
+	.uleb128 0xc
+	.long	.LASF176
+	.uleb128 0x9
+	.long	.LASF177
+	.byte	0xc
+	.byte	0x28
+	.byte	0x16
+	.long	0x977
+	.uleb128 0x7
+	.long	0x97c
+	.uleb128 0x1c
+	.long	.LASF178
+	.byte	0x98
+	.byte	0x10
+	.value	0x4af
+	.long	0xd8d
+	.uleb128 0x14
+	.string	"hdr"
+	.byte	0x10
+	.value	0x4b0
+	.byte	0x11
+	.long	0x2a8c
+	.uleb128 0x4
+	.long	.LASF179
+	.byte	0x10
+	.value	0x4b1
+	.byte	0x11
+	.long	0x2b55
+	.uleb128 0x4
+	.long	.LASF180
+	.byte	0x10
+	.value	0x4b3
+	.byte	0x11
+	.long	0x2b8f
+	.uleb128 0x4
+	.long	.LASF181
+	.byte	0x10
+	.value	0x4b4
+	.byte	0x12
+	.long	0x2bab
+	.uleb128 0x4
+	.long	.LASF182
+	.byte	0x10
+	.value	0x4b5
+	.byte	0x12
+	.long	0x2bd5
+	.uleb128 0x4
+	.long	.LASF183
+	.byte	0x10
+	.value	0x4b6
+	.byte	0x12
+	.long	0x2bff
+	.uleb128 0x4
+	.long	.LASF184
+	.byte	0x10
+	.value	0x4b7
+	.byte	0x12
+	.long	0x2c29
+	.uleb128 0x4
+	.long	.LASF185
+	.byte	0x10
+	.value	0x4b8
+	.byte	0x12
+	.long	0x2c53
+	.uleb128 0x4
+	.long	.LASF186
+	.byte	0x10
+	.value	0x4b9
+	.byte	0x12
+	.long	0x2c7d
+	.uleb128 0x4
+	.long	.LASF187
+	.byte	0x10
+	.value	0x4ba
+	.byte	0x12
+	.long	0x2ca7
+	.uleb128 0x4
+	.long	.LASF188
+	.byte	0x10
+	.value	0x4bb
+	.byte	0x12
+	.long	0x2cd1
+	.uleb128 0x4
+	.long	.LASF189
+	.byte	0x10
+	.value	0x4bc
+	.byte	0x12
+	.long	0x2cfb
+	.uleb128 0x4
+	.long	.LASF190
+	.byte	0x10
+	.value	0x4bd
+	.byte	0x11
+	.long	0x2d25
+	.uleb128 0x4
+	.long	.LASF191
+	.byte	0x10
+	.value	0x4be
+	.byte	0x11
+	.long	0x2d5f
+	.uleb128 0x4
+	.long	.LASF192
+	.byte	0x10
+	.value	0x4bf
+	.byte	0x11
+	.long	0x2da7
+	.uleb128 0x4
+	.long	.LASF193
+	.byte	0x10
+	.value	0x4c0
+	.byte	0x12
+	.long	0x2def
+	.uleb128 0x4
+	.long	.LASF194
+	.byte	0x10
+	.value	0x4c1
+	.byte	0x12
+	.long	0x2e35
+	.uleb128 0x4
+	.long	.LASF195
+	.byte	0x10
+	.value	0x4c2
+	.byte	0x12
+	.long	0x2f07
+	.uleb128 0x4
+	.long	.LASF196
+	.byte	0x10
+	.value	0x4c4
+	.byte	0x12
+	.long	0x2fae
+	.uleb128 0x4
+	.long	.LASF197
+	.byte	0x10
+	.value	0x4c5
+	.byte	0x13
+	.long	0x2f3f
+	.uleb128 0x4
+	.long	.LASF198
+	.byte	0x10
+	.value	0x4c6
+	.byte	0x13
+	.long	0x3001
+	.uleb128 0x4
+	.long	.LASF199
+	.byte	0x10
+	.value	0x4c7
+	.byte	0x14
+	.long	0x3039
+	.uleb128 0x4
+	.long	.LASF200
+	.byte	0x10
+	.value	0x4c8
+	.byte	0x12
+	.long	0x3063
+	.uleb128 0x4
+	.long	.LASF201
+	.byte	0x10
+	.value	0x4c9
+	.byte	0x12
+	.long	0x308d
+	.uleb128 0x4
+	.long	.LASF202
+	.byte	0x10
+	.value	0x4ca
+	.byte	0x11
+	.long	0x30b7
+	.uleb128 0x4
+	.long	.LASF203
+	.byte	0x10
+	.value	0x4cb
+	.byte	0x12
+	.long	0x30ef
+	.uleb128 0x4
+	.long	.LASF204
+	.byte	0x10
+	.value	0x4cd
+	.byte	0x11
+	.long	0x3119
+	.uleb128 0x4
+	.long	.LASF205
+	.byte	0x10
+	.value	0x4ce
+	.byte	0x11
+	.long	0x3143
+	.uleb128 0x4
+	.long	.LASF206
+	.byte	0x10
+	.value	0x4cf
+	.byte	0x11
+	.long	0x316d
+	.uleb128 0x4
+	.long	.LASF207
+	.byte	0x10
+	.value	0x4d0
+	.byte	0x11
+	.long	0x31a5
+	.uleb128 0x4
+	.long	.LASF208
+	.byte	0x10
+	.value	0x4d1
+	.byte	0x13
+	.long	0x31f9
+	.uleb128 0x4
+	.long	.LASF209
+	.byte	0x10
+	.value	0x4d2
+	.byte	0x13
+	.long	0x31cf
+	.uleb128 0x4
+	.long	.LASF210
+	.byte	0x10
+	.value	0x4d3
+	.byte	0x11
+	.long	0x3223
+	.uleb128 0x4
+	.long	.LASF211
+	.byte	0x10
+	.value	0x4d4
+	.byte	0x12
+	.long	0x324d
+	.uleb128 0x4
+	.long	.LASF212
+	.byte	0x10
+	.value	0x4d5
+	.byte	0x12
+	.long	0x3285
+	.uleb128 0x4
+	.long	.LASF213
+	.byte	0x10
+	.value	0x4d6
+	.byte	0x13
+	.long	0x32bd
+	.uleb128 0x4
+	.long	.LASF214
+	.byte	0x10
+	.value	0x4d7
+	.byte	0x11
+	.long	0x32e7
+	.uleb128 0x4
+	.long	.LASF215
+	.byte	0x10
+	.value	0x4d8
+	.byte	0x13
+	.long	0x3311
+	.uleb128 0x4
+	.long	.LASF216
+	.byte	0x10
+	.value	0x4d9
+	.byte	0x12
+	.long	0x333b
+	.uleb128 0x4
+	.long	.LASF217
+	.byte	0x10
+	.value	0x4da
+	.byte	0x13
+	.long	0x3365
+	.uleb128 0x4
+	.long	.LASF218
+	.byte	0x10
+	.value	0x4db
+	.byte	0x15
+	.long	0x338f
+	.uleb128 0x4
+	.long	.LASF219
+	.byte	0x10
+	.value	0x4dc
+	.byte	0x13
+	.long	0x33b9
+	.uleb128 0x4
+	.long	.LASF220
+	.byte	0x10
+	.value	0x4dd
+	.byte	0x12
+	.long	0x33e3
+	.uleb128 0x4
+	.long	.LASF221
+	.byte	0x10
+	.value	0x4de
+	.byte	0x12
+	.long	0x34d1
+	.uleb128 0x4
+	.long	.LASF222
+	.byte	0x10
+	.value	0x4df
+	.byte	0x13
+	.long	0x3461
+	.uleb128 0x4
+	.long	.LASF223
+	.byte	0x10
+	.value	0x4e0
+	.byte	0x13
+	.long	0x3517
+	.uleb128 0x4
+	.long	.LASF224
+	.byte	0x10
+	.value	0x4e1
+	.byte	0x13
+	.long	0x355d
+	.uleb128 0x4
+	.long	.LASF225
+	.byte	0x10
+	.value	0x4e2
+	.byte	0x12
+	.long	0x35b1
+	.uleb128 0x4
+	.long	.LASF226
+	.byte	0x10
+	.value	0x4e3
+	.byte	0x12
+	.long	0x3605
+	.uleb128 0x4
+	.long	.LASF227
+	.byte	0x10
+	.value	0x4e5
+	.byte	0x13
+	.long	0x362f
+	.uleb128 0x4
+	.long	.LASF228
+	.byte	0x10
+	.value	0x4e6
+	.byte	0x11
+	.long	0x3659
+	.uleb128 0x4
+	.long	.LASF229
+	.byte	0x10
+	.value	0x4e7
+	.byte	0x11
+	.long	0x3675
+	.uleb128 0x4
+	.long	.LASF230
+	.byte	0x10
+	.value	0x4e8
+	.byte	0x10
+	.long	0x36ad
+	.uleb128 0x4
+	.long	.LASF231
+	.byte	0x10
+	.value	0x4e9
+	.byte	0x11
+	.long	0x36e5
+	.uleb128 0x4
+	.long	.LASF232
+	.byte	0x10
+	.value	0x4ea
+	.byte	0x14
+	.long	0x39b9
+	.uleb128 0x4
+	.long	.LASF233
+	.byte	0x10
+	.value	0x4eb
+	.byte	0x12
+	.long	0x370f
+	.uleb128 0x4
+	.long	.LASF234
+	.byte	0x10
+	.value	0x4ec
+	.byte	0x12
+	.long	0x3747
+	.uleb128 0x4
+	.long	.LASF235
+	.byte	0x10
+	.value	0x4ed
+	.byte	0x13
+	.long	0x3429
+	.uleb128 0x4
+	.long	.LASF236
+	.byte	0x10
+	.value	0x4ee
+	.byte	0x13
+	.long	0x3771
+	.uleb128 0x4
+	.long	.LASF237
+	.byte	0x10
+	.value	0x4ef
+	.byte	0x12
+	.long	0x37a9
+	.uleb128 0x4
+	.long	.LASF238
+	.byte	0x10
+	.value	0x4f0
+	.byte	0x13
+	.long	0x37e1
+	.uleb128 0x4
+	.long	.LASF239
+	.byte	0x10
+	.value	0x4f1
+	.byte	0x13
+	.long	0x3834
+	.uleb128 0x4
+	.long	.LASF240
+	.byte	0x10
+	.value	0x4f2
+	.byte	0x13
+	.long	0x386b
+	.uleb128 0x4
+	.long	.LASF241
+	.byte	0x10
+	.value	0x4f3
+	.byte	0x13
+	.long	0x38b0
+	.uleb128 0x4
+	.long	.LASF242
+	.byte	0x10
+	.value	0x4f4
+	.byte	0x14
+	.long	0x3903
+	.uleb128 0x4
+	.long	.LASF243
+	.byte	0x10
+	.value	0x4f5
+	.byte	0x14
+	.long	0x3957
+	.uleb128 0x4
+	.long	.LASF244
+	.byte	0x10
+	.value	0x4f6
+	.byte	0x15
+	.long	0x3a28
+	.uleb128 0x4
+	.long	.LASF245
+	.byte	0x10
+	.value	0x4f7
+	.byte	0x14
+	.long	0x3a60
+	.uleb128 0x4
+	.long	.LASF246
+	.byte	0x10
+	.value	0x4f8
+	.byte	0x12
+	.long	0x3a7c
+	.uleb128 0x4
+	.long	.LASF247
+	.byte	0x10
+	.value	0x4f9
+	.byte	0x13
+	.long	0x34a7
+	.uleb128 0x4
+	.long	.LASF248
+	.byte	0x10
+	.value	0x4fa
+	.byte	0x14
+	.long	0x3ab4
+	.uleb128 0x4
+	.long	.LASF249
+	.byte	0x10
+	.value	0x4fc
+	.byte	0x12
+	.long	0x39f0
+	.uleb128 0x4
+	.long	.LASF250
+	.byte	0x10
+	.value	0x4fe
+	.byte	0x12
+	.long	0x3ade
+	.uleb128 0x4
+	.long	.LASF251
+	.byte	0x10
+	.value	0x4ff
+	.byte	0x12
+	.long	0x3b08
+	.uleb128 0x4
+	.long	.LASF252
+	.byte	0x10
+	.value	0x500
+	.byte	0x12
+	.long	0x3b32
+	.uleb128 0x4
+	.long	.LASF253
+	.byte	0x10
+	.value	0x501
+	.byte	0x13
+	.long	0x3b5c
+	.uleb128 0x4
+	.long	.LASF254
+	.byte	0x10
+	.value	0x502
+	.byte	0x13
+	.long	0x3b94
+	.uleb128 0x4
+	.long	.LASF255
+	.byte	0x10
+	.value	0x503
+	.byte	0x15
+	.long	0x3bcc
+	.uleb128 0x4
+	.long	.LASF256
+	.byte	0x10
+	.value	0x504
+	.byte	0x14
+	.long	0x3c12
+	.byte	0
+	.uleb128 0x1b
+	.string	"Lib"
+	.byte	0x2a
+	.long	0xd97
+	.uleb128 0x7
+	.long	0xd9c
+	.uleb128 0x29
+	.string	"lib"
+	.value	0x308
+	.byte	0x11
+	.byte	0x63
+	.byte	0x8
+	.long	0xf4b
+	.uleb128 0x6
+	.long	.LASF257
+	.byte	0x11
+	.byte	0x64
+	.byte	0xb
+	.long	0x37d
+	.byte	0
+	.uleb128 0x6
+	.long	.LASF258
+	.byte	0x11
+	.byte	0x65
+	.byte	0xa
+	.long	0xf4b
+	.byte	0x8
+	.uleb128 0x6
+	.long	.LASF259
+	.byte	0x11
+	.byte	0x66
+	.byte	0x8
+	.long	0x29f
+	.byte	0x10
+	.uleb128 0x6
+	.long	.LASF260
+	.byte	0x11
+	.byte	0x67
+	.byte	0x8
+	.long	0x29f
+	.byte	0x11
+	.uleb128 0x6
+	.long	.LASF261
+	.byte	0x11
+	.byte	0x68
+	.byte	0x8
+	.long	0x29f
+	.byte	0x12
+	.uleb128 0x6
+	.long	.LASF262
+	.byte	0x11
+	.byte	0x69
+	.byte	0x9
+	.long	0x321
+	.byte	0x18
+	.uleb128 0x6
+	.long	.LASF263
+	.byte	0x11
+	.byte	0x6a
+	.byte	0x9
+	.long	0x28e
+	.byte	0x20
+	.uleb128 0x6
+	.long	.LASF264
+	.byte	0x11
+	.byte	0x6b
+	.byte	0x9
+	.long	0x314
+	.byte	0x28
+	.uleb128 0x6
+	.long	.LASF265
+	.byte	0x11
+	.byte	0x6c
+	.byte	0x7
+	.long	0x892
+	.byte	0x30
+	.uleb128 0x6
+	.long	.LASF266
+	.byte	0x11
+	.byte	0x6d
+	.byte	0x7
+	.long	0xf77
+	.byte	0x38
+	.uleb128 0x6
+	.long	.LASF267
+	.byte	0x11
+	.byte	0x70
+	.byte	0x9
+	.long	0x2ac
+	.byte	0x40
+	.uleb128 0x6
+	.long	.LASF268
+	.byte	0x11
+	.byte	0x71
+	.byte	0x9
+	.long	0x2ac
+	.byte	0x42
+	.uleb128 0x6
+	.long	.LASF269
+	.byte	0x11
+	.byte	0x72
+	.byte	0x9
+	.long	0x10ab
+	.byte	0x48
+	.uleb128 0x6
+	.long	.LASF270
+	.byte	0x11
+	.byte	0x73
+	.byte	0xb
+	.long	0x109f
+	.byte	0x50
+	.uleb128 0x6
+	.long	.LASF271
+	.byte	0x11
+	.byte	0x74
+	.byte	0xa
+	.long	0x3d0b
+	.byte	0x58
+	.uleb128 0x6
+	.long	.LASF272
+	.byte	0x11
+	.byte	0x75
+	.byte	0xb
+	.long	0x3d10
+	.byte	0x60
+	.uleb128 0x6
+	.long	.LASF273
+	.byte	0x11
+	.byte	0x76
+	.byte	0xb
+	.long	0x109f
+	.byte	0x68
+	.uleb128 0x6
+	.long	.LASF274
+	.byte	0x11
+	.byte	0x79
+	.byte	0x8
+	.long	0x2b9
+	.byte	0x70
+	.uleb128 0x6
+	.long	.LASF275
+	.byte	0x11
+	.byte	0x7a
+	.byte	0xa
+	.long	0x106d
+	.byte	0x78
+	.uleb128 0x6
+	.long	.LASF276
+	.byte	0x11
+	.byte	0x7b
+	.byte	0xc
+	.long	0x1061
+	.byte	0x80
+	.uleb128 0x6
+	.long	.LASF277
+	.byte	0x11
+	.byte	0x7c
+	.byte	0x8
+	.long	0x378
+	.byte	0x88
+	.uleb128 0x6
+	.long	.LASF278
+	.byte	0x11
+	.byte	0x7d
+	.byte	0x9
+	.long	0x362
+	.byte	0x90
+	.uleb128 0x6
+	.long	.LASF279
+	.byte	0x11
+	.byte	0x80
+	.byte	0x9
+	.long	0x307
+	.byte	0x98
+	.uleb128 0x6
+	.long	.LASF280
+	.byte	0x11
+	.byte	0x81
+	.byte	0x9
+	.long	0x10b0
+	.byte	0xa0
+	.uleb128 0x6
+	.long	.LASF281
+	.byte	0x11
+	.byte	0x82
+	.byte	0x8
+	.long	0x378
+	.byte	0xa8
+	.uleb128 0x6
+	.long	.LASF282
+	.byte	0x11
+	.byte	0x83
+	.byte	0x9
+	.long	0x362
+	.byte	0xb0
+	.uleb128 0x16
+	.string	"pos"
+	.byte	0x11
+	.byte	0x84
+	.byte	0x9
+	.long	0x362
+	.byte	0xb8
+	.uleb128 0x6
+	.long	.LASF283
+	.byte	0x11
+	.byte	0x85
+	.byte	0x9
+	.long	0x362
+	.byte	0xc0
+	.uleb128 0x6
+	.long	.LASF284
+	.byte	0x11
+	.byte	0x86
+	.byte	0x7
+	.long	0x96b
+	.byte	0xc8
+	.uleb128 0x6
+	.long	.LASF285
+	.byte	0x11
+	.byte	0x87
+	.byte	0x7
+	.long	0x96b
+	.byte	0xd0
+	.uleb128 0x6
+	.long	.LASF286
+	.byte	0x11
+	.byte	0x89
+	.byte	0x8
+	.long	0x4be
+	.byte	0xd8
+	.uleb128 0x16
+	.string	"hdr"
+	.byte	0x11
+	.byte	0x8b
+	.byte	0x10
+	.long	0x3c8d
+	.byte	0xe0
+	.byte	0
+	.uleb128 0x9
+	.long	.LASF287
+	.byte	0xc
+	.byte	0x2c
+	.byte	0x1b
+	.long	0xf57
+	.uleb128 0x7
+	.long	0xf5c
+	.uleb128 0xc
+	.long	.LASF288
+	.uleb128 0x9
+	.long	.LASF289
+	.byte	0xc
+	.byte	0x2e
+	.byte	0x1c
+	.long	0xf6d
+	.uleb128 0x7
+	.long	0xf72
+	.uleb128 0xc
+	.long	.LASF290
+	.uleb128 0x9
+	.long	.LASF291
+	.byte	0xc
+	.byte	0x2f
+	.byte	0x24
+	.long	0xf83
+	.uleb128 0x7
+	.long	0xf88
+	.uleb128 0xf
+	.long	.LASF292
+	.byte	0x10
+	.byte	0xc
+	.byte	0x56
+	.byte	0x10
+	.long	0xfb0
+	.uleb128 0x6
+	.long	.LASF293
+	.byte	0xc
+	.byte	0x56
+	.byte	0x2e
+	.long	0xf61
+	.byte	0
+	.uleb128 0x6
+	.long	.LASF74
+	.byte	0xc
+	.byte	0x56
+	.byte	0x4f
+	.long	0xf83
+	.byte	0x8
+	.byte	0
+	.uleb128 0x9
+	.long	.LASF294
+	.byte	0xc
+	.byte	0x30
+	.byte	0x1a
+	.long	0xfbc
+	.uleb128 0x7
+	.long	0xfc1
+	.uleb128 0xc
+	.long	.LASF295
+	.uleb128 0x9
+	.long	.LASF296
+	.byte	0xc
+	.byte	0x37
+	.byte	0x1a
+	.long	0xfd2
+	.uleb128 0x7
+	.long	0xfd7
+	.uleb128 0xc
+	.long	.LASF297
+	.uleb128 0x9
+	.long	.LASF298
+	.byte	0xc
+	.byte	0x38
+	.byte	0x1b
+	.long	0xfe8
+	.uleb128 0x7
+	.long	0xfed
+	.uleb128 0xc
+	.long	.LASF299
+	.uleb128 0x9
+	.long	.LASF300
+	.byte	0xc
+	.byte	0x39
+	.byte	0x1b
+	.long	0xffe
+	.uleb128 0x7
+	.long	0x1003
+	.uleb128 0xc
+	.long	.LASF301
+	.uleb128 0x9
+	.long	.LASF302
+	.byte	0xc
+	.byte	0x3a
+	.byte	0x18
+	.long	0x1014
+	.uleb128 0x7
+	.long	0x1019
+	.uleb128 0x2a
+	.long	.LASF861
+	.uleb128 0x9
+	.long	.LASF303
+	.byte	0xc
+	.byte	0x3d
+	.byte	0x22
+	.long	0x102a
+	.uleb128 0x7
+	.long	0x102f
+	.uleb128 0xc
+	.long	.LASF304
+	.uleb128 0xf
+	.long	.LASF305
+	.byte	0x10
+	.byte	0xc
+	.byte	0x52
+	.byte	0x10
+	.long	0x105c
+	.uleb128 0x6
+	.long	.LASF293
+	.byte	0xc
+	.byte	0x52
+	.byte	0x26
+	.long	0x93f
+	.byte	0
+	.uleb128 0x6
+	.long	.LASF74
+	.byte	0xc
+	.byte	0x52
+	.byte	0x43
+	.long	0x105c
+	.byte	0x8
+	.byte	0
+	.uleb128 0x7
+	.long	0x1034
+	.uleb128 0x9
+	.long	.LASF306
+	.byte	0xc
+	.byte	0x52
+	.byte	0x4c
+	.long	0x105c
+	.uleb128 0x7
+	.long	0x93f
+	.uleb128 0xf
+	.long	.LASF307
+	.byte	0x10
+	.byte	0xc
+	.byte	0x57
+	.byte	0x10
+	.long	0x109a
+	.uleb128 0x6
+	.long	.LASF293
+	.byte	0xc
+	.byte	0x57
+	.byte	0x24
+	.long	0x892
+	.byte	0
+	.uleb128 0x6
+	.long	.LASF74
+	.byte	0xc
+	.byte	0x57
+	.byte	0x40
+	.long	0x109a
+	.byte	0x8
+	.byte	0
+	.uleb128 0x7
+	.long	0x1072
+	.uleb128 0x9
+	.long	.LASF308
+	.byte	0xc
+	.byte	0x57
+	.byte	0x49
+	.long	0x109a
+	.uleb128 0x7
+	.long	0x892
+	.uleb128 0x7
+	.long	0x96b
+	.uleb128 0x7
+	.long	0x2c6
+	.uleb128 0xf
+	.long	.LASF309
+	.byte	0x10
+	.byte	0xc
+	.byte	0x5d
+	.byte	0x10
+	.long	0x10e2
+	.uleb128 0x6
+	.long	.LASF293
+	.byte	0xc
+	.byte	0x5d
+	.byte	0x28
+	.long	0xfc6
+	.byte	0
+	.uleb128 0x6
+	.long	.LASF74
+	.byte	0xc
+	.byte	0x5d
+	.byte	0x46
+	.long	0x10e2
+	.byte	0x8
+	.byte	0
+	.uleb128 0x7
+	.long	0x10ba
+	.uleb128 0x9
+	.long	.LASF310
+	.byte	0xc
+	.byte	0x5d
+	.byte	0x4f
+	.long	0x10e2
+	.uleb128 0x10
+	.long	0x321
+	.long	0x1103
+	.uleb128 0x11
+	.long	0x4a
+	.byte	0x9
+	.byte	0
+	.uleb128 0x7
+	.long	0x355
+	.uleb128 0xb
+	.long	.LASF311
+	.byte	0xe
+	.value	0x100
+	.byte	0xf
+	.long	0x2b9
+	.uleb128 0x5
+	.long	.LASF312
+	.byte	0x48
+	.byte	0xe
+	.value	0x11e
+	.long	0x11a1
+	.uleb128 0x2
+	.long	.LASF313
+	.byte	0xe
+	.value	0x11f
+	.byte	0x6
+	.long	0x4aa
+	.byte	0
+	.uleb128 0x2
+	.long	.LASF266
+	.byte	0xe
+	.value	0x120
+	.byte	0x7
+	.long	0xf77
+	.byte	0x8
+	.uleb128 0x2
+	.long	.LASF314
+	.byte	0xe
+	.value	0x121
+	.byte	0x6
+	.long	0x2e
+	.byte	0x10
+	.uleb128 0x2
+	.long	.LASF163
+	.byte	0xe
+	.value	0x122
+	.byte	0x7
+	.long	0x892
+	.byte	0x18
+	.uleb128 0x2
+	.long	.LASF174
+	.byte	0xe
+	.value	0x123
+	.byte	0x8
+	.long	0x93f
+	.byte	0x20
+	.uleb128 0x2
+	.long	.LASF315
+	.byte	0xe
+	.value	0x124
+	.byte	0x8
+	.long	0x4be
+	.byte	0x28
+	.uleb128 0x2
+	.long	.LASF316
+	.byte	0xe
+	.value	0x125
+	.byte	0xa
+	.long	0x1108
+	.byte	0x30
+	.uleb128 0x2
+	.long	.LASF317
+	.byte	0xe
+	.value	0x126
+	.byte	0x8
+	.long	0x1008
+	.byte	0x38
+	.uleb128 0x2
+	.long	.LASF265
+	.byte	0xe
+	.value	0x127
+	.byte	0xb
+	.long	0x109f
+	.byte	0x40
+	.byte	0
+	.uleb128 0xb
+	.long	.LASF318
+	.byte	0xe
+	.value	0x12a
+	.byte	0x19
+	.long	0x11ae
+	.uleb128 0x7
+	.long	0x1115
+	.uleb128 0x18
+	.byte	0x8
+	.byte	0xe
+	.value	0x13a
+	.long	0x11d7
+	.uleb128 0x4
+	.long	.LASF319
+	.byte	0xe
+	.value	0x13b
+	.byte	0x9
+	.long	0x955
+	.uleb128 0x4
+	.long	.LASF320
+	.byte	0xe
+	.value	0x13c
+	.byte	0x9
+	.long	0x93f
+	.byte	0
+	.uleb128 0x5
+	.long	.LASF89
+	.byte	0x28
+	.byte	0xe
+	.value	0x130
+	.long	0x1247
+	.uleb128 0x3
+	.string	"tag"
+	.byte	0xe
+	.value	0x131
+	.byte	0x8
+	.long	0x29f
+	.byte	0
+	.uleb128 0x3
+	.string	"use"
+	.byte	0xe
+	.value	0x132
+	.byte	0x8
+	.long	0x29f
+	.byte	0x1
+	.uleb128 0x2
+	.long	.LASF321
+	.byte	0xe
+	.value	0x133
+	.byte	0x8
+	.long	0x29f
+	.byte	0x2
+	.uleb128 0x2
+	.long	.LASF322
+	.byte	0xe
+	.value	0x135
+	.byte	0x9
+	.long	0x307
+	.byte	0x8
+	.uleb128 0x3
+	.string	"pos"
+	.byte	0xe
+	.value	0x136
+	.byte	0xe
+	.long	0x3ee
+	.byte	0x10
+	.uleb128 0x2
+	.long	.LASF323
+	.byte	0xe
+	.value	0x138
+	.byte	0xa
+	.long	0x11a1
+	.byte	0x18
+	.uleb128 0x2
+	.long	.LASF168
+	.byte	0xe
+	.value	0x13d
+	.byte	0x4
+	.long	0x11b3
+	.byte	0x20
+	.byte	0
+	.uleb128 0x18
+	.byte	0x50
+	.byte	0xe
+	.value	0x142
+	.long	0x1285
+	.uleb128 0x14
+	.string	"sym"
+	.byte	0xe
+	.value	0x143
+	.byte	0xa
+	.long	0x471
+	.uleb128 0x14
+	.string	"doc"
+	.byte	0xe
+	.value	0x144
+	.byte	0x7
+	.long	0x4aa
+	.uleb128 0x14
+	.string	"str"
+	.byte	0xe
+	.value	0x145
+	.byte	0xa
+	.long	0x321
+	.uleb128 0x4
+	.long	.LASF324
+	.byte	0xe
+	.value	0x146
+	.byte	0x9
+	.long	0x1285
+	.byte	0
+	.uleb128 0x10
+	.long	0x4be
+	.long	0x1295
+	.uleb128 0x11
+	.long	0x4a
+	.byte	0x9
+	.byte	0
+	.uleb128 0x5
+	.long	.LASF90
+	.byte	0x78
+	.byte	0xe
+	.value	0x140
+	.long	0x12bf
+	.uleb128 0x3
+	.string	"hdr"
+	.byte	0xe
+	.value	0x141
+	.byte	0xf
+	.long	0x11d7
+	.byte	0
+	.uleb128 0x2
+	.long	.LASF325
+	.byte	0xe
+	.value	0x147
+	.byte	0x4
+	.long	0x1247
+	.byte	0x28
+	.byte	0
+	.uleb128 0x5
+	.long	.LASF91
+	.byte	0x30
+	.byte	0xe
+	.value	0x14e
+	.long	0x12e9
+	.uleb128 0x3
+	.string	"hdr"
+	.byte	0xe
+	.value	0x14f
+	.byte	0xf
+	.long	0x11d7
+	.byte	0
+	.uleb128 0x3
+	.string	"sym"
+	.byte	0xe
+	.value	0x150
+	.byte	0x9
+	.long	0x471
+	.byte	0x28
+	.byte	0
+	.uleb128 0x5
+	.long	.LASF92
+	.byte	0x30
+	.byte	0xe
+	.value	0x153
+	.long	0x1313
+	.uleb128 0x3
+	.string	"hdr"
+	.byte	0xe
+	.value	0x154
+	.byte	0xf
+	.long	0x11d7
+	.byte	0
+	.uleb128 0x3
+	.string	"sym"
+	.byte	0xe
+	.value	0x155
+	.byte	0x9
+	.long	0x471
+	.byte	0x28
+	.byte	0
+	.uleb128 0x5
+	.long	.LASF93
+	.byte	0x30
+	.byte	0xe
+	.value	0x158
+	.long	0x133d
+	.uleb128 0x3
+	.string	"hdr"
+	.byte	0xe
+	.value	0x159
+	.byte	0xf
+	.long	0x11d7
+	.byte	0
+	.uleb128 0x3
+	.string	"sym"
+	.byte	0xe
+	.value	0x15a
+	.byte	0x9
+	.long	0x471
+	.byte	0x28
+	.byte	0
+	.uleb128 0x5
+	.long	.LASF94
+	.byte	0x30
+	.byte	0xe
+	.value	0x15d
+	.long	0x1367
+	.uleb128 0x3
+	.string	"hdr"
+	.byte	0xe
+	.value	0x15e
+	.byte	0xf
+	.long	0x11d7
+	.byte	0
+	.uleb128 0x3
+	.string	"doc"
+	.byte	0xe
+	.value	0x15f
+	.byte	0x6
+	.long	0x4aa
+	.byte	0x28
+	.byte	0
+	.uleb128 0x5
+	.long	.LASF95
+	.byte	0x30
+	.byte	0xe
+	.value	0x162
+	.long	0x1391
+	.uleb128 0x3
+	.string	"hdr"
+	.byte	0xe
+	.value	0x163
+	.byte	0xf
+	.long	0x11d7
+	.byte	0
+	.uleb128 0x3
+	.string	"str"
+	.byte	0xe
+	.value	0x164
+	.byte	0x9
+	.long	0x321
+	.byte	0x28
+	.byte	0
+	.uleb128 0x5
+	.long	.LASF97
+	.byte	0x30
+	.byte	0xe
+	.value	0x167
+	.long	0x13bb
+	.uleb128 0x3
+	.string	"hdr"
+	.byte	0xe
+	.value	0x168
+	.byte	0xf
+	.long	0x11d7
+	.byte	0
+	.uleb128 0x3
+	.string	"str"
+	.byte	0xe
+	.value	0x169
+	.byte	0x9
+	.long	0x321
+	.byte	0x28
+	.byte	0
+	.uleb128 0x5
+	.long	.LASF96
+	.byte	0x30
+	.byte	0xe
+	.value	0x16c
+	.long	0x13e5
+	.uleb128 0x3
+	.string	"hdr"
+	.byte	0xe
+	.value	0x16d
+	.byte	0xf
+	.long	0x11d7
+	.byte	0
+	.uleb128 0x3
+	.string	"str"
+	.byte	0xe
+	.value	0x16e
+	.byte	0x9
+	.long	0x321
+	.byte	0x28
+	.byte	0
+	.uleb128 0x5
+	.long	.LASF98
+	.byte	0x38
+	.byte	0xe
+	.value	0x175
+	.long	0x141d
+	.uleb128 0x3
+	.string	"hdr"
+	.byte	0xe
+	.value	0x176
+	.byte	0xf
+	.long	0x11d7
+	.byte	0
+	.uleb128 0x2
+	.long	.LASF326
+	.byte	0xe
+	.value	0x177
+	.byte	0x8
+	.long	0x4be
+	.byte	0x28
+	.uleb128 0x2
+	.long	.LASF327
+	.byte	0xe
+	.value	0x178
+	.byte	0x8
+	.long	0x4be
+	.byte	0x30
+	.byte	0
+	.uleb128 0x5
+	.long	.LASF99
+	.byte	0x78
+	.byte	0xe
+	.value	0x17b
+	.long	0x1447
+	.uleb128 0x3
+	.string	"hdr"
+	.byte	0xe
+	.value	0x17c
+	.byte	0xf
+	.long	0x11d7
+	.byte	0
+	.uleb128 0x2
+	.long	.LASF324
+	.byte	0xe
+	.value	0x17d
+	.byte	0x8
+	.long	0x1285
+	.byte	0x28
+	.byte	0
+	.uleb128 0x5
+	.long	.LASF100
+	.byte	0x80
+	.byte	0xe
+	.value	0x180
+	.long	0x147e
+	.uleb128 0x3
+	.string	"hdr"
+	.byte	0xe
+	.value	0x181
+	.byte	0xf
+	.long	0x11d7
+	.byte	0
+	.uleb128 0x3
+	.string	"op"
+	.byte	0xe
+	.value	0x182
+	.byte	0x8
+	.long	0x4be
+	.byte	0x28
+	.uleb128 0x2
+	.long	.LASF324
+	.byte	0xe
+	.value	0x183
+	.byte	0x8
+	.long	0x1285
+	.byte	0x30
+	.byte	0
+	.uleb128 0x5
+	.long	.LASF101
+	.byte	0x30
+	.byte	0xe
+	.value	0x186
+	.long	0x14a8
+	.uleb128 0x3
+	.string	"hdr"
+	.byte	0xe
+	.value	0x187
+	.byte	0xf
+	.long	0x11d7
+	.byte	0
+	.uleb128 0x2
+	.long	.LASF328
+	.byte	0xe
+	.value	0x188
+	.byte	0x8
+	.long	0x4be
+	.byte	0x28
+	.byte	0
+	.uleb128 0x5
+	.long	.LASF102
+	.byte	0x38
+	.byte	0xe
+	.value	0x18b
+	.long	0x14e0
+	.uleb128 0x3
+	.string	"hdr"
+	.byte	0xe
+	.value	0x18c
+	.byte	0xf
+	.long	0x11d7
+	.byte	0
+	.uleb128 0x3
+	.string	"lhs"
+	.byte	0xe
+	.value	0x18d
+	.byte	0x8
+	.long	0x4be
+	.byte	0x28
+	.uleb128 0x3
+	.string	"rhs"
+	.byte	0xe
+	.value	0x18e
+	.byte	0x8
+	.long	0x4be
+	.byte	0x30
+	.byte	0
+	.uleb128 0x5
+	.long	.LASF103
+	.byte	0x30
+	.byte	0xe
+	.value	0x191
+	.long	0x150a
+	.uleb128 0x3
+	.string	"hdr"
+	.byte	0xe
+	.value	0x192
+	.byte	0xf
+	.long	0x11d7
+	.byte	0
+	.uleb128 0x2
+	.long	.LASF329
+	.byte	0xe
+	.value	0x193
+	.byte	0x8
+	.long	0x4be
+	.byte	0x28
+	.byte	0
+	.uleb128 0x5
+	.long	.LASF104
+	.byte	0x30
+	.byte	0xe
+	.value	0x196
+	.long	0x1534
+	.uleb128 0x3
+	.string	"hdr"
+	.byte	0xe
+	.value	0x197
+	.byte	0xf
+	.long	0x11d7
+	.byte	0
+	.uleb128 0x2
+	.long	.LASF330
+	.byte	0xe
+	.value	0x198
+	.byte	0x8
+	.long	0x4be
+	.byte	0x28
+	.byte	0
+	.uleb128 0x5
+	.long	.LASF105
+	.byte	0x38
+	.byte	0xe
+	.value	0x19b
+	.long	0x156b
+	.uleb128 0x3
+	.string	"hdr"
+	.byte	0xe
+	.value	0x19c
+	.byte	0xf
+	.long	0x11d7
+	.byte	0
+	.uleb128 0x3
+	.string	"id"
+	.byte	0xe
+	.value	0x19d
+	.byte	0x8
+	.long	0x4be
+	.byte	0x28
+	.uleb128 0x2
+	.long	.LASF168
+	.byte	0xe
+	.value	0x19e
+	.byte	0x8
+	.long	0x4be
+	.byte	0x30
+	.byte	0
+	.uleb128 0x5
+	.long	.LASF112
+	.byte	0x30
+	.byte	0xe
+	.value	0x1a1
+	.long	0x1595
+	.uleb128 0x3
+	.string	"hdr"
+	.byte	0xe
+	.value	0x1a2
+	.byte	0xf
+	.long	0x11d7
+	.byte	0
+	.uleb128 0x2
+	.long	.LASF331
+	.byte	0xe
+	.value	0x1a3
+	.byte	0x8
+	.long	0x4be
+	.byte	0x28
+	.byte	0
+	.uleb128 0x5
+	.long	.LASF113
+	.byte	0x38
+	.byte	0xe
+	.value	0x1a6
+	.long	0x15cd
+	.uleb128 0x3
+	.string	"hdr"
+	.byte	0xe
+	.value	0x1a7
+	.byte	0xf
+	.long	0x11d7
+	.byte	0
+	.uleb128 0x2
+	.long	.LASF331
+	.byte	0xe
+	.value	0x1a8
+	.byte	0x8
+	.long	0x4be
+	.byte	0x28
+	.uleb128 0x3
+	.string	"doc"
+	.byte	0xe
+	.value	0x1a9
+	.byte	0x8
+	.long	0x4be
+	.byte	0x30
+	.byte	0
+	.uleb128 0x5
+	.long	.LASF106
+	.byte	0x38
+	.byte	0xe
+	.value	0x1ac
+	.long	0x1605
+	.uleb128 0x3
+	.string	"hdr"
+	.byte	0xe
+	.value	0x1ad
+	.byte	0xf
+	.long	0x11d7
+	.byte	0
+	.uleb128 0x2
+	.long	.LASF331
+	.byte	0xe
+	.value	0x1ae
+	.byte	0x8
+	.long	0x4be
+	.byte	0x28
+	.uleb128 0x2
+	.long	.LASF168
+	.byte	0xe
+	.value	0x1af
+	.byte	0x8
+	.long	0x4be
+	.byte	0x30
+	.byte	0
+	.uleb128 0x5
+	.long	.LASF107
+	.byte	0x80
+	.byte	0xe
+	.value	0x1b2
+	.long	0x163d
+	.uleb128 0x3
+	.string	"hdr"
+	.byte	0xe
+	.value	0x1b3
+	.byte	0xf
+	.long	0x11d7
+	.byte	0
+	.uleb128 0x2
+	.long	.LASF332
+	.byte	0xe
+	.value	0x1b4
+	.byte	0x8
+	.long	0x4be
+	.byte	0x28
+	.uleb128 0x2
+	.long	.LASF333
+	.byte	0xe
+	.value	0x1b5
+	.byte	0x8
+	.long	0x1285
+	.byte	0x30
+	.byte	0
+	.uleb128 0x5
+	.long	.LASF108
+	.byte	0x78
+	.byte	0xe
+	.value	0x1b8
+	.long	0x1667
+	.uleb128 0x3
+	.string	"hdr"
+	.byte	0xe
+	.value	0x1b9
+	.byte	0xf
+	.long	0x11d7
+	.byte	0
+	.uleb128 0x2
+	.long	.LASF324
+	.byte	0xe
+	.value	0x1ba
+	.byte	0x8
+	.long	0x1285
+	.byte	0x28
+	.byte	0
+	.uleb128 0x5
+	.long	.LASF109
+	.byte	0x30
+	.byte	0xe
+	.value	0x1bd
+	.long	0x1691
+	.uleb128 0x3
+	.string	"hdr"
+	.byte	0xe
+	.value	0x1be
+	.byte	0xf
+	.long	0x11d7
+	.byte	0
+	.uleb128 0x2
+	.long	.LASF332
+	.byte	0xe
+	.value	0x1bf
+	.byte	0x8
+	.long	0x4be
+	.byte	0x28
+	.byte	0
+	.uleb128 0x5
+	.long	.LASF110
+	.byte	0x38
+	.byte	0xe
+	.value	0x1c2
+	.long	0x16c9
+	.uleb128 0x3
+	.string	"hdr"
+	.byte	0xe
+	.value	0x1c3
+	.byte	0xf
+	.long	0x11d7
+	.byte	0
+	.uleb128 0x3
+	.string	"lhs"
+	.byte	0xe
+	.value	0x1c4
+	.byte	0x8
+	.long	0x4be
+	.byte	0x28
+	.uleb128 0x3
+	.string	"rhs"
+	.byte	0xe
+	.value	0x1c5
+	.byte	0x8
+	.long	0x4be
+	.byte	0x30
+	.byte	0
+	.uleb128 0x5
+	.long	.LASF111
+	.byte	0x30
+	.byte	0xe
+	.value	0x1c8
+	.long	0x16f3
+	.uleb128 0x3
+	.string	"hdr"
+	.byte	0xe
+	.value	0x1c9
+	.byte	0xf
+	.long	0x11d7
+	.byte	0
+	.uleb128 0x2
+	.long	.LASF332
+	.byte	0xe
+	.value	0x1ca
+	.byte	0x8
+	.long	0x4be
+	.byte	0x28
+	.byte	0
+	.uleb128 0x5
+	.long	.LASF114
+	.byte	0x38
+	.byte	0xe
+	.value	0x1cd
+	.long	0x172b
+	.uleb128 0x3
+	.string	"hdr"
+	.byte	0xe
+	.value	0x1ce
+	.byte	0xf
+	.long	0x11d7
+	.byte	0
+	.uleb128 0x2
+	.long	.LASF168
+	.byte	0xe
+	.value	0x1cf
+	.byte	0x8
+	.long	0x4be
+	.byte	0x28
+	.uleb128 0x2
+	.long	.LASF334
+	.byte	0xe
+	.value	0x1d0
+	.byte	0x8
+	.long	0x4be
+	.byte	0x30
+	.byte	0
+	.uleb128 0x5
+	.long	.LASF115
+	.byte	0x38
+	.byte	0xe
+	.value	0x1d3
+	.long	0x1763
+	.uleb128 0x3
+	.string	"hdr"
+	.byte	0xe
+	.value	0x1d4
+	.byte	0xf
+	.long	0x11d7
+	.byte	0
+	.uleb128 0x2
+	.long	.LASF328
+	.byte	0xe
+	.value	0x1d5
+	.byte	0x8
+	.long	0x4be
+	.byte	0x28
+	.uleb128 0x2
+	.long	.LASF335
+	.byte	0xe
+	.value	0x1d6
+	.byte	0x8
+	.long	0x4be
+	.byte	0x30
+	.byte	0
+	.uleb128 0x5
+	.long	.LASF116
+	.byte	0x40
+	.byte	0xe
+	.value	0x1d9
+	.long	0x17a9
+	.uleb128 0x3
+	.string	"hdr"
+	.byte	0xe
+	.value	0x1da
+	.byte	0xf
+	.long	0x11d7
+	.byte	0
+	.uleb128 0x2
+	.long	.LASF330
+	.byte	0xe
+	.value	0x1db
+	.byte	0x8
+	.long	0x4be
+	.byte	0x28
+	.uleb128 0x2
+	.long	.LASF336
+	.byte	0xe
+	.value	0x1dc
+	.byte	0x8
+	.long	0x4be
+	.byte	0x30
+	.uleb128 0x2
+	.long	.LASF337
+	.byte	0xe
+	.value	0x1dd
+	.byte	0x8
+	.long	0x4be
+	.byte	0x38
+	.byte	0
+	.uleb128 0x5
+	.long	.LASF117
+	.byte	0x30
+	.byte	0xe
+	.value	0x1e0
+	.long	0x17d3
+	.uleb128 0x3
+	.string	"hdr"
+	.byte	0xe
+	.value	0x1e1
+	.byte	0xf
+	.long	0x11d7
+	.byte	0
+	.uleb128 0x2
+	.long	.LASF332
+	.byte	0xe
+	.value	0x1e2
+	.byte	0x8
+	.long	0x4be
+	.byte	0x28
+	.byte	0
+	.uleb128 0x5
+	.long	.LASF118
+	.byte	0x30
+	.byte	0xe
+	.value	0x1e5
+	.long	0x17fd
+	.uleb128 0x3
+	.string	"hdr"
+	.byte	0xe
+	.value	0x1e6
+	.byte	0xf
+	.long	0x11d7
+	.byte	0
+	.uleb128 0x2
+	.long	.LASF338
+	.byte	0xe
+	.value	0x1e7
+	.byte	0x8
+	.long	0x4be
+	.byte	0x28
+	.byte	0
+	.uleb128 0x5
+	.long	.LASF119
+	.byte	0x78
+	.byte	0xe
+	.value	0x1ea
+	.long	0x1827
+	.uleb128 0x3
+	.string	"hdr"
+	.byte	0xe
+	.value	0x1eb
+	.byte	0xf
+	.long	0x11d7
+	.byte	0
+	.uleb128 0x2
+	.long	.LASF324
+	.byte	0xe
+	.value	0x1ec
+	.byte	0x8
+	.long	0x1285
+	.byte	0x28
+	.byte	0
+	.uleb128 0x5
+	.long	.LASF120
+	.byte	0x40
+	.byte	0xe
+	.value	0x1ef
+	.long	0x186d
+	.uleb128 0x3
+	.string	"hdr"
+	.byte	0xe
+	.value	0x1f0
+	.byte	0xf
+	.long	0x11d7
+	.byte	0
+	.uleb128 0x3
+	.string	"lhs"
+	.byte	0xe
+	.value	0x1f1
+	.byte	0x8
+	.long	0x4be
+	.byte	0x28
+	.uleb128 0x2
+	.long	.LASF339
+	.byte	0xe
+	.value	0x1f2
+	.byte	0x8
+	.long	0x4be
+	.byte	0x30
+	.uleb128 0x2
+	.long	.LASF328
+	.byte	0xe
+	.value	0x1f3
+	.byte	0x8
+	.long	0x4be
+	.byte	0x38
+	.byte	0
+	.uleb128 0x5
+	.long	.LASF121
+	.byte	0x38
+	.byte	0xe
+	.value	0x1f6
+	.long	0x18a5
+	.uleb128 0x3
+	.string	"hdr"
+	.byte	0xe
+	.value	0x1f7
+	.byte	0xf
+	.long	0x11d7
+	.byte	0
+	.uleb128 0x2
+	.long	.LASF330
+	.byte	0xe
+	.value	0x1f8
+	.byte	0x8
+	.long	0x4be
+	.byte	0x28
+	.uleb128 0x2
+	.long	.LASF336
+	.byte	0xe
+	.value	0x1f9
+	.byte	0x8
+	.long	0x4be
+	.byte	0x30
+	.byte	0
+	.uleb128 0x5
+	.long	.LASF122
+	.byte	0x38
+	.byte	0xe
+	.value	0x1fc
+	.long	0x18dd
+	.uleb128 0x3
+	.string	"hdr"
+	.byte	0xe
+	.value	0x1fd
+	.byte	0xf
+	.long	0x11d7
+	.byte	0
+	.uleb128 0x2
+	.long	.LASF330
+	.byte	0xe
+	.value	0x1fe
+	.byte	0x8
+	.long	0x4be
+	.byte	0x28
+	.uleb128 0x2
+	.long	.LASF340
+	.byte	0xe
+	.value	0x1ff
+	.byte	0x8
+	.long	0x4be
+	.byte	0x30
+	.byte	0
+	.uleb128 0x5
+	.long	.LASF123
+	.byte	0x78
+	.byte	0xe
+	.value	0x202
+	.long	0x1907
+	.uleb128 0x3
+	.string	"hdr"
+	.byte	0xe
+	.value	0x203
+	.byte	0xf
+	.long	0x11d7
+	.byte	0
+	.uleb128 0x2
+	.long	.LASF324
+	.byte	0xe
+	.value	0x204
+	.byte	0x8
+	.long	0x1285
+	.byte	0x28
+	.byte	0
+	.uleb128 0x5
+	.long	.LASF124
+	.byte	0x38
+	.byte	0xe
+	.value	0x207
+	.long	0x193f
+	.uleb128 0x3
+	.string	"hdr"
+	.byte	0xe
+	.value	0x208
+	.byte	0xf
+	.long	0x11d7
+	.byte	0
+	.uleb128 0x2
+	.long	.LASF341
+	.byte	0xe
+	.value	0x209
+	.byte	0x8
+	.long	0x4be
+	.byte	0x28
+	.uleb128 0x2
+	.long	.LASF332
+	.byte	0xe
+	.value	0x20a
+	.byte	0x8
+	.long	0x4be
+	.byte	0x30
+	.byte	0
+	.uleb128 0x5
+	.long	.LASF125
+	.byte	0x30
+	.byte	0xe
+	.value	0x20d
+	.long	0x1969
+	.uleb128 0x3
+	.string	"hdr"
+	.byte	0xe
+	.value	0x20e
+	.byte	0xf
+	.long	0x11d7
+	.byte	0
+	.uleb128 0x2
+	.long	.LASF329
+	.byte	0xe
+	.value	0x20f
+	.byte	0x8
+	.long	0x4be
+	.byte	0x28
+	.byte	0
+	.uleb128 0x5
+	.long	.LASF126
+	.byte	0x38
+	.byte	0xe
+	.value	0x212
+	.long	0x19a1
+	.uleb128 0x3
+	.string	"hdr"
+	.byte	0xe
+	.value	0x213
+	.byte	0xf
+	.long	0x11d7
+	.byte	0
+	.uleb128 0x2
+	.long	.LASF331
+	.byte	0xe
+	.value	0x214
+	.byte	0x8
+	.long	0x4be
+	.byte	0x28
+	.uleb128 0x2
+	.long	.LASF342
+	.byte	0xe
+	.value	0x215
+	.byte	0x8
+	.long	0x4be
+	.byte	0x30
+	.byte	0
+	.uleb128 0x5
+	.long	.LASF127
+	.byte	0x30
+	.byte	0xe
+	.value	0x218
+	.long	0x19cb
+	.uleb128 0x3
+	.string	"hdr"
+	.byte	0xe
+	.value	0x219
+	.byte	0xf
+	.long	0x11d7
+	.byte	0
+	.uleb128 0x2
+	.long	.LASF168
+	.byte	0xe
+	.value	0x21a
+	.byte	0x8
+	.long	0x4be
+	.byte	0x28
+	.byte	0
+	.uleb128 0x5
+	.long	.LASF128
+	.byte	0x30
+	.byte	0xe
+	.value	0x21d
+	.long	0x19f5
+	.uleb128 0x3
+	.string	"hdr"
+	.byte	0xe
+	.value	0x21e
+	.byte	0xf
+	.long	0x11d7
+	.byte	0
+	.uleb128 0x2
+	.long	.LASF331
+	.byte	0xe
+	.value	0x21f
+	.byte	0x8
+	.long	0x4be
+	.byte	0x28
+	.byte	0
+	.uleb128 0x5
+	.long	.LASF129
+	.byte	0x40
+	.byte	0xe
+	.value	0x222
+	.long	0x1a3b
+	.uleb128 0x3
+	.string	"hdr"
+	.byte	0xe
+	.value	0x223
+	.byte	0xf
+	.long	0x11d7
+	.byte	0
+	.uleb128 0x2
+	.long	.LASF328
+	.byte	0xe
+	.value	0x224
+	.byte	0x8
+	.long	0x4be
+	.byte	0x28
+	.uleb128 0x2
+	.long	.LASF343
+	.byte	0xe
+	.value	0x225
+	.byte	0x8
+	.long	0x4be
+	.byte	0x30
+	.uleb128 0x2
+	.long	.LASF344
+	.byte	0xe
+	.value	0x226
+	.byte	0x8
+	.long	0x4be
+	.byte	0x38
+	.byte	0
+	.uleb128 0x5
+	.long	.LASF130
+	.byte	0x38
+	.byte	0xe
+	.value	0x229
+	.long	0x1a73
+	.uleb128 0x3
+	.string	"hdr"
+	.byte	0xe
+	.value	0x22a
+	.byte	0xf
+	.long	0x11d7
+	.byte	0
+	.uleb128 0x2
+	.long	.LASF330
+	.byte	0xe
+	.value	0x22b
+	.byte	0x8
+	.long	0x4be
+	.byte	0x28
+	.uleb128 0x2
+	.long	.LASF336
+	.byte	0xe
+	.value	0x22c
+	.byte	0x8
+	.long	0x4be
+	.byte	0x30
+	.byte	0
+	.uleb128 0x5
+	.long	.LASF131
+	.byte	0x38
+	.byte	0xe
+	.value	0x22f
+	.long	0x1aab
+	.uleb128 0x3
+	.string	"hdr"
+	.byte	0xe
+	.value	0x230
+	.byte	0xf
+	.long	0x11d7
+	.byte	0
+	.uleb128 0x2
+	.long	.LASF330
+	.byte	0xe
+	.value	0x231
+	.byte	0x8
+	.long	0x4be
+	.byte	0x28
+	.uleb128 0x2
+	.long	.LASF336
+	.byte	0xe
+	.value	0x232
+	.byte	0x8
+	.long	0x4be
+	.byte	0x30
+	.byte	0
+	.uleb128 0x5
+	.long	.LASF132
+	.byte	0x30
+	.byte	0xe
+	.value	0x235
+	.long	0x1ad5
+	.uleb128 0x3
+	.string	"hdr"
+	.byte	0xe
+	.value	0x236
+	.byte	0xf
+	.long	0x11d7
+	.byte	0
+	.uleb128 0x2
+	.long	.LASF329
+	.byte	0xe
+	.value	0x237
+	.byte	0x8
+	.long	0x4be
+	.byte	0x28
+	.byte	0
+	.uleb128 0x5
+	.long	.LASF133
+	.byte	0x38
+	.byte	0xe
+	.value	0x23a
+	.long	0x1b0d
+	.uleb128 0x3
+	.string	"hdr"
+	.byte	0xe
+	.value	0x23b
+	.byte	0xf
+	.long	0x11d7
+	.byte	0
+	.uleb128 0x2
+	.long	.LASF329
+	.byte	0xe
+	.value	0x23c
+	.byte	0x8
+	.long	0x4be
+	.byte	0x28
+	.uleb128 0x2
+	.long	.LASF331
+	.byte	0xe
+	.value	0x23d
+	.byte	0x8
+	.long	0x4be
+	.byte	0x30
+	.byte	0
+	.uleb128 0x5
+	.long	.LASF134
+	.byte	0x40
+	.byte	0xe
+	.value	0x240
+	.long	0x1b53
+	.uleb128 0x3
+	.string	"hdr"
+	.byte	0xe
+	.value	0x241
+	.byte	0xf
+	.long	0x11d7
+	.byte	0
+	.uleb128 0x2
+	.long	.LASF345
+	.byte	0xe
+	.value	0x242
+	.byte	0x8
+	.long	0x4be
+	.byte	0x28
+	.uleb128 0x2
+	.long	.LASF346
+	.byte	0xe
+	.value	0x243
+	.byte	0x8
+	.long	0x4be
+	.byte	0x30
+	.uleb128 0x2
+	.long	.LASF332
+	.byte	0xe
+	.value	0x244
+	.byte	0x8
+	.long	0x4be
+	.byte	0x38
+	.byte	0
+	.uleb128 0x5
+	.long	.LASF135
+	.byte	0x38
+	.byte	0xe
+	.value	0x247
+	.long	0x1b8b
+	.uleb128 0x3
+	.string	"hdr"
+	.byte	0xe
+	.value	0x248
+	.byte	0xf
+	.long	0x11d7
+	.byte	0
+	.uleb128 0x2
+	.long	.LASF347
+	.byte	0xe
+	.value	0x249
+	.byte	0x8
+	.long	0x4be
+	.byte	0x28
+	.uleb128 0x2
+	.long	.LASF331
+	.byte	0xe
+	.value	0x24a
+	.byte	0x8
+	.long	0x4be
+	.byte	0x30
+	.byte	0
+	.uleb128 0x5
+	.long	.LASF136
+	.byte	0x78
+	.byte	0xe
+	.value	0x24d
+	.long	0x1bb5
+	.uleb128 0x3
+	.string	"hdr"
+	.byte	0xe
+	.value	0x24e
+	.byte	0xf
+	.long	0x11d7
+	.byte	0
+	.uleb128 0x2
+	.long	.LASF324
+	.byte	0xe
+	.value	0x24f
+	.byte	0x8
+	.long	0x1285
+	.byte	0x28
+	.byte	0
+	.uleb128 0x5
+	.long	.LASF137
+	.byte	0x30
+	.byte	0xe
+	.value	0x252
+	.long	0x1bdf
+	.uleb128 0x3
+	.string	"hdr"
+	.byte	0xe
+	.value	0x253
+	.byte	0xf
+	.long	0x11d7
+	.byte	0
+	.uleb128 0x2
+	.long	.LASF331
+	.byte	0xe
+	.value	0x254
+	.byte	0x8
+	.long	0x4be
+	.byte	0x28
+	.byte	0
+	.uleb128 0x5
+	.long	.LASF138
+	.byte	0x38
+	.byte	0xe
+	.value	0x257
+	.long	0x1c17
+	.uleb128 0x3
+	.string	"hdr"
+	.byte	0xe
+	.value	0x258
+	.byte	0xf
+	.long	0x11d7
+	.byte	0
+	.uleb128 0x3
+	.string	"lhs"
+	.byte	0xe
+	.value	0x259
+	.byte	0x8
+	.long	0x4be
+	.byte	0x28
+	.uleb128 0x3
+	.string	"rhs"
+	.byte	0xe
+	.value	0x25a
+	.byte	0x8
+	.long	0x4be
+	.byte	0x30
+	.byte	0
+	.uleb128 0x5
+	.long	.LASF139
+	.byte	0x38
+	.byte	0xe
+	.value	0x25d
+	.long	0x1c4f
+	.uleb128 0x3
+	.string	"hdr"
+	.byte	0xe
+	.value	0x25e
+	.byte	0xf
+	.long	0x11d7
+	.byte	0
+	.uleb128 0x2
+	.long	.LASF345
+	.byte	0xe
+	.value	0x25f
+	.byte	0x8
+	.long	0x4be
+	.byte	0x28
+	.uleb128 0x2
+	.long	.LASF332
+	.byte	0xe
+	.value	0x260
+	.byte	0x8
+	.long	0x4be
+	.byte	0x30
+	.byte	0
+	.uleb128 0x5
+	.long	.LASF140
+	.byte	0x28
+	.byte	0xe
+	.value	0x263
+	.long	0x1c6b
+	.uleb128 0x3
+	.string	"hdr"
+	.byte	0xe
+	.value	0x264
+	.byte	0xf
+	.long	0x11d7
+	.byte	0
+	.byte	0
+	.uleb128 0x5
+	.long	.LASF141
+	.byte	0x30
+	.byte	0xe
+	.value	0x267
+	.long	0x1c95
+	.uleb128 0x3
+	.string	"hdr"
+	.byte	0xe
+	.value	0x268
+	.byte	0xf
+	.long	0x11d7
+	.byte	0
+	.uleb128 0x2
+	.long	.LASF331
+	.byte	0xe
+	.value	0x269
+	.byte	0x8
+	.long	0x4be
+	.byte	0x28
+	.byte	0
+	.uleb128 0x5
+	.long	.LASF142
+	.byte	0x28
+	.byte	0xe
+	.value	0x26c
+	.long	0x1cb1
+	.uleb128 0x3
+	.string	"hdr"
+	.byte	0xe
+	.value	0x26d
+	.byte	0xf
+	.long	0x11d7
+	.byte	0
+	.byte	0
+	.uleb128 0x5
+	.long	.LASF143
+	.byte	0x78
+	.byte	0xe
+	.value	0x270
+	.long	0x1cdb
+	.uleb128 0x3
+	.string	"hdr"
+	.byte	0xe
+	.value	0x271
+	.byte	0xf
+	.long	0x11d7
+	.byte	0
+	.uleb128 0x2
+	.long	.LASF324
+	.byte	0xe
+	.value	0x272
+	.byte	0x8
+	.long	0x1285
+	.byte	0x28
+	.byte	0
+	.uleb128 0x5
+	.long	.LASF144
+	.byte	0x30
+	.byte	0xe
+	.value	0x275
+	.long	0x1d05
+	.uleb128 0x3
+	.string	"hdr"
+	.byte	0xe
+	.value	0x276
+	.byte	0xf
+	.long	0x11d7
+	.byte	0
+	.uleb128 0x2
+	.long	.LASF331
+	.byte	0xe
+	.value	0x277
+	.byte	0x8
+	.long	0x4be
+	.byte	0x28
+	.byte	0
+	.uleb128 0x5
+	.long	.LASF145
+	.byte	0x40
+	.byte	0xe
+	.value	0x27a
+	.long	0x1d4b
+	.uleb128 0x3
+	.string	"hdr"
+	.byte	0xe
+	.value	0x27b
+	.byte	0xf
+	.long	0x11d7
+	.byte	0
+	.uleb128 0x2
+	.long	.LASF345
+	.byte	0xe
+	.value	0x27c
+	.byte	0x8
+	.long	0x4be
+	.byte	0x28
+	.uleb128 0x2
+	.long	.LASF346
+	.byte	0xe
+	.value	0x27d
+	.byte	0x8
+	.long	0x4be
+	.byte	0x30
+	.uleb128 0x2
+	.long	.LASF332
+	.byte	0xe
+	.value	0x27e
+	.byte	0x8
+	.long	0x4be
+	.byte	0x38
+	.byte	0
+	.uleb128 0x5
+	.long	.LASF146
+	.byte	0x38
+	.byte	0xe
+	.value	0x281
+	.long	0x1d83
+	.uleb128 0x3
+	.string	"hdr"
+	.byte	0xe
+	.value	0x282
+	.byte	0xf
+	.long	0x11d7
+	.byte	0
+	.uleb128 0x2
+	.long	.LASF331
+	.byte	0xe
+	.value	0x283
+	.byte	0x8
+	.long	0x4be
+	.byte	0x28
+	.uleb128 0x2
+	.long	.LASF168
+	.byte	0xe
+	.value	0x284
+	.byte	0x8
+	.long	0x4be
+	.byte	0x30
+	.byte	0
+	.uleb128 0x5
+	.long	.LASF147
+	.byte	0x38
+	.byte	0xe
+	.value	0x287
+	.long	0x1dbb
+	.uleb128 0x3
+	.string	"hdr"
+	.byte	0xe
+	.value	0x288
+	.byte	0xf
+	.long	0x11d7
+	.byte	0
+	.uleb128 0x2
+	.long	.LASF330
+	.byte	0xe
+	.value	0x289
+	.byte	0x8
+	.long	0x4be
+	.byte	0x28
+	.uleb128 0x2
+	.long	.LASF336
+	.byte	0xe
+	.value	0x28a
+	.byte	0x8
+	.long	0x4be
+	.byte	0x30
+	.byte	0
+	.uleb128 0x5
+	.long	.LASF148
+	.byte	0x30
+	.byte	0xe
+	.value	0x28d
+	.long	0x1de5
+	.uleb128 0x3
+	.string	"hdr"
+	.byte	0xe
+	.value	0x28e
+	.byte	0xf
+	.long	0x11d7
+	.byte	0
+	.uleb128 0x2
+	.long	.LASF331
+	.byte	0xe
+	.value	0x28f
+	.byte	0x8
+	.long	0x4be
+	.byte	0x28
+	.byte	0
+	.uleb128 0x5
+	.long	.LASF149
+	.byte	0x30
+	.byte	0xe
+	.value	0x292
+	.long	0x1e0f
+	.uleb128 0x3
+	.string	"hdr"
+	.byte	0xe
+	.value	0x293
+	.byte	0xf
+	.long	0x11d7
+	.byte	0
+	.uleb128 0x2
+	.long	.LASF332
+	.byte	0xe
+	.value	0x294
+	.byte	0x8
+	.long	0x4be
+	.byte	0x28
+	.byte	0
+	.uleb128 0x5
+	.long	.LASF150
+	.byte	0x80
+	.byte	0xe
+	.value	0x297
+	.long	0x1e47
+	.uleb128 0x3
+	.string	"hdr"
+	.byte	0xe
+	.value	0x298
+	.byte	0xf
+	.long	0x11d7
+	.byte	0
+	.uleb128 0x2
+	.long	.LASF332
+	.byte	0xe
+	.value	0x299
+	.byte	0x8
+	.long	0x4be
+	.byte	0x28
+	.uleb128 0x2
+	.long	.LASF333
+	.byte	0xe
+	.value	0x29a
+	.byte	0x8
+	.long	0x1285
+	.byte	0x30
+	.byte	0
+	.uleb128 0x5
+	.long	.LASF151
+	.byte	0x38
+	.byte	0xe
+	.value	0x29d
+	.long	0x1e7f
+	.uleb128 0x3
+	.string	"hdr"
+	.byte	0xe
+	.value	0x29e
+	.byte	0xf
+	.long	0x11d7
+	.byte	0
+	.uleb128 0x2
+	.long	.LASF331
+	.byte	0xe
+	.value	0x29f
+	.byte	0x8
+	.long	0x4be
+	.byte	0x28
+	.uleb128 0x2
+	.long	.LASF168
+	.byte	0xe
+	.value	0x2a0
+	.byte	0x8
+	.long	0x4be
+	.byte	0x30
+	.byte	0
+	.uleb128 0x5
+	.long	.LASF152
+	.byte	0x38
+	.byte	0xe
+	.value	0x2a3
+	.long	0x1eb7
+	.uleb128 0x3
+	.string	"hdr"
+	.byte	0xe
+	.value	0x2a4
+	.byte	0xf
+	.long	0x11d7
+	.byte	0
+	.uleb128 0x2
+	.long	.LASF331
+	.byte	0xe
+	.value	0x2a5
+	.byte	0x8
+	.long	0x4be
+	.byte	0x28
+	.uleb128 0x2
+	.long	.LASF168
+	.byte	0xe
+	.value	0x2a6
+	.byte	0x8
+	.long	0x4be
+	.byte	0x30
+	.byte	0
+	.uleb128 0x5
+	.long	.LASF153
+	.byte	0x30
+	.byte	0xe
+	.value	0x2a9
+	.long	0x1ee1
+	.uleb128 0x3
+	.string	"hdr"
+	.byte	0xe
+	.value	0x2aa
+	.byte	0xf
+	.long	0x11d7
+	.byte	0
+	.uleb128 0x2
+	.long	.LASF335
+	.byte	0xe
+	.value	0x2ab
+	.byte	0x8
+	.long	0x4be
+	.byte	0x28
+	.byte	0
+	.uleb128 0x5
+	.long	.LASF154
+	.byte	0x38
+	.byte	0xe
+	.value	0x2ae
+	.long	0x1f19
+	.uleb128 0x3
+	.string	"hdr"
+	.byte	0xe
+	.value	0x2af
+	.byte	0xf
+	.long	0x11d7
+	.byte	0
+	.uleb128 0x2
+	.long	.LASF348
+	.byte	0xe
+	.value	0x2b0
+	.byte	0x8
+	.long	0x4be
+	.byte	0x28
+	.uleb128 0x2
+	.long	.LASF349
+	.byte	0xe
+	.value	0x2b1
+	.byte	0x8
+	.long	0x4be
+	.byte	0x30
+	.byte	0
+	.uleb128 0x5
+	.long	.LASF155
+	.byte	0x78
+	.byte	0xe
+	.value	0x2b4
+	.long	0x1f43
+	.uleb128 0x3
+	.string	"hdr"
+	.byte	0xe
+	.value	0x2b5
+	.byte	0xf
+	.long	0x11d7
+	.byte	0
+	.uleb128 0x2
+	.long	.LASF324
+	.byte	0xe
+	.value	0x2b6
+	.byte	0x8
+	.long	0x1285
+	.byte	0x28
+	.byte	0
+	.uleb128 0x5
+	.long	.LASF156
+	.byte	0x30
+	.byte	0xe
+	.value	0x2b9
+	.long	0x1f6d
+	.uleb128 0x3
+	.string	"hdr"
+	.byte	0xe
+	.value	0x2ba
+	.byte	0xf
+	.long	0x11d7
+	.byte	0
+	.uleb128 0x2
+	.long	.LASF350
+	.byte	0xe
+	.value	0x2bb
+	.byte	0x8
+	.long	0x4be
+	.byte	0x28
+	.byte	0
+	.uleb128 0x5
+	.long	.LASF157
+	.byte	0x48
+	.byte	0xe
+	.value	0x2be
+	.long	0x1fc0
+	.uleb128 0x3
+	.string	"hdr"
+	.byte	0xe
+	.value	0x2bf
+	.byte	0xf
+	.long	0x11d7
+	.byte	0
+	.uleb128 0x2
+	.long	.LASF331
+	.byte	0xe
+	.value	0x2c0
+	.byte	0x8
+	.long	0x4be
+	.byte	0x28
+	.uleb128 0x3
+	.string	"id"
+	.byte	0xe
+	.value	0x2c1
+	.byte	0x8
+	.long	0x4be
+	.byte	0x30
+	.uleb128 0x2
+	.long	.LASF334
+	.byte	0xe
+	.value	0x2c2
+	.byte	0x8
+	.long	0x4be
+	.byte	0x38
+	.uleb128 0x2
+	.long	.LASF351
+	.byte	0xe
+	.value	0x2c3
+	.byte	0x8
+	.long	0x4be
+	.byte	0x40
+	.byte	0
+	.uleb128 0x5
+	.long	.LASF158
+	.byte	0x38
+	.byte	0xe
+	.value	0x2c6
+	.long	0x1ff8
+	.uleb128 0x3
+	.string	"hdr"
+	.byte	0xe
+	.value	0x2c7
+	.byte	0xf
+	.long	0x11d7
+	.byte	0
+	.uleb128 0x2
+	.long	.LASF347
+	.byte	0xe
+	.value	0x2c8
+	.byte	0x8
+	.long	0x4be
+	.byte	0x28
+	.uleb128 0x2
+	.long	.LASF331
+	.byte	0xe
+	.value	0x2c9
+	.byte	0x8
+	.long	0x4be
+	.byte	0x30
+	.byte	0
+	.uleb128 0x5
+	.long	.LASF159
+	.byte	0x30
+	.byte	0xe
+	.value	0x2cc
+	.long	0x2022
+	.uleb128 0x3
+	.string	"hdr"
+	.byte	0xe
+	.value	0x2cd
+	.byte	0xf
+	.long	0x11d7
+	.byte	0
+	.uleb128 0x2
+	.long	.LASF328
+	.byte	0xe
+	.value	0x2ce
+	.byte	0x8
+	.long	0x4be
+	.byte	0x28
+	.byte	0
+	.uleb128 0x5
+	.long	.LASF160
+	.byte	0x38
+	.byte	0xe
+	.value	0x2d1
+	.long	0x205a
+	.uleb128 0x3
+	.string	"hdr"
+	.byte	0xe
+	.value	0x2d2
+	.byte	0xf
+	.long	0x11d7
+	.byte	0
+	.uleb128 0x2
+	.long	.LASF326
+	.byte	0xe
+	.value	0x2d3
+	.byte	0x8
+	.long	0x4be
+	.byte	0x28
+	.uleb128 0x2
+	.long	.LASF352
+	.byte	0xe
+	.value	0x2d4
+	.byte	0x8
+	.long	0x4be
+	.byte	0x30
+	.byte	0
+	.uleb128 0x5
+	.long	.LASF161
+	.byte	0x30
+	.byte	0xe
+	.value	0x2d7
+	.long	0x2084
+	.uleb128 0x3
+	.string	"hdr"
+	.byte	0xe
+	.value	0x2d8
+	.byte	0xf
+	.long	0x11d7
+	.byte	0
+	.uleb128 0x2
+	.long	.LASF335
+	.byte	0xe
+	.value	0x2d9
+	.byte	0x8
+	.long	0x4be
+	.byte	0x28
+	.byte	0
+	.uleb128 0x1d
+	.long	.LASF452
+	.long	0x43
+	.byte	0x14
+	.long	0x22df
+	.uleb128 0x1
+	.long	.LASF353
+	.byte	0
+	.uleb128 0x1
+	.long	.LASF354
+	.byte	0
+	.uleb128 0x1
+	.long	.LASF355
+	.byte	0
+	.uleb128 0x1
+	.long	.LASF356
+	.byte	0x1
+	.uleb128 0x1
+	.long	.LASF357
+	.byte	0x2
+	.uleb128 0x1
+	.long	.LASF358
+	.byte	0x3
+	.uleb128 0x1
+	.long	.LASF359
+	.byte	0x4
+	.uleb128 0x1
+	.long	.LASF360
+	.byte	0x5
+	.uleb128 0x1
+	.long	.LASF361
+	.byte	0x6
+	.uleb128 0x1
+	.long	.LASF362
+	.byte	0x7
+	.uleb128 0x1
+	.long	.LASF363
+	.byte	0x8
+	.uleb128 0x1
+	.long	.LASF364
+	.byte	0x9
+	.uleb128 0x1
+	.long	.LASF365
+	.byte	0xa
+	.uleb128 0x1
+	.long	.LASF366
+	.byte	0xb
+	.uleb128 0x1
+	.long	.LASF367
+	.byte	0xc
+	.uleb128 0x1
+	.long	.LASF368
+	.byte	0xd
+	.uleb128 0x1
+	.long	.LASF369
+	.byte	0xe
+	.uleb128 0x1
+	.long	.LASF370
+	.byte	0xf
+	.uleb128 0x1
+	.long	.LASF371
+	.byte	0xf
+	.uleb128 0x1
+	.long	.LASF372
+	.byte	0xf
+	.uleb128 0x1
+	.long	.LASF373
+	.byte	0x10
+	.uleb128 0x1
+	.long	.LASF374
+	.byte	0x11
+	.uleb128 0x1
+	.long	.LASF375
+	.byte	0x12
+	.uleb128 0x1
+	.long	.LASF376
+	.byte	0x13
+	.uleb128 0x1
+	.long	.LASF377
+	.byte	0x14
+	.uleb128 0x1
+	.long	.LASF378
+	.byte	0x15
+	.uleb128 0x1
+	.long	.LASF379
+	.byte	0x16
+	.uleb128 0x1
+	.long	.LASF380
+	.byte	0x17
+	.uleb128 0x1
+	.long	.LASF381
+	.byte	0x18
+	.uleb128 0x1
+	.long	.LASF382
+	.byte	0x19
+	.uleb128 0x1
+	.long	.LASF383
+	.byte	0x1a
+	.uleb128 0x1
+	.long	.LASF384
+	.byte	0x1b
+	.uleb128 0x1
+	.long	.LASF385
+	.byte	0x1c
+	.uleb128 0x1
+	.long	.LASF386
+	.byte	0x1d
+	.uleb128 0x1
+	.long	.LASF387
+	.byte	0x1e
+	.uleb128 0x1
+	.long	.LASF388
+	.byte	0x1f
+	.uleb128 0x1
+	.long	.LASF389
+	.byte	0x20
+	.uleb128 0x1
+	.long	.LASF390
+	.byte	0x21
+	.uleb128 0x1
+	.long	.LASF391
+	.byte	0x22
+	.uleb128 0x1
+	.long	.LASF392
+	.byte	0x23
+	.uleb128 0x1
+	.long	.LASF393
+	.byte	0x24
+	.uleb128 0x1
+	.long	.LASF394
+	.byte	0x25
+	.uleb128 0x1
+	.long	.LASF395
+	.byte	0x26
+	.uleb128 0x1
+	.long	.LASF396
+	.byte	0x27
+	.uleb128 0x1
+	.long	.LASF397
+	.byte	0x28
+	.uleb128 0x1
+	.long	.LASF398
+	.byte	0x29
+	.uleb128 0x1
+	.long	.LASF399
+	.byte	0x2a
+	.uleb128 0x1
+	.long	.LASF400
+	.byte	0x2b
+	.uleb128 0x1
+	.long	.LASF401
+	.byte	0x2c
+	.uleb128 0x1
+	.long	.LASF402
+	.byte	0x2d
+	.uleb128 0x1
+	.long	.LASF403
+	.byte	0x2d
+	.uleb128 0x1
+	.long	.LASF404
+	.byte	0x2d
+	.uleb128 0x1
+	.long	.LASF405
+	.byte	0x2e
+	.uleb128 0x1
+	.long	.LASF406
+	.byte	0x2f
+	.uleb128 0x1
+	.long	.LASF407
+	.byte	0x30
+	.uleb128 0x1
+	.long	.LASF408
+	.byte	0x31
+	.uleb128 0x1
+	.long	.LASF409
+	.byte	0x31
+	.uleb128 0x1
+	.long	.LASF410
+	.byte	0x31
+	.uleb128 0x1
+	.long	.LASF411
+	.byte	0x32
+	.uleb128 0x1
+	.long	.LASF412
+	.byte	0x33
+	.uleb128 0x1
+	.long	.LASF413
+	.byte	0x34
+	.uleb128 0x1
+	.long	.LASF414
+	.byte	0x35
+	.uleb128 0x1
+	.long	.LASF415
+	.byte	0x36
+	.uleb128 0x1
+	.long	.LASF416
+	.byte	0x37
+	.uleb128 0x1
+	.long	.LASF417
+	.byte	0x38
+	.uleb128 0x1
+	.long	.LASF418
+	.byte	0x39
+	.uleb128 0x1
+	.long	.LASF419
+	.byte	0x3a
+	.uleb128 0x1
+	.long	.LASF420
+	.byte	0x3b
+	.uleb128 0x1
+	.long	.LASF421
+	.byte	0x3c
+	.uleb128 0x1
+	.long	.LASF422
+	.byte	0x3d
+	.uleb128 0x1
+	.long	.LASF423
+	.byte	0x3d
+	.uleb128 0x1
+	.long	.LASF424
+	.byte	0x3d
+	.uleb128 0x1
+	.long	.LASF425
+	.byte	0x3e
+	.uleb128 0x1
+	.long	.LASF426
+	.byte	0x3f
+	.uleb128 0x1
+	.long	.LASF427
+	.byte	0x40
+	.uleb128 0x1
+	.long	.LASF428
+	.byte	0x41
+	.uleb128 0x1
+	.long	.LASF429
+	.byte	0x42
+	.uleb128 0x1
+	.long	.LASF430
+	.byte	0x43
+	.uleb128 0x1
+	.long	.LASF431
+	.byte	0x44
+	.uleb128 0x1
+	.long	.LASF432
+	.byte	0x44
+	.uleb128 0x1
+	.long	.LASF433
+	.byte	0x44
+	.uleb128 0x1
+	.long	.LASF434
+	.byte	0x45
+	.uleb128 0x1
+	.long	.LASF435
+	.byte	0x46
+	.uleb128 0x1
+	.long	.LASF436
+	.byte	0x47
+	.uleb128 0x1
+	.long	.LASF437
+	.byte	0x48
+	.uleb128 0x1
+	.long	.LASF438
+	.byte	0x49
+	.uleb128 0x1
+	.long	.LASF439
+	.byte	0x4a
+	.uleb128 0x1
+	.long	.LASF440
+	.byte	0x4b
+	.uleb128 0x1
+	.long	.LASF441
+	.byte	0x4c
+	.uleb128 0x1
+	.long	.LASF442
+	.byte	0x4d
+	.uleb128 0x1
+	.long	.LASF443
+	.byte	0x4e
+	.uleb128 0x1
+	.long	.LASF444
+	.byte	0x4f
+	.uleb128 0x1
+	.long	.LASF445
+	.byte	0x50
+	.uleb128 0x1
+	.long	.LASF446
+	.byte	0x51
+	.uleb128 0x1
+	.long	.LASF447
+	.byte	0x52
+	.uleb128 0x1
+	.long	.LASF448
+	.byte	0x53
+	.uleb128 0x1
+	.long	.LASF449
+	.byte	0x54
+	.uleb128 0x1
+	.long	.LASF450
+	.byte	0x54
+	.byte	0
+	.uleb128 0x9
+	.long	.LASF451
+	.byte	0x10
+	.byte	0x8e
+	.byte	0x16
+	.long	0x2084
+	.uleb128 0x1d
+	.long	.LASF453
+	.long	0x43
+	.byte	0x91
+	.long	0x2938
+	.uleb128 0x1
+	.long	.LASF454
+	.byte	0
+	.uleb128 0x1
+	.long	.LASF455
+	.byte	0
+	.uleb128 0x1
+	.long	.LASF456
+	.byte	0x1
+	.uleb128 0x1
+	.long	.LASF457
+	.byte	0x2
+	.uleb128 0x1
+	.long	.LASF458
+	.byte	0x3
+	.uleb128 0x1
+	.long	.LASF459
+	.byte	0x4
+	.uleb128 0x1
+	.long	.LASF460
+	.byte	0x5
+	.uleb128 0x1
+	.long	.LASF461
+	.byte	0x6
+	.uleb128 0x1
+	.long	.LASF462
+	.byte	0x7
+	.uleb128 0x1
+	.long	.LASF463
+	.byte	0x8
+	.uleb128 0x1
+	.long	.LASF464
+	.byte	0x9
+	.uleb128 0x1
+	.long	.LASF465
+	.byte	0xa
+	.uleb128 0x1
+	.long	.LASF466
+	.byte	0xb
+	.uleb128 0x1
+	.long	.LASF467
+	.byte	0xc
+	.uleb128 0x1
+	.long	.LASF468
+	.byte	0xd
+	.uleb128 0x1
+	.long	.LASF469
+	.byte	0xe
+	.uleb128 0x1
+	.long	.LASF470
+	.byte	0xf
+	.uleb128 0x1
+	.long	.LASF471
+	.byte	0x10
+	.uleb128 0x1
+	.long	.LASF472
+	.byte	0x11
+	.uleb128 0x1
+	.long	.LASF473
+	.byte	0x12
+	.uleb128 0x1
+	.long	.LASF474
+	.byte	0x13
+	.uleb128 0x1
+	.long	.LASF475
+	.byte	0x14
+	.uleb128 0x1
+	.long	.LASF476
+	.byte	0x15
+	.uleb128 0x1
+	.long	.LASF477
+	.byte	0x16
+	.uleb128 0x1
+	.long	.LASF478
+	.byte	0x17
+	.uleb128 0x1
+	.long	.LASF479
+	.byte	0x18
+	.uleb128 0x1
+	.long	.LASF480
+	.byte	0x19
+	.uleb128 0x1
+	.long	.LASF481
+	.byte	0x1a
+	.uleb128 0x1
+	.long	.LASF482
+	.byte	0x1b
+	.uleb128 0x1
+	.long	.LASF483
+	.byte	0x1c
+	.uleb128 0x1
+	.long	.LASF484
+	.byte	0x1d
+	.uleb128 0x1
+	.long	.LASF485
+	.byte	0x1e
+	.uleb128 0x1
+	.long	.LASF486
+	.byte	0x1f
+	.uleb128 0x1
+	.long	.LASF487
+	.byte	0x20
+	.uleb128 0x1
+	.long	.LASF488
+	.byte	0x21
+	.uleb128 0x1
+	.long	.LASF489
+	.byte	0x22
+	.uleb128 0x1
+	.long	.LASF490
+	.byte	0x23
+	.uleb128 0x1
+	.long	.LASF491
+	.byte	0x24
+	.uleb128 0x1
+	.long	.LASF492
+	.byte	0x25
+	.uleb128 0x1
+	.long	.LASF493
+	.byte	0x26
+	.uleb128 0x1
+	.long	.LASF494
+	.byte	0x27
+	.uleb128 0x1
+	.long	.LASF495
+	.byte	0x28
+	.uleb128 0x1
+	.long	.LASF496
+	.byte	0x29
+	.uleb128 0x1
+	.long	.LASF497
+	.byte	0x2a
+	.uleb128 0x1
+	.long	.LASF498
+	.byte	0x2b
+	.uleb128 0x1
+	.long	.LASF499
+	.byte	0x2c
+	.uleb128 0x1
+	.long	.LASF500
+	.byte	0x2d
+	.uleb128 0x1
+	.long	.LASF501
+	.byte	0x2e
+	.uleb128 0x1
+	.long	.LASF502
+	.byte	0x2f
+	.uleb128 0x1
+	.long	.LASF503
+	.byte	0x30
+	.uleb128 0x1
+	.long	.LASF504
+	.byte	0x31
+	.uleb128 0x1
+	.long	.LASF505
+	.byte	0x32
+	.uleb128 0x1
+	.long	.LASF506
+	.byte	0x33
+	.uleb128 0x1
+	.long	.LASF507
+	.byte	0x34
+	.uleb128 0x1
+	.long	.LASF508
+	.byte	0x35
+	.uleb128 0x1
+	.long	.LASF509
+	.byte	0x36
+	.uleb128 0x1
+	.long	.LASF510
+	.byte	0x37
+	.uleb128 0x1
+	.long	.LASF511
+	.byte	0x38
+	.uleb128 0x1
+	.long	.LASF512
+	.byte	0x39
+	.uleb128 0x1
+	.long	.LASF513
+	.byte	0x3a
+	.uleb128 0x1
+	.long	.LASF514
+	.byte	0x3b
+	.uleb128 0x1
+	.long	.LASF515
+	.byte	0x3c
+	.uleb128 0x1
+	.long	.LASF516
+	.byte	0x3d
+	.uleb128 0x1
+	.long	.LASF517
+	.byte	0x3e
+	.uleb128 0x1
+	.long	.LASF518
+	.byte	0x3f
+	.uleb128 0x1
+	.long	.LASF519
+	.byte	0x40
+	.uleb128 0x1
+	.long	.LASF520
+	.byte	0x41
+	.uleb128 0x1
+	.long	.LASF521
+	.byte	0x42
+	.uleb128 0x1
+	.long	.LASF522
+	.byte	0x43
+	.uleb128 0x1
+	.long	.LASF523
+	.byte	0x44
+	.uleb128 0x1
+	.long	.LASF524
+	.byte	0x45
+	.uleb128 0x1
+	.long	.LASF525
+	.byte	0x46
+	.uleb128 0x1
+	.long	.LASF526
+	.byte	0x47
+	.uleb128 0x1
+	.long	.LASF527
+	.byte	0x48
+	.uleb128 0x1
+	.long	.LASF528
+	.byte	0x49
+	.uleb128 0x1
+	.long	.LASF529
+	.byte	0x4a
+	.uleb128 0x1
+	.long	.LASF530
+	.byte	0x4b
+	.uleb128 0x1
+	.long	.LASF531
+	.byte	0x4c
+	.uleb128 0x1
+	.long	.LASF532
+	.byte	0x4d
+	.uleb128 0x1
+	.long	.LASF533
+	.byte	0x4e
+	.uleb128 0x1
+	.long	.LASF534
+	.byte	0x4f
+	.uleb128 0x1
+	.long	.LASF535
+	.byte	0x50
+	.uleb128 0x1
+	.long	.LASF536
+	.byte	0x51
+	.uleb128 0x1
+	.long	.LASF537
+	.byte	0x52
+	.uleb128 0x1
+	.long	.LASF538
+	.byte	0x53
+	.uleb128 0x1
+	.long	.LASF539
+	.byte	0x54
+	.uleb128 0x1
+	.long	.LASF540
+	.byte	0x55
+	.uleb128 0x1
+	.long	.LASF541
+	.byte	0x56
+	.uleb128 0x1
+	.long	.LASF542
+	.byte	0x57
+	.uleb128 0x1
+	.long	.LASF543
+	.byte	0x58
+	.uleb128 0x1
+	.long	.LASF544
+	.byte	0x59
+	.uleb128 0x1
+	.long	.LASF545
+	.byte	0x5a
+	.uleb128 0x1
+	.long	.LASF546
+	.byte	0x5b
+	.uleb128 0x1
+	.long	.LASF547
+	.byte	0x5c
+	.uleb128 0x1
+	.long	.LASF548
+	.byte	0x5d
+	.uleb128 0x1
+	.long	.LASF549
+	.byte	0x5e
+	.uleb128 0x1
+	.long	.LASF550
+	.byte	0x5f
+	.uleb128 0x1
+	.long	.LASF551
+	.byte	0x60
+	.uleb128 0x1
+	.long	.LASF552
+	.byte	0x61
+	.uleb128 0x1
+	.long	.LASF553
+	.byte	0x62
+	.uleb128 0x1
+	.long	.LASF554
+	.byte	0x63
+	.uleb128 0x1
+	.long	.LASF555
+	.byte	0x64
+	.uleb128 0x1
+	.long	.LASF556
+	.byte	0x65
+	.uleb128 0x1
+	.long	.LASF557
+	.byte	0x66
+	.uleb128 0x1
+	.long	.LASF558
+	.byte	0x67
+	.uleb128 0x1
+	.long	.LASF559
+	.byte	0x68
+	.uleb128 0x1
+	.long	.LASF560
+	.byte	0x69
+	.uleb128 0x1
+	.long	.LASF561
+	.byte	0x6a
+	.uleb128 0x1
+	.long	.LASF562
+	.byte	0x6b
+	.uleb128 0x1
+	.long	.LASF563
+	.byte	0x6c
+	.uleb128 0x1
+	.long	.LASF564
+	.byte	0x6d
+	.uleb128 0x1
+	.long	.LASF565
+	.byte	0x6e
+	.uleb128 0x1
+	.long	.LASF566
+	.byte	0x6f
+	.uleb128 0x1
+	.long	.LASF567
+	.byte	0x70
+	.uleb128 0x1
+	.long	.LASF568
+	.byte	0x71
+	.uleb128 0x1
+	.long	.LASF569
+	.byte	0x72
+	.uleb128 0x1
+	.long	.LASF570
+	.byte	0x73
+	.uleb128 0x1
+	.long	.LASF571
+	.byte	0x74
+	.uleb128 0x1
+	.long	.LASF572
+	.byte	0x75
+	.uleb128 0x1
+	.long	.LASF573
+	.byte	0x76
+	.uleb128 0x1
+	.long	.LASF574
+	.byte	0x77
+	.uleb128 0x1
+	.long	.LASF575
+	.byte	0x78
+	.uleb128 0x1
+	.long	.LASF576
+	.byte	0x79
+	.uleb128 0x1
+	.long	.LASF577
+	.byte	0x7a
+	.uleb128 0x1
+	.long	.LASF578
+	.byte	0x7b
+	.uleb128 0x1
+	.long	.LASF579
+	.byte	0x7c
+	.uleb128 0x1
+	.long	.LASF580
+	.byte	0x7d
+	.uleb128 0x1
+	.long	.LASF581
+	.byte	0x7e
+	.uleb128 0x1
+	.long	.LASF582
+	.byte	0x7f
+	.uleb128 0x1
+	.long	.LASF583
+	.byte	0x80
+	.uleb128 0x1
+	.long	.LASF584
+	.byte	0x81
+	.uleb128 0x1
+	.long	.LASF585
+	.byte	0x82
+	.uleb128 0x1
+	.long	.LASF586
+	.byte	0x83
+	.uleb128 0x1
+	.long	.LASF587
+	.byte	0x84
+	.uleb128 0x1
+	.long	.LASF588
+	.byte	0x85
+	.uleb128 0x1
+	.long	.LASF589
+	.byte	0x86
+	.uleb128 0x1
+	.long	.LASF590
+	.byte	0x87
+	.uleb128 0x1
+	.long	.LASF591
+	.byte	0x88
+	.uleb128 0x1
+	.long	.LASF592
+	.byte	0x89
+	.uleb128 0x1
+	.long	.LASF593
+	.byte	0x8a
+	.uleb128 0x1
+	.long	.LASF594
+	.byte	0x8b
+	.uleb128 0x1
+	.long	.LASF595
+	.byte	0x8c
+	.uleb128 0x1
+	.long	.LASF596
+	.byte	0x8d
+	.uleb128 0x1
+	.long	.LASF597
+	.byte	0x8e
+	.uleb128 0x1
+	.long	.LASF598
+	.byte	0x8f
+	.uleb128 0x1
+	.long	.LASF599
+	.byte	0x90
+	.uleb128 0x1
+	.long	.LASF600
+	.byte	0x91
+	.uleb128 0x1
+	.long	.LASF601
+	.byte	0x92
+	.uleb128 0x1
+	.long	.LASF602
+	.byte	0x93
+	.uleb128 0x1
+	.long	.LASF603
+	.byte	0x94
+	.uleb128 0x1
+	.long	.LASF604
+	.byte	0x95
+	.uleb128 0x1
+	.long	.LASF605
+	.byte	0x96
+	.uleb128 0x1
+	.long	.LASF606
+	.byte	0x97
+	.uleb128 0x1
+	.long	.LASF607
+	.byte	0x98
+	.uleb128 0x1
+	.long	.LASF608
+	.byte	0x99
+	.uleb128 0x1
+	.long	.LASF609
+	.byte	0x9a
+	.uleb128 0x1
+	.long	.LASF610
+	.byte	0x9b
+	.uleb128 0x1
+	.long	.LASF611
+	.byte	0x9c
+	.uleb128 0x1
+	.long	.LASF612
+	.byte	0x9d
+	.uleb128 0x1
+	.long	.LASF613
+	.byte	0x9e
+	.uleb128 0x1
+	.long	.LASF614
+	.byte	0x9f
+	.uleb128 0x1
+	.long	.LASF615
+	.byte	0xa0
+	.uleb128 0x1
+	.long	.LASF616
+	.byte	0xa1
+	.uleb128 0x1
+	.long	.LASF617
+	.byte	0xa2
+	.uleb128 0x1
+	.long	.LASF618
+	.byte	0xa3
+	.uleb128 0x1
+	.long	.LASF619
+	.byte	0xa4
+	.uleb128 0x1
+	.long	.LASF620
+	.byte	0xa5
+	.uleb128 0x1
+	.long	.LASF621
+	.byte	0xa6
+	.uleb128 0x1
+	.long	.LASF622
+	.byte	0xa7
+	.uleb128 0x1
+	.long	.LASF623
+	.byte	0xa8
+	.uleb128 0x1
+	.long	.LASF624
+	.byte	0xa9
+	.uleb128 0x1
+	.long	.LASF625
+	.byte	0xaa
+	.uleb128 0x1
+	.long	.LASF626
+	.byte	0xab
+	.uleb128 0x1
+	.long	.LASF627
+	.byte	0xac
+	.uleb128 0x1
+	.long	.LASF628
+	.byte	0xad
+	.uleb128 0x1
+	.long	.LASF629
+	.byte	0xae
+	.uleb128 0x1
+	.long	.LASF630
+	.byte	0xaf
+	.uleb128 0x1
+	.long	.LASF631
+	.byte	0xb0
+	.uleb128 0x1
+	.long	.LASF632
+	.byte	0xb1
+	.uleb128 0x1
+	.long	.LASF633
+	.byte	0xb2
+	.uleb128 0x1
+	.long	.LASF634
+	.byte	0xb3
+	.uleb128 0x1
+	.long	.LASF635
+	.byte	0xb4
+	.uleb128 0x1
+	.long	.LASF636
+	.byte	0xb5
+	.uleb128 0x1
+	.long	.LASF637
+	.byte	0xb6
+	.uleb128 0x1
+	.long	.LASF638
+	.byte	0xb7
+	.uleb128 0x1
+	.long	.LASF639
+	.byte	0xb8
+	.uleb128 0x1
+	.long	.LASF640
+	.byte	0xb9
+	.uleb128 0x1
+	.long	.LASF641
+	.byte	0xba
+	.uleb128 0x1
+	.long	.LASF642
+	.byte	0xbb
+	.uleb128 0x1
+	.long	.LASF643
+	.byte	0xbc
+	.uleb128 0x1
+	.long	.LASF644
+	.byte	0xbd
+	.uleb128 0x1
+	.long	.LASF645
+	.byte	0xbe
+	.uleb128 0x1
+	.long	.LASF646
+	.byte	0xbf
+	.uleb128 0x1
+	.long	.LASF647
+	.byte	0xc0
+	.uleb128 0x1
+	.long	.LASF648
+	.byte	0xc1
+	.uleb128 0x1
+	.long	.LASF649
+	.byte	0xc2
+	.uleb128 0x1
+	.long	.LASF650
+	.byte	0xc3
+	.uleb128 0x1
+	.long	.LASF651
+	.byte	0xc4
+	.uleb128 0x1
+	.long	.LASF652
+	.byte	0xc5
+	.uleb128 0x1
+	.long	.LASF653
+	.byte	0xc6
+	.uleb128 0x1
+	.long	.LASF654
+	.byte	0xc7
+	.uleb128 0x1
+	.long	.LASF655
+	.byte	0xc8
+	.uleb128 0x1
+	.long	.LASF656
+	.byte	0xc9
+	.uleb128 0x1
+	.long	.LASF657
+	.byte	0xca
+	.uleb128 0x1
+	.long	.LASF658
+	.byte	0xcb
+	.uleb128 0x1
+	.long	.LASF659
+	.byte	0xcc
+	.uleb128 0x1
+	.long	.LASF660
+	.byte	0xcd
+	.uleb128 0x1
+	.long	.LASF661
+	.byte	0xce
+	.uleb128 0x1
+	.long	.LASF662
+	.byte	0xcf
+	.uleb128 0x1
+	.long	.LASF663
+	.byte	0xd0
+	.uleb128 0x1
+	.long	.LASF664
+	.byte	0xd1
+	.uleb128 0x1
+	.long	.LASF665
+	.byte	0xd2
+	.uleb128 0x1
+	.long	.LASF666
+	.byte	0xd3
+	.uleb128 0x1
+	.long	.LASF667
+	.byte	0xd4
+	.uleb128 0x1
+	.long	.LASF668
+	.byte	0xd5
+	.uleb128 0x1
+	.long	.LASF669
+	.byte	0xd6
+	.uleb128 0x1
+	.long	.LASF670
+	.byte	0xd7
+	.uleb128 0x1
+	.long	.LASF671
+	.byte	0xd8
+	.uleb128 0x1
+	.long	.LASF672
+	.byte	0xd9
+	.uleb128 0x1
+	.long	.LASF673
+	.byte	0xda
+	.uleb128 0x1
+	.long	.LASF674
+	.byte	0xdb
+	.uleb128 0x1
+	.long	.LASF675
+	.byte	0xdc
+	.uleb128 0x1
+	.long	.LASF676
+	.byte	0xdd
+	.uleb128 0x1
+	.long	.LASF677
+	.byte	0xde
+	.uleb128 0x1
+	.long	.LASF678
+	.byte	0xdf
+	.uleb128 0x1
+	.long	.LASF679
+	.byte	0xe0
+	.uleb128 0x1
+	.long	.LASF680
+	.byte	0xe1
+	.uleb128 0x1
+	.long	.LASF681
+	.byte	0xe2
+	.uleb128 0x1
+	.long	.LASF682
+	.byte	0xe3
+	.uleb128 0x1
+	.long	.LASF683
+	.byte	0xe4
+	.uleb128 0x1
+	.long	.LASF684
+	.byte	0xe5
+	.uleb128 0x1
+	.long	.LASF685
+	.byte	0xe6
+	.uleb128 0x1
+	.long	.LASF686
+	.byte	0xe7
+	.uleb128 0x1
+	.long	.LASF687
+	.byte	0xe8
+	.uleb128 0x1
+	.long	.LASF688
+	.byte	0xe9
+	.uleb128 0x1
+	.long	.LASF689
+	.byte	0xea
+	.uleb128 0x1
+	.long	.LASF690
+	.byte	0xeb
+	.uleb128 0x1
+	.long	.LASF691
+	.byte	0xec
+	.uleb128 0x1
+	.long	.LASF692
+	.byte	0xed
+	.uleb128 0x1
+	.long	.LASF693
+	.byte	0xee
+	.uleb128 0x1
+	.long	.LASF694
+	.byte	0xef
+	.uleb128 0x1
+	.long	.LASF695
+	.byte	0xf0
+	.uleb128 0x1
+	.long	.LASF696
+	.byte	0xf1
+	.uleb128 0x1
+	.long	.LASF697
+	.byte	0xf2
+	.uleb128 0x1
+	.long	.LASF698
+	.byte	0xf3
+	.uleb128 0x1
+	.long	.LASF699
+	.byte	0xf4
+	.uleb128 0x1
+	.long	.LASF700
+	.byte	0xf5
+	.uleb128 0x1
+	.long	.LASF701
+	.byte	0xf6
+	.uleb128 0x1
+	.long	.LASF702
+	.byte	0xf7
+	.uleb128 0x1
+	.long	.LASF703
+	.byte	0xf8
+	.uleb128 0x1
+	.long	.LASF704
+	.byte	0xf9
+	.uleb128 0x1
+	.long	.LASF705
+	.byte	0xfa
+	.uleb128 0x1
+	.long	.LASF706
+	.byte	0xfb
+	.uleb128 0x1
+	.long	.LASF707
+	.byte	0xfc
+	.uleb128 0x1
+	.long	.LASF708
+	.byte	0xfd
+	.uleb128 0x1
+	.long	.LASF709
+	.byte	0xfe
+	.uleb128 0x1
+	.long	.LASF710
+	.byte	0xff
+	.uleb128 0x12
+	.long	.LASF711
+	.value	0x100
+	.uleb128 0x12
+	.long	.LASF712
+	.value	0x101
+	.uleb128 0x12
+	.long	.LASF713
+	.value	0x102
+	.uleb128 0x12
+	.long	.LASF714
+	.value	0x103
+	.uleb128 0x12
+	.long	.LASF715
+	.value	0x104
+	.uleb128 0x12
+	.long	.LASF716
+	.value	0x105
+	.uleb128 0x12
+	.long	.LASF717
+	.value	0x106
+	.uleb128 0x12
+	.long	.LASF718
+	.value	0x107
+	.byte	0
+	.uleb128 0x1e
+	.long	.LASF719
+	.long	0x43
+	.value	0x1b9
+	.long	0x2990
+	.uleb128 0x1
+	.long	.LASF720
+	.byte	0
+	.uleb128 0x1
+	.long	.LASF721
+	.byte	0
+	.uleb128 0x1
+	.long	.LASF722
+	.byte	0x1
+	.uleb128 0x1
+	.long	.LASF723
+	.byte	0x2
+	.uleb128 0x1
+	.long	.LASF724
+	.byte	0x3
+	.uleb128 0x1
+	.long	.LASF725
+	.byte	0x4
+	.uleb128 0x1
+	.long	.LASF726
+	.byte	0x5
+	.uleb128 0x1
+	.long	.LASF727
+	.byte	0x6
+	.uleb128 0x1
+	.long	.LASF728
+	.byte	0x7
+	.uleb128 0x1
+	.long	.LASF729
+	.byte	0x8
+	.uleb128 0x1
+	.long	.LASF730
+	.byte	0x9
+	.uleb128 0x1
+	.long	.LASF731
+	.byte	0xa
+	.byte	0
+	.uleb128 0x1e
+	.long	.LASF732
+	.long	0x43
+	.value	0x1c8
+	.long	0x2a00
+	.uleb128 0x1
+	.long	.LASF733
+	.byte	0
+	.uleb128 0x1
+	.long	.LASF734
+	.byte	0x1
+	.uleb128 0x1
+	.long	.LASF735
+	.byte	0x2
+	.uleb128 0x1
+	.long	.LASF736
+	.byte	0x3
+	.uleb128 0x1
+	.long	.LASF737
+	.byte	0x4
+	.uleb128 0x1
+	.long	.LASF738
+	.byte	0x5
+	.uleb128 0x1
+	.long	.LASF739
+	.byte	0x6
+	.uleb128 0x1
+	.long	.LASF740
+	.byte	0x7
+	.uleb128 0x1
+	.long	.LASF741
+	.byte	0x8
+	.uleb128 0x1
+	.long	.LASF742
+	.byte	0x9
+	.uleb128 0x1
+	.long	.LASF743
+	.byte	0xa
+	.uleb128 0x1
+	.long	.LASF744
+	.byte	0xb
+	.uleb128 0x1
+	.long	.LASF745
+	.byte	0xc
+	.uleb128 0x1
+	.long	.LASF746
+	.byte	0xd
+	.uleb128 0x1
+	.long	.LASF747
+	.byte	0xe
+	.uleb128 0x1
+	.long	.LASF748
+	.byte	0xf
+	.byte	0
+	.uleb128 0x18
+	.byte	0x8
+	.byte	0x10
+	.value	0x1fd
+	.long	0x2a8c
+	.uleb128 0x14
+	.string	"opt"
+	.byte	0x10
+	.value	0x1fe
+	.byte	0xb
+	.long	0xfb0
+	.uleb128 0x4
+	.long	.LASF749
+	.byte	0x10
+	.value	0x1ff
+	.byte	0x8
+	.long	0x2ed
+	.uleb128 0x4
+	.long	.LASF750
+	.byte	0x10
+	.value	0x200
+	.byte	0x8
+	.long	0x2ed
+	.uleb128 0x14
+	.string	"sym"
+	.byte	0x10
+	.value	0x201
+	.byte	0xa
+	.long	0x471
+	.uleb128 0x4
+	.long	.LASF751
+	.byte	0x10
+	.value	0x202
+	.byte	0x8
+	.long	0x2ed
+	.uleb128 0x4
+	.long	.LASF752
+	.byte	0x10
+	.value	0x203
+	.byte	0x8
+	.long	0x2e
+	.uleb128 0x4
+	.long	.LASF753
+	.byte	0x10
+	.value	0x204
+	.byte	0xf
+	.long	0x10e7
+	.uleb128 0x4
+	.long	.LASF754
+	.byte	0x10
+	.value	0x205
+	.byte	0xb
+	.long	0xfdc
+	.uleb128 0x4
+	.long	.LASF755
+	.byte	0x10
+	.value	0x206
+	.byte	0x19
+	.long	0xff2
+	.uleb128 0x4
+	.long	.LASF756
+	.byte	0x10
+	.value	0x208
+	.byte	0xc
+	.long	0x101e
+	.byte	0
+	.uleb128 0x5
+	.long	.LASF757
+	.byte	0x30
+	.byte	0x10
+	.value	0x1f8
+	.long	0x2b0a
+	.uleb128 0x3
+	.string	"tag"
+	.byte	0x10
+	.value	0x1f9
+	.byte	0x8
+	.long	0x29f
+	.byte	0
+	.uleb128 0x2
+	.long	.LASF758
+	.byte	0x10
+	.value	0x1fa
+	.byte	0x8
+	.long	0x29f
+	.byte	0x1
+	.uleb128 0x2
+	.long	.LASF759
+	.byte	0x10
+	.value	0x1fb
+	.byte	0x8
+	.long	0x29f
+	.byte	0x2
+	.uleb128 0x3
+	.string	"pos"
+	.byte	0x10
+	.value	0x1fc
+	.byte	0x9
+	.long	0x3a9
+	.byte	0x8
+	.uleb128 0x2
+	.long	.LASF85
+	.byte	0x10
+	.value	0x20a
+	.byte	0x4
+	.long	0x2a00
+	.byte	0x10
+	.uleb128 0x2
+	.long	.LASF760
+	.byte	0x10
+	.value	0x20b
+	.byte	0x6
+	.long	0x2e
+	.byte	0x18
+	.uleb128 0x2
+	.long	.LASF163
+	.byte	0x10
+	.value	0x20c
+	.byte	0x7
+	.long	0x892
+	.byte	0x20
+	.uleb128 0x2
+	.long	.LASF322
+	.byte	0x10
+	.value	0x20d
+	.byte	0x9
+	.long	0x307
+	.byte	0x28
+	.byte	0
+	.uleb128 0x18
+	.byte	0x8
+	.byte	0x10
+	.value	0x212
+	.long	0x2b55
+	.uleb128 0x4
+	.long	.LASF761
+	.byte	0x10
+	.value	0x213
+	.byte	0x8
+	.long	0x96b
+	.uleb128 0x4
+	.long	.LASF325
+	.byte	0x10
+	.value	0x214
+	.byte	0x8
+	.long	0x2c6
+	.uleb128 0x14
+	.string	"str"
+	.byte	0x10
+	.value	0x215
+	.byte	0xa
+	.long	0x321
+	.uleb128 0x4
+	.long	.LASF78
+	.byte	0x10
+	.value	0x216
+	.byte	0x8
+	.long	0x41e
+	.uleb128 0x4
+	.long	.LASF762
+	.byte	0x10
+	.value	0x217
+	.byte	0xa
+	.long	0x33b
+	.byte	0
+	.uleb128 0x5
+	.long	.LASF179
+	.byte	0x80
+	.byte	0x10
+	.value	0x210
+	.long	0x2b7f
+	.uleb128 0x3
+	.string	"hdr"
+	.byte	0x10
+	.value	0x211
+	.byte	0x11
+	.long	0x2a8c
+	.byte	0
+	.uleb128 0x2
+	.long	.LASF324
+	.byte	0x10
+	.value	0x218
+	.byte	0x4
+	.long	0x2b7f
+	.byte	0x30
+	.byte	0
+	.uleb128 0x10
+	.long	0x2b0a
+	.long	0x2b8f
+	.uleb128 0x11
+	.long	0x4a
+	.byte	0x9
+	.byte	0
+	.uleb128 0x5
+	.long	.LASF180
+	.byte	0x30
+	.byte	0x10
+	.value	0x21e
+	.long	0x2bab
+	.uleb128 0x3
+	.string	"hdr"
+	.byte	0x10
+	.value	0x21f
+	.byte	0x11
+	.long	0x2a8c
+	.byte	0
+	.byte	0
+	.uleb128 0x5
+	.long	.LASF181
+	.byte	0x38
+	.byte	0x10
+	.value	0x225
+	.long	0x2bd5
+	.uleb128 0x3
+	.string	"hdr"
+	.byte	0x10
+	.value	0x226
+	.byte	0x11
+	.long	0x2a8c
+	.byte	0
+	.uleb128 0x2
+	.long	.LASF763
+	.byte	0x10
+	.value	0x227
+	.byte	0x7
+	.long	0x2c6
+	.byte	0x30
+	.byte	0
+	.uleb128 0x5
+	.long	.LASF182
+	.byte	0x38
+	.byte	0x10
+	.value	0x22d
+	.long	0x2bff
+	.uleb128 0x3
+	.string	"hdr"
+	.byte	0x10
+	.value	0x22e
+	.byte	0x11
+	.long	0x2a8c
+	.byte	0
+	.uleb128 0x2
+	.long	.LASF764
+	.byte	0x10
+	.value	0x22f
+	.byte	0x7
+	.long	0x2c6
+	.byte	0x30
+	.byte	0
+	.uleb128 0x5
+	.long	.LASF183
+	.byte	0x38
+	.byte	0x10
+	.value	0x235
+	.long	0x2c29
+	.uleb128 0x3
+	.string	"hdr"
+	.byte	0x10
+	.value	0x236
+	.byte	0x11
+	.long	0x2a8c
+	.byte	0
+	.uleb128 0x2
+	.long	.LASF765
+	.byte	0x10
+	.value	0x237
+	.byte	0x7
+	.long	0x2c6
+	.byte	0x30
+	.byte	0
+	.uleb128 0x5
+	.long	.LASF184
+	.byte	0x38
+	.byte	0x10
+	.value	0x23d
+	.long	0x2c53
+	.uleb128 0x3
+	.string	"hdr"
+	.byte	0x10
+	.value	0x23e
+	.byte	0x11
+	.long	0x2a8c
+	.byte	0
+	.uleb128 0x2
+	.long	.LASF766
+	.byte	0x10
+	.value	0x23f
+	.byte	0x7
+	.long	0x2c6
+	.byte	0x30
+	.byte	0
+	.uleb128 0x5
+	.long	.LASF185
+	.byte	0x38
+	.byte	0x10
+	.value	0x245
+	.long	0x2c7d
+	.uleb128 0x3
+	.string	"hdr"
+	.byte	0x10
+	.value	0x246
+	.byte	0x11
+	.long	0x2a8c
+	.byte	0
+	.uleb128 0x2
+	.long	.LASF767
+	.byte	0x10
+	.value	0x247
+	.byte	0x7
+	.long	0x2c6
+	.byte	0x30
+	.byte	0
+	.uleb128 0x5
+	.long	.LASF186
+	.byte	0x38
+	.byte	0x10
+	.value	0x24d
+	.long	0x2ca7
+	.uleb128 0x3
+	.string	"hdr"
+	.byte	0x10
+	.value	0x24e
+	.byte	0x11
+	.long	0x2a8c
+	.byte	0
+	.uleb128 0x2
+	.long	.LASF768
+	.byte	0x10
+	.value	0x24f
+	.byte	0x7
+	.long	0x41e
+	.byte	0x30
+	.byte	0
+	.uleb128 0x5
+	.long	.LASF187
+	.byte	0x38
+	.byte	0x10
+	.value	0x255
+	.long	0x2cd1
+	.uleb128 0x3
+	.string	"hdr"
+	.byte	0x10
+	.value	0x256
+	.byte	0x11
+	.long	0x2a8c
+	.byte	0
+	.uleb128 0x2
+	.long	.LASF769
+	.byte	0x10
+	.value	0x257
+	.byte	0x9
+	.long	0x33b
+	.byte	0x30
+	.byte	0
+	.uleb128 0x5
+	.long	.LASF188
+	.byte	0x38
+	.byte	0x10
+	.value	0x25d
+	.long	0x2cfb
+	.uleb128 0x3
+	.string	"hdr"
+	.byte	0x10
+	.value	0x25e
+	.byte	0x11
+	.long	0x2a8c
+	.byte	0
+	.uleb128 0x2
+	.long	.LASF770
+	.byte	0x10
+	.value	0x25f
+	.byte	0x9
+	.long	0x348
+	.byte	0x30
+	.byte	0
+	.uleb128 0x5
+	.long	.LASF189
+	.byte	0x38
+	.byte	0x10
+	.value	0x262
+	.long	0x2d25
+	.uleb128 0x3
+	.string	"hdr"
+	.byte	0x10
+	.value	0x263
+	.byte	0x11
+	.long	0x2a8c
+	.byte	0
+	.uleb128 0x2
+	.long	.LASF325
+	.byte	0x10
+	.value	0x264
+	.byte	0x7
+	.long	0x2c6
+	.byte	0x30
+	.byte	0
+	.uleb128 0x5
+	.long	.LASF190
+	.byte	0x40
+	.byte	0x10
+	.value	0x267
+	.long	0x2d4f
+	.uleb128 0x3
+	.string	"hdr"
+	.byte	0x10
+	.value	0x268
+	.byte	0x11
+	.long	0x2a8c
+	.byte	0
+	.uleb128 0x2
+	.long	.LASF325
+	.byte	0x10
+	.value	0x269
+	.byte	0x7
+	.long	0x2d4f
+	.byte	0x30
+	.byte	0
+	.uleb128 0x10
+	.long	0x2c6
+	.long	0x2d5f
+	.uleb128 0x11
+	.long	0x4a
+	.byte	0x1
+	.byte	0
+	.uleb128 0x5
+	.long	.LASF191
+	.byte	0x88
+	.byte	0x10
+	.value	0x26c
+	.long	0x2d97
+	.uleb128 0x3
+	.string	"hdr"
+	.byte	0x10
+	.value	0x26d
+	.byte	0x11
+	.long	0x2a8c
+	.byte	0
+	.uleb128 0x2
+	.long	.LASF771
+	.byte	0x10
+	.value	0x26e
+	.byte	0x7
+	.long	0x2c6
+	.byte	0x30
+	.uleb128 0x2
+	.long	.LASF772
+	.byte	0x10
+	.value	0x26f
+	.byte	0x7
+	.long	0x2d97
+	.byte	0x38
+	.byte	0
+	.uleb128 0x10
+	.long	0x2c6
+	.long	0x2da7
+	.uleb128 0x11
+	.long	0x4a
+	.byte	0x9
+	.byte	0
+	.uleb128 0x5
+	.long	.LASF192
+	.byte	0x88
+	.byte	0x10
+	.value	0x274
+	.long	0x2ddf
+	.uleb128 0x3
+	.string	"hdr"
+	.byte	0x10
+	.value	0x275
+	.byte	0x11
+	.long	0x2a8c
+	.byte	0
+	.uleb128 0x2
+	.long	.LASF773
+	.byte	0x10
+	.value	0x276
+	.byte	0x7
+	.long	0x2c6
+	.byte	0x30
+	.uleb128 0x2
+	.long	.LASF772
+	.byte	0x10
+	.value	0x277
+	.byte	0x7
+	.long	0x2ddf
+	.byte	0x38
+	.byte	0
+	.uleb128 0x10
+	.long	0x96b
+	.long	0x2def
+	.uleb128 0x11
+	.long	0x4a
+	.byte	0x9
+	.byte	0
+	.uleb128 0x5
+	.long	.LASF193
+	.byte	0x48
+	.byte	0x10
+	.value	0x27a
+	.long	0x2e35
+	.uleb128 0x3
+	.string	"hdr"
+	.byte	0x10
+	.value	0x27b
+	.byte	0x11
+	.long	0x2a8c
+	.byte	0
+	.uleb128 0x2
+	.long	.LASF774
+	.byte	0x10
+	.value	0x27c
+	.byte	0x7
+	.long	0x2c6
+	.byte	0x30
+	.uleb128 0x3
+	.string	"fmt"
+	.byte	0x10
+	.value	0x27d
+	.byte	0x7
+	.long	0x96b
+	.byte	0x38
+	.uleb128 0x2
+	.long	.LASF775
+	.byte	0x10
+	.value	0x27e
+	.byte	0x7
+	.long	0x96b
+	.byte	0x40
+	.byte	0
+	.uleb128 0x5
+	.long	.LASF194
+	.byte	0x98
+	.byte	0x10
+	.value	0x28d
+	.long	0x2f07
+	.uleb128 0x3
+	.string	"hdr"
+	.byte	0x10
+	.value	0x28e
+	.byte	0x11
+	.long	0x2a8c
+	.byte	0
+	.uleb128 0x2
+	.long	.LASF776
+	.byte	0x10
+	.value	0x28f
+	.byte	0x7
+	.long	0x2c6
+	.byte	0x30
+	.uleb128 0x2
+	.long	.LASF777
+	.byte	0x10
+	.value	0x290
+	.byte	0x7
+	.long	0x2c6
+	.byte	0x38
+	.uleb128 0x2
+	.long	.LASF778
+	.byte	0x10
+	.value	0x291
+	.byte	0x7
+	.long	0x2c6
+	.byte	0x40
+	.uleb128 0x2
+	.long	.LASF773
+	.byte	0x10
+	.value	0x292
+	.byte	0x7
+	.long	0x2c6
+	.byte	0x48
+	.uleb128 0x2
+	.long	.LASF779
+	.byte	0x10
+	.value	0x293
+	.byte	0x7
+	.long	0x2c6
+	.byte	0x50
+	.uleb128 0x2
+	.long	.LASF780
+	.byte	0x10
+	.value	0x295
+	.byte	0x7
+	.long	0x2c6
+	.byte	0x58
+	.uleb128 0x2
+	.long	.LASF781
+	.byte	0x10
+	.value	0x296
+	.byte	0x7
+	.long	0x2c6
+	.byte	0x60
+	.uleb128 0x2
+	.long	.LASF782
+	.byte	0x10
+	.value	0x297
+	.byte	0x7
+	.long	0x2c6
+	.byte	0x68
+	.uleb128 0x2
+	.long	.LASF783
+	.byte	0x10
+	.value	0x29c
+	.byte	0x7
+	.long	0x96b
+	.byte	0x70
+	.uleb128 0x2
+	.long	.LASF784
+	.byte	0x10
+	.value	0x29e
+	.byte	0x7
+	.long	0x96b
+	.byte	0x78
+	.uleb128 0x2
+	.long	.LASF785
+	.byte	0x10
+	.value	0x29f
+	.byte	0x7
+	.long	0x96b
+	.byte	0x80
+	.uleb128 0x2
+	.long	.LASF786
+	.byte	0x10
+	.value	0x2a0
+	.byte	0x7
+	.long	0x96b
+	.byte	0x88
+	.uleb128 0x2
+	.long	.LASF332
+	.byte	0x10
+	.value	0x2a1
+	.byte	0x7
+	.long	0x96b
+	.byte	0x90
+	.byte	0
+	.uleb128 0x5
+	.long	.LASF195
+	.byte	0x40
+	.byte	0x10
+	.value	0x2a6
+	.long	0x2f3f
+	.uleb128 0x3
+	.string	"hdr"
+	.byte	0x10
+	.value	0x2a7
+	.byte	0x11
+	.long	0x2a8c
+	.byte	0
+	.uleb128 0x3
+	.string	"env"
+	.byte	0x10
+	.value	0x2a8
+	.byte	0x7
+	.long	0x96b
+	.byte	0x30
+	.uleb128 0x2
+	.long	.LASF787
+	.byte	0x10
+	.value	0x2a9
+	.byte	0x7
+	.long	0x96b
+	.byte	0x38
+	.byte	0
+	.uleb128 0x5
+	.long	.LASF197
+	.byte	0x60
+	.byte	0x10
+	.value	0x2b4
+	.long	0x2fae
+	.uleb128 0x3
+	.string	"hdr"
+	.byte	0x10
+	.value	0x2b5
+	.byte	0x11
+	.long	0x2a8c
+	.byte	0
+	.uleb128 0x2
+	.long	.LASF168
+	.byte	0x10
+	.value	0x2b6
+	.byte	0x7
+	.long	0x2c6
+	.byte	0x30
+	.uleb128 0x3
+	.string	"id"
+	.byte	0x10
+	.value	0x2b7
+	.byte	0x9
+	.long	0x321
+	.byte	0x38
+	.uleb128 0x2
+	.long	.LASF346
+	.byte	0x10
+	.value	0x2b8
+	.byte	0x7
+	.long	0x2c6
+	.byte	0x40
+	.uleb128 0x2
+	.long	.LASF773
+	.byte	0x10
+	.value	0x2b9
+	.byte	0x7
+	.long	0x2c6
+	.byte	0x48
+	.uleb128 0x3
+	.string	"dir"
+	.byte	0x10
+	.value	0x2ba
+	.byte	0x7
+	.long	0x2c6
+	.byte	0x50
+	.uleb128 0x2
+	.long	.LASF788
+	.byte	0x10
+	.value	0x2bb
+	.byte	0x7
+	.long	0x2c6
+	.byte	0x58
+	.byte	0
+	.uleb128 0x5
+	.long	.LASF196
+	.byte	0x50
+	.byte	0x10
+	.value	0x2c1
+	.long	0x3001
+	.uleb128 0x3
+	.string	"hdr"
+	.byte	0x10
+	.value	0x2c2
+	.byte	0x11
+	.long	0x2a8c
+	.byte	0
+	.uleb128 0x2
+	.long	.LASF168
+	.byte	0x10
+	.value	0x2c3
+	.byte	0x7
+	.long	0x2c6
+	.byte	0x30
+	.uleb128 0x3
+	.string	"id"
+	.byte	0x10
+	.value	0x2c4
+	.byte	0x9
+	.long	0x321
+	.byte	0x38
+	.uleb128 0x2
+	.long	.LASF789
+	.byte	0x10
+	.value	0x2c5
+	.byte	0x7
+	.long	0x2c6
+	.byte	0x40
+	.uleb128 0x2
+	.long	.LASF773
+	.byte	0x10
+	.value	0x2c6
+	.byte	0x7
+	.long	0x2c6
+	.byte	0x48
+	.byte	0
+	.uleb128 0x5
+	.long	.LASF198
+	.byte	0x88
+	.byte	0x10
+	.value	0x2cd
+	.long	0x3039
+	.uleb128 0x3
+	.string	"hdr"
+	.byte	0x10
+	.value	0x2ce
+	.byte	0x11
+	.long	0x2a8c
+	.byte	0
+	.uleb128 0x2
+	.long	.LASF790
+	.byte	0x10
+	.value	0x2cf
+	.byte	0x7
+	.long	0x2c6
+	.byte	0x30
+	.uleb128 0x2
+	.long	.LASF324
+	.byte	0x10
+	.value	0x2d0
+	.byte	0x7
+	.long	0x2ddf
+	.byte	0x38
+	.byte	0
+	.uleb128 0x5
+	.long	.LASF199
+	.byte	0x80
+	.byte	0x10
+	.value	0x2d7
+	.long	0x3063
+	.uleb128 0x3
+	.string	"hdr"
+	.byte	0x10
+	.value	0x2d8
+	.byte	0x11
+	.long	0x2a8c
+	.byte	0
+	.uleb128 0x2
+	.long	.LASF324
+	.byte	0x10
+	.value	0x2d9
+	.byte	0x7
+	.long	0x2d97
+	.byte	0x30
+	.byte	0
+	.uleb128 0x5
+	.long	.LASF200
+	.byte	0x80
+	.byte	0x10
+	.value	0x2de
+	.long	0x308d
+	.uleb128 0x3
+	.string	"hdr"
+	.byte	0x10
+	.value	0x2df
+	.byte	0x11
+	.long	0x2a8c
+	.byte	0
+	.uleb128 0x2
+	.long	.LASF324
+	.byte	0x10
+	.value	0x2e0
+	.byte	0x7
+	.long	0x2d97
+	.byte	0x30
+	.byte	0
+	.uleb128 0x5
+	.long	.LASF201
+	.byte	0x80
+	.byte	0x10
+	.value	0x2e5
+	.long	0x30b7
+	.uleb128 0x3
+	.string	"hdr"
+	.byte	0x10
+	.value	0x2e6
+	.byte	0x11
+	.long	0x2a8c
+	.byte	0
+	.uleb128 0x2
+	.long	.LASF324
+	.byte	0x10
+	.value	0x2e7
+	.byte	0x7
+	.long	0x2ddf
+	.byte	0x30
+	.byte	0
+	.uleb128 0x5
+	.long	.LASF202
+	.byte	0x40
+	.byte	0x10
+	.value	0x2ed
+	.long	0x30ef
+	.uleb128 0x3
+	.string	"hdr"
+	.byte	0x10
+	.value	0x2ee
+	.byte	0x11
+	.long	0x2a8c
+	.byte	0
+	.uleb128 0x3
+	.string	"lhs"
+	.byte	0x10
+	.value	0x2ef
+	.byte	0x7
+	.long	0x96b
+	.byte	0x30
+	.uleb128 0x3
+	.string	"rhs"
+	.byte	0x10
+	.value	0x2f0
+	.byte	0x7
+	.long	0x96b
+	.byte	0x38
+	.byte	0
+	.uleb128 0x5
+	.long	.LASF203
+	.byte	0x80
+	.byte	0x10
+	.value	0x2f3
+	.long	0x3119
+	.uleb128 0x3
+	.string	"hdr"
+	.byte	0x10
+	.value	0x2f4
+	.byte	0x11
+	.long	0x2a8c
+	.byte	0
+	.uleb128 0x2
+	.long	.LASF324
+	.byte	0x10
+	.value	0x2f5
+	.byte	0x7
+	.long	0x2ddf
+	.byte	0x30
+	.byte	0
+	.uleb128 0x5
+	.long	.LASF204
+	.byte	0x38
+	.byte	0x10
+	.value	0x2fa
+	.long	0x3143
+	.uleb128 0x3
+	.string	"hdr"
+	.byte	0x10
+	.value	0x2fb
+	.byte	0x11
+	.long	0x2a8c
+	.byte	0
+	.uleb128 0x2
+	.long	.LASF791
+	.byte	0x10
+	.value	0x2fc
+	.byte	0x7
+	.long	0x2c6
+	.byte	0x30
+	.byte	0
+	.uleb128 0x5
+	.long	.LASF205
+	.byte	0x38
+	.byte	0x10
+	.value	0x303
+	.long	0x316d
+	.uleb128 0x3
+	.string	"hdr"
+	.byte	0x10
+	.value	0x304
+	.byte	0x11
+	.long	0x2a8c
+	.byte	0
+	.uleb128 0x2
+	.long	.LASF791
+	.byte	0x10
+	.value	0x305
+	.byte	0x7
+	.long	0x2c6
+	.byte	0x30
+	.byte	0
+	.uleb128 0x5
+	.long	.LASF206
+	.byte	0x40
+	.byte	0x10
+	.value	0x30b
+	.long	0x31a5
+	.uleb128 0x3
+	.string	"hdr"
+	.byte	0x10
+	.value	0x30c
+	.byte	0x11
+	.long	0x2a8c
+	.byte	0
+	.uleb128 0x2
+	.long	.LASF792
+	.byte	0x10
+	.value	0x30d
+	.byte	0x7
+	.long	0x2c6
+	.byte	0x30
+	.uleb128 0x2
+	.long	.LASF791
+	.byte	0x10
+	.value	0x30e
+	.byte	0x7
+	.long	0x2c6
+	.byte	0x38
+	.byte	0
+	.uleb128 0x5
+	.long	.LASF207
+	.byte	0x38
+	.byte	0x10
+	.value	0x313
+	.long	0x31cf
+	.uleb128 0x3
+	.string	"hdr"
+	.byte	0x10
+	.value	0x314
+	.byte	0x11
+	.long	0x2a8c
+	.byte	0
+	.uleb128 0x2
+	.long	.LASF791
+	.byte	0x10
+	.value	0x315
+	.byte	0x7
+	.long	0x2c6
+	.byte	0x30
+	.byte	0
+	.uleb128 0x5
+	.long	.LASF209
+	.byte	0x38
+	.byte	0x10
+	.value	0x31a
+	.long	0x31f9
+	.uleb128 0x3
+	.string	"hdr"
+	.byte	0x10
+	.value	0x31b
+	.byte	0x11
+	.long	0x2a8c
+	.byte	0
+	.uleb128 0x2
+	.long	.LASF791
+	.byte	0x10
+	.value	0x31c
+	.byte	0x7
+	.long	0x2c6
+	.byte	0x30
+	.byte	0
+	.uleb128 0x5
+	.long	.LASF208
+	.byte	0x38
+	.byte	0x10
+	.value	0x321
+	.long	0x3223
+	.uleb128 0x3
+	.string	"hdr"
+	.byte	0x10
+	.value	0x322
+	.byte	0x11
+	.long	0x2a8c
+	.byte	0
+	.uleb128 0x2
+	.long	.LASF791
+	.byte	0x10
+	.value	0x323
+	.byte	0x7
+	.long	0x2c6
+	.byte	0x30
+	.byte	0
+	.uleb128 0x5
+	.long	.LASF210
+	.byte	0x38
+	.byte	0x10
+	.value	0x328
+	.long	0x324d
+	.uleb128 0x3
+	.string	"hdr"
+	.byte	0x10
+	.value	0x329
+	.byte	0x11
+	.long	0x2a8c
+	.byte	0
+	.uleb128 0x2
+	.long	.LASF792
+	.byte	0x10
+	.value	0x32a
+	.byte	0x7
+	.long	0x2c6
+	.byte	0x30
+	.byte	0
+	.uleb128 0x5
+	.long	.LASF211
+	.byte	0x40
+	.byte	0x10
+	.value	0x32f
+	.long	0x3285
+	.uleb128 0x3
+	.string	"hdr"
+	.byte	0x10
+	.value	0x330
+	.byte	0x11
+	.long	0x2a8c
+	.byte	0
+	.uleb128 0x2
+	.long	.LASF792
+	.byte	0x10
+	.value	0x331
+	.byte	0x7
+	.long	0x2c6
+	.byte	0x30
+	.uleb128 0x3
+	.string	"env"
+	.byte	0x10
+	.value	0x332
+	.byte	0x7
+	.long	0x96b
+	.byte	0x38
+	.byte	0
+	.uleb128 0x5
+	.long	.LASF212
+	.byte	0x40
+	.byte	0x10
+	.value	0x337
+	.long	0x32bd
+	.uleb128 0x3
+	.string	"hdr"
+	.byte	0x10
+	.value	0x338
+	.byte	0x11
+	.long	0x2a8c
+	.byte	0
+	.uleb128 0x3
+	.string	"idx"
+	.byte	0x10
+	.value	0x339
+	.byte	0x7
+	.long	0x2c6
+	.byte	0x30
+	.uleb128 0x2
+	.long	.LASF787
+	.byte	0x10
+	.value	0x33a
+	.byte	0x7
+	.long	0x96b
+	.byte	0x38
+	.byte	0
+	.uleb128 0x5
+	.long	.LASF213
+	.byte	0x38
+	.byte	0x10
+	.value	0x33f
+	.long	0x32e7
+	.uleb128 0x3
+	.string	"hdr"
+	.byte	0x10
+	.value	0x340
+	.byte	0x11
+	.long	0x2a8c
+	.byte	0
+	.uleb128 0x2
+	.long	.LASF329
+	.byte	0x10
+	.value	0x341
+	.byte	0x7
+	.long	0x2c6
+	.byte	0x30
+	.byte	0
+	.uleb128 0x5
+	.long	.LASF214
+	.byte	0x38
+	.byte	0x10
+	.value	0x346
+	.long	0x3311
+	.uleb128 0x3
+	.string	"hdr"
+	.byte	0x10
+	.value	0x347
+	.byte	0x11
+	.long	0x2a8c
+	.byte	0
+	.uleb128 0x3
+	.string	"val"
+	.byte	0x10
+	.value	0x348
+	.byte	0x7
+	.long	0x96b
+	.byte	0x30
+	.byte	0
+	.uleb128 0x5
+	.long	.LASF215
+	.byte	0x38
+	.byte	0x10
+	.value	0x34d
+	.long	0x333b
+	.uleb128 0x3
+	.string	"hdr"
+	.byte	0x10
+	.value	0x34e
+	.byte	0x11
+	.long	0x2a8c
+	.byte	0
+	.uleb128 0x2
+	.long	.LASF787
+	.byte	0x10
+	.value	0x34f
+	.byte	0x7
+	.long	0x96b
+	.byte	0x30
+	.byte	0
+	.uleb128 0x5
+	.long	.LASF216
+	.byte	0x38
+	.byte	0x10
+	.value	0x354
+	.long	0x3365
+	.uleb128 0x3
+	.string	"hdr"
+	.byte	0x10
+	.value	0x355
+	.byte	0x11
+	.long	0x2a8c
+	.byte	0
+	.uleb128 0x3
+	.string	"env"
+	.byte	0x10
+	.value	0x356
+	.byte	0x7
+	.long	0x96b
+	.byte	0x30
+	.byte	0
+	.uleb128 0x5
+	.long	.LASF217
+	.byte	0x38
+	.byte	0x10
+	.value	0x35b
+	.long	0x338f
+	.uleb128 0x3
+	.string	"hdr"
+	.byte	0x10
+	.value	0x35c
+	.byte	0x11
+	.long	0x2a8c
+	.byte	0
+	.uleb128 0x3
+	.string	"loc"
+	.byte	0x10
+	.value	0x35d
+	.byte	0x7
+	.long	0x96b
+	.byte	0x30
+	.byte	0
+	.uleb128 0x5
+	.long	.LASF218
+	.byte	0x38
+	.byte	0x10
+	.value	0x362
+	.long	0x33b9
+	.uleb128 0x3
+	.string	"hdr"
+	.byte	0x10
+	.value	0x363
+	.byte	0x11
+	.long	0x2a8c
+	.byte	0
+	.uleb128 0x3
+	.string	"env"
+	.byte	0x10
+	.value	0x364
+	.byte	0x7
+	.long	0x96b
+	.byte	0x30
+	.byte	0
+	.uleb128 0x5
+	.long	.LASF219
+	.byte	0x38
+	.byte	0x10
+	.value	0x369
+	.long	0x33e3
+	.uleb128 0x3
+	.string	"hdr"
+	.byte	0x10
+	.value	0x36a
+	.byte	0x11
+	.long	0x2a8c
+	.byte	0
+	.uleb128 0x3
+	.string	"env"
+	.byte	0x10
+	.value	0x36b
+	.byte	0x7
+	.long	0x96b
+	.byte	0x30
+	.byte	0
+	.uleb128 0x5
+	.long	.LASF220
+	.byte	0x48
+	.byte	0x10
+	.value	0x370
+	.long	0x3429
+	.uleb128 0x3
+	.string	"hdr"
+	.byte	0x10
+	.value	0x371
+	.byte	0x11
+	.long	0x2a8c
+	.byte	0
+	.uleb128 0x2
+	.long	.LASF771
+	.byte	0x10
+	.value	0x372
+	.byte	0x7
+	.long	0x2c6
+	.byte	0x30
+	.uleb128 0x2
+	.long	.LASF791
+	.byte	0x10
+	.value	0x373
+	.byte	0x7
+	.long	0x96b
+	.byte	0x38
+	.uleb128 0x2
+	.long	.LASF331
+	.byte	0x10
+	.value	0x374
+	.byte	0x7
+	.long	0x96b
+	.byte	0x40
+	.byte	0
+	.uleb128 0x5
+	.long	.LASF235
+	.byte	0x40
+	.byte	0x10
+	.value	0x379
+	.long	0x3461
+	.uleb128 0x3
+	.string	"hdr"
+	.byte	0x10
+	.value	0x37a
+	.byte	0x11
+	.long	0x2a8c
+	.byte	0
+	.uleb128 0x2
+	.long	.LASF322
+	.byte	0x10
+	.value	0x37b
+	.byte	0x7
+	.long	0x2c6
+	.byte	0x30
+	.uleb128 0x3
+	.string	"fmt"
+	.byte	0x10
+	.value	0x37c
+	.byte	0x7
+	.long	0x96b
+	.byte	0x38
+	.byte	0
+	.uleb128 0x5
+	.long	.LASF222
+	.byte	0x48
+	.byte	0x10
+	.value	0x382
+	.long	0x34a7
+	.uleb128 0x3
+	.string	"hdr"
+	.byte	0x10
+	.value	0x383
+	.byte	0x11
+	.long	0x2a8c
+	.byte	0
+	.uleb128 0x2
+	.long	.LASF793
+	.byte	0x10
+	.value	0x384
+	.byte	0x7
+	.long	0x2c6
+	.byte	0x30
+	.uleb128 0x3
+	.string	"fmt"
+	.byte	0x10
+	.value	0x385
+	.byte	0x7
+	.long	0x96b
+	.byte	0x38
+	.uleb128 0x2
+	.long	.LASF325
+	.byte	0x10
+	.value	0x386
+	.byte	0x7
+	.long	0x96b
+	.byte	0x40
+	.byte	0
+	.uleb128 0x5
+	.long	.LASF247
+	.byte	0x38
+	.byte	0x10
+	.value	0x38c
+	.long	0x34d1
+	.uleb128 0x3
+	.string	"hdr"
+	.byte	0x10
+	.value	0x38d
+	.byte	0x11
+	.long	0x2a8c
+	.byte	0
+	.uleb128 0x3
+	.string	"fmt"
+	.byte	0x10
+	.value	0x38e
+	.byte	0x7
+	.long	0x96b
+	.byte	0x30
+	.byte	0
+	.uleb128 0x5
+	.long	.LASF221
+	.byte	0x48
+	.byte	0x10
+	.value	0x394
+	.long	0x3517
+	.uleb128 0x3
+	.string	"hdr"
+	.byte	0x10
+	.value	0x395
+	.byte	0x11
+	.long	0x2a8c
+	.byte	0
+	.uleb128 0x2
+	.long	.LASF773
+	.byte	0x10
+	.value	0x396
+	.byte	0x7
+	.long	0x2c6
+	.byte	0x30
+	.uleb128 0x2
+	.long	.LASF331
+	.byte	0x10
+	.value	0x397
+	.byte	0x7
+	.long	0x96b
+	.byte	0x38
+	.uleb128 0x2
+	.long	.LASF793
+	.byte	0x10
+	.value	0x398
+	.byte	0x7
+	.long	0x2c6
+	.byte	0x40
+	.byte	0
+	.uleb128 0x5
+	.long	.LASF223
+	.byte	0x48
+	.byte	0x10
+	.value	0x39d
+	.long	0x355d
+	.uleb128 0x3
+	.string	"hdr"
+	.byte	0x10
+	.value	0x39e
+	.byte	0x11
+	.long	0x2a8c
+	.byte	0
+	.uleb128 0x2
+	.long	.LASF773
+	.byte	0x10
+	.value	0x39f
+	.byte	0x7
+	.long	0x2c6
+	.byte	0x30
+	.uleb128 0x2
+	.long	.LASF331
+	.byte	0x10
+	.value	0x3a0
+	.byte	0x7
+	.long	0x96b
+	.byte	0x38
+	.uleb128 0x2
+	.long	.LASF793
+	.byte	0x10
+	.value	0x3a1
+	.byte	0x7
+	.long	0x2c6
+	.byte	0x40
+	.byte	0
+	.uleb128 0x5
+	.long	.LASF224
+	.byte	0x50
+	.byte	0x10
+	.value	0x3a6
+	.long	0x35b1
+	.uleb128 0x3
+	.string	"hdr"
+	.byte	0x10
+	.value	0x3a7
+	.byte	0x11
+	.long	0x2a8c
+	.byte	0
+	.uleb128 0x2
+	.long	.LASF773
+	.byte	0x10
+	.value	0x3a8
+	.byte	0x7
+	.long	0x2c6
+	.byte	0x30
+	.uleb128 0x2
+	.long	.LASF331
+	.byte	0x10
+	.value	0x3a9
+	.byte	0x7
+	.long	0x96b
+	.byte	0x38
+	.uleb128 0x2
+	.long	.LASF791
+	.byte	0x10
+	.value	0x3aa
+	.byte	0x7
+	.long	0x96b
+	.byte	0x40
+	.uleb128 0x2
+	.long	.LASF793
+	.byte	0x10
+	.value	0x3ab
+	.byte	0x7
+	.long	0x2c6
+	.byte	0x48
+	.byte	0
+	.uleb128 0x5
+	.long	.LASF225
+	.byte	0x50
+	.byte	0x10
+	.value	0x3b0
+	.long	0x3605
+	.uleb128 0x3
+	.string	"hdr"
+	.byte	0x10
+	.value	0x3b1
+	.byte	0x11
+	.long	0x2a8c
+	.byte	0
+	.uleb128 0x3
+	.string	"env"
+	.byte	0x10
+	.value	0x3b2
+	.byte	0x7
+	.long	0x2c6
+	.byte	0x30
+	.uleb128 0x3
+	.string	"ref"
+	.byte	0x10
+	.value	0x3b3
+	.byte	0x7
+	.long	0x96b
+	.byte	0x38
+	.uleb128 0x2
+	.long	.LASF792
+	.byte	0x10
+	.value	0x3b4
+	.byte	0x7
+	.long	0x2c6
+	.byte	0x40
+	.uleb128 0x3
+	.string	"lex"
+	.byte	0x10
+	.value	0x3b5
+	.byte	0x7
+	.long	0x2c6
+	.byte	0x48
+	.byte	0
+	.uleb128 0x5
+	.long	.LASF226
+	.byte	0x38
+	.byte	0x10
+	.value	0x3bb
+	.long	0x362f
+	.uleb128 0x3
+	.string	"hdr"
+	.byte	0x10
+	.value	0x3bc
+	.byte	0x11
+	.long	0x2a8c
+	.byte	0
+	.uleb128 0x2
+	.long	.LASF794
+	.byte	0x10
+	.value	0x3bd
+	.byte	0x7
+	.long	0x2c6
+	.byte	0x30
+	.byte	0
+	.uleb128 0x5
+	.long	.LASF227
+	.byte	0x38
+	.byte	0x10
+	.value	0x3c3
+	.long	0x3659
+	.uleb128 0x3
+	.string	"hdr"
+	.byte	0x10
+	.value	0x3c4
+	.byte	0x11
+	.long	0x2a8c
+	.byte	0
+	.uleb128 0x3
+	.string	"str"
+	.byte	0x10
+	.value	0x3c5
+	.byte	0x9
+	.long	0x321
+	.byte	0x30
+	.byte	0
+	.uleb128 0x5
+	.long	.LASF228
+	.byte	0x30
+	.byte	0x10
+	.value	0x3cb
+	.long	0x3675
+	.uleb128 0x3
+	.string	"hdr"
+	.byte	0x10
+	.value	0x3cc
+	.byte	0x11
+	.long	0x2a8c
+	.byte	0
+	.byte	0
+	.uleb128 0x5
+	.long	.LASF229
+	.byte	0x40
+	.byte	0x10
+	.value	0x3d1
+	.long	0x36ad
+	.uleb128 0x3
+	.string	"hdr"
+	.byte	0x10
+	.value	0x3d2
+	.byte	0x11
+	.long	0x2a8c
+	.byte	0
+	.uleb128 0x3
+	.string	"lhs"
+	.byte	0x10
+	.value	0x3d3
+	.byte	0x7
+	.long	0x96b
+	.byte	0x30
+	.uleb128 0x3
+	.string	"rhs"
+	.byte	0x10
+	.value	0x3d4
+	.byte	0x7
+	.long	0x96b
+	.byte	0x38
+	.byte	0
+	.uleb128 0x5
+	.long	.LASF230
+	.byte	0x40
+	.byte	0x10
+	.value	0x3d9
+	.long	0x36e5
+	.uleb128 0x3
+	.string	"hdr"
+	.byte	0x10
+	.value	0x3da
+	.byte	0x11
+	.long	0x2a8c
+	.byte	0
+	.uleb128 0x2
+	.long	.LASF328
+	.byte	0x10
+	.value	0x3db
+	.byte	0x7
+	.long	0x96b
+	.byte	0x30
+	.uleb128 0x2
+	.long	.LASF329
+	.byte	0x10
+	.value	0x3dc
+	.byte	0x7
+	.long	0x2c6
+	.byte	0x38
+	.byte	0
+	.uleb128 0x5
+	.long	.LASF231
+	.byte	0x80
+	.byte	0x10
+	.value	0x3e1
+	.long	0x370f
+	.uleb128 0x3
+	.string	"hdr"
+	.byte	0x10
+	.value	0x3e2
+	.byte	0x11
+	.long	0x2a8c
+	.byte	0
+	.uleb128 0x2
+	.long	.LASF324
+	.byte	0x10
+	.value	0x3e3
+	.byte	0x7
+	.long	0x2ddf
+	.byte	0x30
+	.byte	0
+	.uleb128 0x5
+	.long	.LASF233
+	.byte	0x40
+	.byte	0x10
+	.value	0x3e8
+	.long	0x3747
+	.uleb128 0x3
+	.string	"hdr"
+	.byte	0x10
+	.value	0x3e9
+	.byte	0x11
+	.long	0x2a8c
+	.byte	0
+	.uleb128 0x2
+	.long	.LASF795
+	.byte	0x10
+	.value	0x3ea
+	.byte	0x7
+	.long	0x2c6
+	.byte	0x30
+	.uleb128 0x2
+	.long	.LASF780
+	.byte	0x10
+	.value	0x3eb
+	.byte	0x7
+	.long	0x96b
+	.byte	0x38
+	.byte	0
+	.uleb128 0x5
+	.long	.LASF234
+	.byte	0x38
+	.byte	0x10
+	.value	0x3f0
+	.long	0x3771
+	.uleb128 0x3
+	.string	"hdr"
+	.byte	0x10
+	.value	0x3f1
+	.byte	0x11
+	.long	0x2a8c
+	.byte	0
+	.uleb128 0x2
+	.long	.LASF773
+	.byte	0x10
+	.value	0x3f2
+	.byte	0x7
+	.long	0x2c6
+	.byte	0x30
+	.byte	0
+	.uleb128 0x5
+	.long	.LASF236
+	.byte	0x40
+	.byte	0x10
+	.value	0x3f7
+	.long	0x37a9
+	.uleb128 0x3
+	.string	"hdr"
+	.byte	0x10
+	.value	0x3f8
+	.byte	0x11
+	.long	0x2a8c
+	.byte	0
+	.uleb128 0x2
+	.long	.LASF773
+	.byte	0x10
+	.value	0x3f9
+	.byte	0x7
+	.long	0x2c6
+	.byte	0x30
+	.uleb128 0x2
+	.long	.LASF780
+	.byte	0x10
+	.value	0x3fa
+	.byte	0x7
+	.long	0x96b
+	.byte	0x38
+	.byte	0
+	.uleb128 0x5
+	.long	.LASF237
+	.byte	0x40
+	.byte	0x10
+	.value	0x3ff
+	.long	0x37e1
+	.uleb128 0x3
+	.string	"hdr"
+	.byte	0x10
+	.value	0x400
+	.byte	0x11
+	.long	0x2a8c
+	.byte	0
+	.uleb128 0x2
+	.long	.LASF168
+	.byte	0x10
+	.value	0x401
+	.byte	0x7
+	.long	0x2c6
+	.byte	0x30
+	.uleb128 0x2
+	.long	.LASF331
+	.byte	0x10
+	.value	0x402
+	.byte	0x7
+	.long	0x96b
+	.byte	0x38
+	.byte	0
+	.uleb128 0x5
+	.long	.LASF238
+	.byte	0x98
+	.byte	0x10
+	.value	0x408
+	.long	0x3834
+	.uleb128 0x3
+	.string	"hdr"
+	.byte	0x10
+	.value	0x409
+	.byte	0x11
+	.long	0x2a8c
+	.byte	0
+	.uleb128 0x2
+	.long	.LASF788
+	.byte	0x10
+	.value	0x40a
+	.byte	0x7
+	.long	0x2c6
+	.byte	0x30
+	.uleb128 0x2
+	.long	.LASF168
+	.byte	0x10
+	.value	0x40b
+	.byte	0x7
+	.long	0x2c6
+	.byte	0x38
+	.uleb128 0x3
+	.string	"op"
+	.byte	0x10
+	.value	0x40c
+	.byte	0x7
+	.long	0x96b
+	.byte	0x40
+	.uleb128 0x2
+	.long	.LASF324
+	.byte	0x10
+	.value	0x40d
+	.byte	0x7
+	.long	0x2ddf
+	.byte	0x48
+	.byte	0
+	.uleb128 0x5
+	.long	.LASF239
+	.byte	0x88
+	.byte	0x10
+	.value	0x418
+	.long	0x386b
+	.uleb128 0x3
+	.string	"hdr"
+	.byte	0x10
+	.value	0x419
+	.byte	0x11
+	.long	0x2a8c
+	.byte	0
+	.uleb128 0x3
+	.string	"op"
+	.byte	0x10
+	.value	0x41a
+	.byte	0x7
+	.long	0x2c6
+	.byte	0x30
+	.uleb128 0x2
+	.long	.LASF324
+	.byte	0x10
+	.value	0x41b
+	.byte	0x7
+	.long	0x2ddf
+	.byte	0x38
+	.byte	0
+	.uleb128 0x5
+	.long	.LASF240
+	.byte	0x90
+	.byte	0x10
+	.value	0x421
+	.long	0x38b0
+	.uleb128 0x3
+	.string	"hdr"
+	.byte	0x10
+	.value	0x422
+	.byte	0x11
+	.long	0x2a8c
+	.byte	0
+	.uleb128 0x2
+	.long	.LASF168
+	.byte	0x10
+	.value	0x423
+	.byte	0x7
+	.long	0x2c6
+	.byte	0x30
+	.uleb128 0x3
+	.string	"op"
+	.byte	0x10
+	.value	0x424
+	.byte	0x7
+	.long	0x96b
+	.byte	0x38
+	.uleb128 0x2
+	.long	.LASF324
+	.byte	0x10
+	.value	0x425
+	.byte	0x7
+	.long	0x2ddf
+	.byte	0x40
+	.byte	0
+	.uleb128 0x5
+	.long	.LASF241
+	.byte	0x98
+	.byte	0x10
+	.value	0x42d
+	.long	0x3903
+	.uleb128 0x3
+	.string	"hdr"
+	.byte	0x10
+	.value	0x42e
+	.byte	0x11
+	.long	0x2a8c
+	.byte	0
+	.uleb128 0x2
+	.long	.LASF168
+	.byte	0x10
+	.value	0x42f
+	.byte	0x7
+	.long	0x2c6
+	.byte	0x30
+	.uleb128 0x3
+	.string	"op"
+	.byte	0x10
+	.value	0x430
+	.byte	0x7
+	.long	0x96b
+	.byte	0x38
+	.uleb128 0x3
+	.string	"env"
+	.byte	0x10
+	.value	0x431
+	.byte	0x7
+	.long	0x96b
+	.byte	0x40
+	.uleb128 0x2
+	.long	.LASF324
+	.byte	0x10
+	.value	0x432
+	.byte	0x7
+	.long	0x2ddf
+	.byte	0x48
+	.byte	0
+	.uleb128 0x5
+	.long	.LASF242
+	.byte	0x50
+	.byte	0x10
+	.value	0x438
+	.long	0x3957
+	.uleb128 0x3
+	.string	"hdr"
+	.byte	0x10
+	.value	0x439
+	.byte	0x11
+	.long	0x2a8c
+	.byte	0
+	.uleb128 0x2
+	.long	.LASF796
+	.byte	0x10
+	.value	0x43a
+	.byte	0x7
+	.long	0x96b
+	.byte	0x30
+	.uleb128 0x3
+	.string	"fmt"
+	.byte	0x10
+	.value	0x43b
+	.byte	0x7
+	.long	0x2c6
+	.byte	0x38
+	.uleb128 0x2
+	.long	.LASF797
+	.byte	0x10
+	.value	0x43c
+	.byte	0x7
+	.long	0x2c6
+	.byte	0x40
+	.uleb128 0x2
+	.long	.LASF798
+	.byte	0x10
+	.value	0x43d
+	.byte	0x7
+	.long	0x96b
+	.byte	0x48
+	.byte	0
+	.uleb128 0x5
+	.long	.LASF243
+	.byte	0x58
+	.byte	0x10
+	.value	0x443
+	.long	0x39b9
+	.uleb128 0x3
+	.string	"hdr"
+	.byte	0x10
+	.value	0x444
+	.byte	0x11
+	.long	0x2a8c
+	.byte	0
+	.uleb128 0x2
+	.long	.LASF787
+	.byte	0x10
+	.value	0x445
+	.byte	0x7
+	.long	0x96b
+	.byte	0x30
+	.uleb128 0x3
+	.string	"env"
+	.byte	0x10
+	.value	0x446
+	.byte	0x7
+	.long	0x96b
+	.byte	0x38
+	.uleb128 0x3
+	.string	"fmt"
+	.byte	0x10
+	.value	0x447
+	.byte	0x7
+	.long	0x2c6
+	.byte	0x40
+	.uleb128 0x2
+	.long	.LASF797
+	.byte	0x10
+	.value	0x448
+	.byte	0x7
+	.long	0x2c6
+	.byte	0x48
+	.uleb128 0x2
+	.long	.LASF798
+	.byte	0x10
+	.value	0x449
+	.byte	0x7
+	.long	0x96b
+	.byte	0x50
+	.byte	0
+	.uleb128 0x5
+	.long	.LASF232
+	.byte	0x88
+	.byte	0x10
+	.value	0x44f
+	.long	0x39f0
+	.uleb128 0x3
+	.string	"hdr"
+	.byte	0x10
+	.value	0x450
+	.byte	0x11
+	.long	0x2a8c
+	.byte	0
+	.uleb128 0x3
+	.string	"op"
+	.byte	0x10
+	.value	0x451
+	.byte	0x7
+	.long	0x96b
+	.byte	0x30
+	.uleb128 0x2
+	.long	.LASF324
+	.byte	0x10
+	.value	0x452
+	.byte	0x7
+	.long	0x2d97
+	.byte	0x38
+	.byte	0
+	.uleb128 0x5
+	.long	.LASF249
+	.byte	0x40
+	.byte	0x10
+	.value	0x457
+	.long	0x3a28
+	.uleb128 0x3
+	.string	"hdr"
+	.byte	0x10
+	.value	0x458
+	.byte	0x11
+	.long	0x2a8c
+	.byte	0
+	.uleb128 0x2
+	.long	.LASF285
+	.byte	0x10
+	.value	0x459
+	.byte	0x7
+	.long	0x96b
+	.byte	0x30
+	.uleb128 0x2
+	.long	.LASF799
+	.byte	0x10
+	.value	0x45a
+	.byte	0x7
+	.long	0x96b
+	.byte	0x38
+	.byte	0
+	.uleb128 0x5
+	.long	.LASF244
+	.byte	0x40
+	.byte	0x10
+	.value	0x461
+	.long	0x3a60
+	.uleb128 0x3
+	.string	"hdr"
+	.byte	0x10
+	.value	0x462
+	.byte	0x11
+	.long	0x2a8c
+	.byte	0
+	.uleb128 0x2
+	.long	.LASF773
+	.byte	0x10
+	.value	0x463
+	.byte	0x7
+	.long	0x2c6
+	.byte	0x30
+	.uleb128 0x2
+	.long	.LASF800
+	.byte	0x10
+	.value	0x464
+	.byte	0x7
+	.long	0x96b
+	.byte	0x38
+	.byte	0
+	.uleb128 0x5
+	.long	.LASF245
+	.byte	0x30
+	.byte	0x10
+	.value	0x469
+	.long	0x3a7c
+	.uleb128 0x3
+	.string	"hdr"
+	.byte	0x10
+	.value	0x46a
+	.byte	0x11
+	.long	0x2a8c
+	.byte	0
+	.byte	0
+	.uleb128 0x5
+	.long	.LASF246
+	.byte	0x40
+	.byte	0x10
+	.value	0x46f
+	.long	0x3ab4
+	.uleb128 0x3
+	.string	"hdr"
+	.byte	0x10
+	.value	0x470
+	.byte	0x11
+	.long	0x2a8c
+	.byte	0
+	.uleb128 0x2
+	.long	.LASF773
+	.byte	0x10
+	.value	0x471
+	.byte	0x7
+	.long	0x2c6
+	.byte	0x30
+	.uleb128 0x2
+	.long	.LASF335
+	.byte	0x10
+	.value	0x472
+	.byte	0x7
+	.long	0x96b
+	.byte	0x38
+	.byte	0
+	.uleb128 0x5
+	.long	.LASF248
+	.byte	0x80
+	.byte	0x10
+	.value	0x476
+	.long	0x3ade
+	.uleb128 0x3
+	.string	"hdr"
+	.byte	0x10
+	.value	0x477
+	.byte	0x11
+	.long	0x2a8c
+	.byte	0
+	.uleb128 0x2
+	.long	.LASF324
+	.byte	0x10
+	.value	0x478
+	.byte	0x7
+	.long	0x2ddf
+	.byte	0x30
+	.byte	0
+	.uleb128 0x5
+	.long	.LASF250
+	.byte	0x38
+	.byte	0x10
+	.value	0x47b
+	.long	0x3b08
+	.uleb128 0x3
+	.string	"hdr"
+	.byte	0x10
+	.value	0x47c
+	.byte	0x11
+	.long	0x2a8c
+	.byte	0
+	.uleb128 0x2
+	.long	.LASF801
+	.byte	0x10
+	.value	0x47d
+	.byte	0x7
+	.long	0x96b
+	.byte	0x30
+	.byte	0
+	.uleb128 0x5
+	.long	.LASF251
+	.byte	0x38
+	.byte	0x10
+	.value	0x482
+	.long	0x3b32
+	.uleb128 0x3
+	.string	"hdr"
+	.byte	0x10
+	.value	0x483
+	.byte	0x11
+	.long	0x2a8c
+	.byte	0
+	.uleb128 0x2
+	.long	.LASF801
+	.byte	0x10
+	.value	0x484
+	.byte	0x7
+	.long	0x96b
+	.byte	0x30
+	.byte	0
+	.uleb128 0x5
+	.long	.LASF252
+	.byte	0x38
+	.byte	0x10
+	.value	0x489
+	.long	0x3b5c
+	.uleb128 0x3
+	.string	"hdr"
+	.byte	0x10
+	.value	0x48a
+	.byte	0x11
+	.long	0x2a8c
+	.byte	0
+	.uleb128 0x2
+	.long	.LASF329
+	.byte	0x10
+	.value	0x48b
+	.byte	0x7
+	.long	0x2c6
+	.byte	0x30
+	.byte	0
+	.uleb128 0x5
+	.long	.LASF253
+	.byte	0x40
+	.byte	0x10
+	.value	0x490
+	.long	0x3b94
+	.uleb128 0x3
+	.string	"hdr"
+	.byte	0x10
+	.value	0x491
+	.byte	0x11
+	.long	0x2a8c
+	.byte	0
+	.uleb128 0x3
+	.string	"tag"
+	.byte	0x10
+	.value	0x492
+	.byte	0x7
+	.long	0x96b
+	.byte	0x30
+	.uleb128 0x3
+	.string	"val"
+	.byte	0x10
+	.value	0x493
+	.byte	0x7
+	.long	0x96b
+	.byte	0x38
+	.byte	0
+	.uleb128 0x5
+	.long	.LASF254
+	.byte	0x40
+	.byte	0x10
+	.value	0x498
+	.long	0x3bcc
+	.uleb128 0x3
+	.string	"hdr"
+	.byte	0x10
+	.value	0x499
+	.byte	0x11
+	.long	0x2a8c
+	.byte	0
+	.uleb128 0x3
+	.string	"ref"
+	.byte	0x10
+	.value	0x49a
+	.byte	0x7
+	.long	0x96b
+	.byte	0x30
+	.uleb128 0x2
+	.long	.LASF331
+	.byte	0x10
+	.value	0x49b
+	.byte	0x7
+	.long	0x96b
+	.byte	0x38
+	.byte	0
+	.uleb128 0x5
+	.long	.LASF255
+	.byte	0x48
+	.byte	0x10
+	.value	0x4a0
+	.long	0x3c12
+	.uleb128 0x3
+	.string	"hdr"
+	.byte	0x10
+	.value	0x4a1
+	.byte	0x11
+	.long	0x2a8c
+	.byte	0
+	.uleb128 0x3
+	.string	"val"
+	.byte	0x10
+	.value	0x4a2
+	.byte	0x7
+	.long	0x96b
+	.byte	0x30
+	.uleb128 0x2
+	.long	.LASF331
+	.byte	0x10
+	.value	0x4a3
+	.byte	0x7
+	.long	0x96b
+	.byte	0x38
+	.uleb128 0x2
+	.long	.LASF802
+	.byte	0x10
+	.value	0x4a4
+	.byte	0x7
+	.long	0x96b
+	.byte	0x40
+	.byte	0
+	.uleb128 0x5
+	.long	.LASF256
+	.byte	0x38
+	.byte	0x10
+	.value	0x4a9
+	.long	0x3c3c
+	.uleb128 0x3
+	.string	"hdr"
+	.byte	0x10
+	.value	0x4aa
+	.byte	0x11
+	.long	0x2a8c
+	.byte	0
+	.uleb128 0x2
+	.long	.LASF335
+	.byte	0x10
+	.value	0x4ab
+	.byte	0x7
+	.long	0x96b
+	.byte	0x30
+	.byte	0
+	.uleb128 0x9
+	.long	.LASF803
+	.byte	0xb
+	.byte	0xe
+	.byte	0x14
+	.long	0x2e0
+	.uleb128 0x10
+	.long	0x3c3c
+	.long	0x3c58
+	.uleb128 0x11
+	.long	0x4a
+	.byte	0x9
+	.byte	0
+	.uleb128 0xf
+	.long	.LASF804
+	.byte	0x18
+	.byte	0x11
+	.byte	0x33
+	.byte	0x8
+	.long	0x3c8d
+	.uleb128 0x6
+	.long	.LASF257
+	.byte	0x11
+	.byte	0x34
+	.byte	0x8
+	.long	0x29f
+	.byte	0
+	.uleb128 0x6
+	.long	.LASF264
+	.byte	0x11
+	.byte	0x35
+	.byte	0x9
+	.long	0x314
+	.byte	0x8
+	.uleb128 0x6
+	.long	.LASF805
+	.byte	0x11
+	.byte	0x36
+	.byte	0x9
+	.long	0x314
+	.byte	0x10
+	.byte	0
+	.uleb128 0x2b
+	.long	.LASF806
+	.value	0x228
+	.byte	0x11
+	.byte	0x53
+	.byte	0x8
+	.long	0x3ceb
+	.uleb128 0x6
+	.long	.LASF807
+	.byte	0x11
+	.byte	0x54
+	.byte	0x9
+	.long	0x2ac
+	.byte	0
+	.uleb128 0x6
+	.long	.LASF808
+	.byte	0x11
+	.byte	0x55
+	.byte	0x8
+	.long	0x2b9
+	.byte	0x8
+	.uleb128 0x6
+	.long	.LASF809
+	.byte	0x11
+	.byte	0x56
+	.byte	0x8
+	.long	0x2b9
+	.byte	0x10
+	.uleb128 0x6
+	.long	.LASF810
+	.byte	0x11
+	.byte	0x57
+	.byte	0x9
+	.long	0x2ac
+	.byte	0x18
+	.uleb128 0x6
+	.long	.LASF811
+	.byte	0x11
+	.byte	0x59
+	.byte	0x11
+	.long	0x3ceb
+	.byte	0x20
+	.uleb128 0x2c
+	.long	.LASF812
+	.byte	0x11
+	.byte	0x5a
+	.byte	0x9
+	.long	0x3cfb
+	.value	0x200
+	.byte	0
+	.uleb128 0x10
+	.long	0x3c58
+	.long	0x3cfb
+	.uleb128 0x11
+	.long	0x4a
+	.byte	0x13
+	.byte	0
+	.uleb128 0x10
+	.long	0x2ac
+	.long	0x3d0b
+	.uleb128 0x11
+	.long	0x4a
+	.byte	0x13
+	.byte	0
+	.uleb128 0x7
+	.long	0x2b9
+	.uleb128 0x7
+	.long	0x2ac
+	.uleb128 0xd
+	.long	.LASF813
+	.value	0x607
+	.byte	0xc
+	.long	0x2e
+	.long	0x3d30
+	.uleb128 0x8
+	.long	0x362
+	.uleb128 0x8
+	.long	0x96b
+	.byte	0
+	.uleb128 0x2d
+	.long	.LASF862
+	.byte	0x7
+	.byte	0x12
+	.byte	0xf
+	.long	0x362
+	.uleb128 0xd
+	.long	.LASF814
+	.value	0x609
+	.byte	0xd
+	.long	0x2ed
+	.long	0x3d57
+	.uleb128 0x8
+	.long	0x362
+	.uleb128 0x8
+	.long	0x96b
+	.byte	0
+	.uleb128 0xd
+	.long	.LASF815
+	.value	0x249
+	.byte	0xd
+	.long	0x96b
+	.long	0x3d6d
+	.uleb128 0x8
+	.long	0x96b
+	.byte	0
+	.uleb128 0x19
+	.long	.LASF816
+	.byte	0x12
+	.byte	0x76
+	.byte	0xc
+	.long	0x2e
+	.long	0x3d88
+	.uleb128 0x8
+	.long	0x2e
+	.uleb128 0x8
+	.long	0x2e
+	.byte	0
+	.uleb128 0x19
+	.long	.LASF817
+	.byte	0x13
+	.byte	0x3d
+	.byte	0xd
+	.long	0x2fa
+	.long	0x3d9e
+	.uleb128 0x8
+	.long	0x321
+	.byte	0
+	.uleb128 0xd
+	.long	.LASF818
+	.value	0x644
+	.byte	0xc
+	.long	0x2e
+	.long	0x3db9
+	.uleb128 0x8
+	.long	0x96b
+	.uleb128 0x8
+	.long	0x2e
+	.byte	0
+	.uleb128 0xd
+	.long	.LASF819
+	.value	0x3df
+	.byte	0xd
+	.long	0x96b
+	.long	0x3dd0
+	.uleb128 0x8
+	.long	0x96b
+	.uleb128 0x15
+	.byte	0
+	.uleb128 0x17
+	.long	.LASF821
+	.byte	0xd
+	.long	0x3de5
+	.uleb128 0x8
+	.long	0x321
+	.uleb128 0x8
+	.long	0x2ed
+	.byte	0
+	.uleb128 0xd
+	.long	.LASF820
+	.value	0x640
+	.byte	0xd
+	.long	0x2ed
+	.long	0x3dfb
+	.uleb128 0x8
+	.long	0x96b
+	.byte	0
+	.uleb128 0x17
+	.long	.LASF822
+	.byte	0x7
+	.long	0x3e15
+	.uleb128 0x8
+	.long	0x321
+	.uleb128 0x8
+	.long	0x7e
+	.uleb128 0x8
+	.long	0x7e
+	.byte	0
+	.uleb128 0xd
+	.long	.LASF823
+	.value	0x413
+	.byte	0xd
+	.long	0x96b
+	.long	0x3e2c
+	.uleb128 0x8
+	.long	0x2c6
+	.uleb128 0x15
+	.byte	0
+	.uleb128 0xd
+	.long	.LASF824
+	.value	0x2ca
+	.byte	0xd
+	.long	0x96b
+	.long	0x3e43
+	.uleb128 0x8
+	.long	0x2c6
+	.uleb128 0x15
+	.byte	0
+	.uleb128 0x19
+	.long	.LASF825
+	.byte	0x13
+	.byte	0x1c
+	.byte	0xf
+	.long	0x321
+	.long	0x3e59
+	.uleb128 0x8
+	.long	0x32e
+	.byte	0
+	.uleb128 0x17
+	.long	.LASF826
+	.byte	0xc
+	.long	0x3e6e
+	.uleb128 0x8
+	.long	0x321
+	.uleb128 0x8
+	.long	0x2ed
+	.byte	0
+	.uleb128 0xd
+	.long	.LASF827
+	.value	0x5e7
+	.byte	0xd
+	.long	0x2ed
+	.long	0x3e89
+	.uleb128 0x8
+	.long	0x96b
+	.uleb128 0x8
+	.long	0x96b
+	.byte	0
+	.uleb128 0xd
+	.long	.LASF828
+	.value	0x42a
+	.byte	0xd
+	.long	0x96b
+	.long	0x3ea5
+	.uleb128 0x8
+	.long	0x2c6
+	.uleb128 0x8
+	.long	0x96b
+	.uleb128 0x15
+	.byte	0
+	.uleb128 0xd
+	.long	.LASF829
+	.value	0x405
+	.byte	0xd
+	.long	0x96b
+	.long	0x3ec6
+	.uleb128 0x8
+	.long	0x2c6
+	.uleb128 0x8
+	.long	0x2c6
+	.uleb128 0x8
+	.long	0x96b
+	.uleb128 0x15
+	.byte	0
+	.uleb128 0x17
+	.long	.LASF830
+	.byte	0x8
+	.long	0x3ee0
+	.uleb128 0x8
+	.long	0x321
+	.uleb128 0x8
+	.long	0x2e
+	.uleb128 0x8
+	.long	0x2e
+	.byte	0
+	.uleb128 0xd
+	.long	.LASF831
+	.value	0x5db
+	.byte	0xd
+	.long	0x96b
+	.long	0x3efc
+	.uleb128 0x8
+	.long	0x22df
+	.uleb128 0x8
+	.long	0x307
+	.uleb128 0x15
+	.byte	0
+	.uleb128 0x17
+	.long	.LASF832
+	.byte	0x15
+	.long	0x3f11
+	.uleb128 0x8
+	.long	0x80
+	.uleb128 0x8
+	.long	0x3f11
+	.byte	0
+	.uleb128 0x7
+	.long	0x3f16
+	.uleb128 0x2e
+	.uleb128 0x2f
+	.long	.LASF863
+	.byte	0x15
+	.value	0x104
+	.byte	0xd
+	.uleb128 0x30
+	.long	.LASF849
+	.byte	0x1
+	.value	0x109
+	.byte	0x1
+	.long	0x362
+	.quad	.LFB10
+	.quad	.LFE10-.LFB10
+	.uleb128 0x1
+	.byte	0x9c
+	.long	0x3f64
+	.uleb128 0x31
+	.long	.LASF178
+	.byte	0x1
+	.value	0x109
+	.byte	0x14
+	.long	0x96b
+	.uleb128 0x2
+	.byte	0x91
+	.sleb128 -40
+	.uleb128 0x32
+	.string	"buf"
+	.byte	0x1
+	.value	0x10b
+	.byte	0x9
+	.long	0x362
+	.uleb128 0x2
+	.byte	0x91
+	.sleb128 -24
+	.byte	0
+	.uleb128 0x13
+	.long	.LASF837
+	.byte	0xfc
+	.quad	.LFB9
+	.quad	.LFE9-.LFB9
+	.uleb128 0x1
+	.byte	0x9c
+	.long	0x3fb3
+	.uleb128 0xa
+	.long	.LASF833
+	.byte	0xfe
+	.byte	0x7
+	.long	0x96b
+	.uleb128 0x2
+	.byte	0x91
+	.sleb128 -24
+	.uleb128 0xa
+	.long	.LASF834
+	.byte	0xfe
+	.byte	0xe
+	.long	0x96b
+	.uleb128 0x2
+	.byte	0x91
+	.sleb128 -32
+	.uleb128 0x1f
+	.long	.LASF835
+	.byte	0xff
+	.byte	0x9
+	.long	0x362
+	.uleb128 0x1f
+	.long	.LASF836
+	.byte	0xff
+	.byte	0xf
+	.long	0x362
+	.byte	0
+	.uleb128 0x13
+	.long	.LASF838
+	.byte	0xe6
+	.quad	.LFB8
+	.quad	.LFE8-.LFB8
+	.uleb128 0x1
+	.byte	0x9c
+	.long	0x3ffe
+	.uleb128 0x33
+	.quad	.LBB2
+	.quad	.LBE2-.LBB2
+	.uleb128 0xa
+	.long	.LASF178
+	.byte	0xe8
+	.byte	0x9
+	.long	0x96b
+	.uleb128 0x2
+	.byte	0x91
+	.sleb128 -24
+	.uleb128 0xa
+	.long	.LASF839
+	.byte	0xe8
+	.byte	0x14
+	.long	0x96b
+	.uleb128 0x2
+	.byte	0x91
+	.sleb128 -32
+	.byte	0
+	.byte	0
+	.uleb128 0x13
+	.long	.LASF840
+	.byte	0xa0
+	.quad	.LFB7
+	.quad	.LFE7-.LFB7
+	.uleb128 0x1
+	.byte	0x9c
+	.long	0x408f
+	.uleb128 0xa
+	.long	.LASF841
+	.byte	0xa2
+	.byte	0x7
+	.long	0x2c6
+	.uleb128 0x2
+	.byte	0x91
+	.sleb128 -40
+	.uleb128 0xa
+	.long	.LASF842
+	.byte	0xa3
+	.byte	0x7
+	.long	0x2c6
+	.uleb128 0x2
+	.byte	0x91
+	.sleb128 -48
+	.uleb128 0xa
+	.long	.LASF843
+	.byte	0xa4
+	.byte	0x7
+	.long	0x2c6
+	.uleb128 0x2
+	.byte	0x91
+	.sleb128 -56
+	.uleb128 0xa
+	.long	.LASF844
+	.byte	0xa5
+	.byte	0x7
+	.long	0x2c6
+	.uleb128 0x2
+	.byte	0x91
+	.sleb128 -64
+	.uleb128 0xa
+	.long	.LASF845
+	.byte	0xa6
+	.byte	0x7
+	.long	0x2c6
+	.uleb128 0x3
+	.byte	0x91
+	.sleb128 -72
+	.uleb128 0xa
+	.long	.LASF846
+	.byte	0xa7
+	.byte	0x7
+	.long	0x2c6
+	.uleb128 0x3
+	.byte	0x91
+	.sleb128 -80
+	.uleb128 0xa
+	.long	.LASF847
+	.byte	0xa8
+	.byte	0x7
+	.long	0x2c6
+	.uleb128 0x3
+	.byte	0x91
+	.sleb128 -88
+	.uleb128 0xa
+	.long	.LASF848
+	.byte	0xa9
+	.byte	0x7
+	.long	0x2c6
+	.uleb128 0x3
+	.byte	0x91
+	.sleb128 -96
+	.byte	0
+	.uleb128 0x34
+	.long	.LASF850
+	.byte	0x1
+	.byte	0x8f
+	.byte	0x1
+	.long	0x2c6
+	.quad	.LFB6
+	.quad	.LFE6-.LFB6
+	.uleb128 0x1
+	.byte	0x9c
+	.long	0x40cc
+	.uleb128 0x20
+	.string	"h1"
+	.byte	0x8f
+	.byte	0x15
+	.long	0x2c6
+	.uleb128 0x2
+	.byte	0x91
+	.sleb128 -24
+	.uleb128 0x20
+	.string	"h2"
+	.byte	0x8f
+	.byte	0x1e
+	.long	0x2c6
+	.uleb128 0x2
+	.byte	0x91
+	.sleb128 -32
+	.byte	0
+	.uleb128 0x13
+	.long	.LASF851
+	.byte	0x66
+	.quad	.LFB5
+	.quad	.LFE5-.LFB5
+	.uleb128 0x1
+	.byte	0x9c
+	.long	0x4103
+	.uleb128 0x21
+	.string	"seq"
+	.byte	0x68
+	.byte	0x7
+	.long	0x96b
+	.uleb128 0x2
+	.byte	0x91
+	.sleb128 -56
+	.uleb128 0x21
+	.string	"i"
+	.byte	0x69
+	.byte	0x6
+	.long	0x2e
+	.uleb128 0x2
+	.byte	0x91
+	.sleb128 -60
+	.byte	0
+	.uleb128 0x13
+	.long	.LASF852
+	.byte	0x5a
+	.quad	.LFB4
+	.quad	.LFE4-.LFB4
+	.uleb128 0x1
+	.byte	0x9c
+	.long	0x412e
+	.uleb128 0xa
+	.long	.LASF178
+	.byte	0x5c
+	.byte	0x7
+	.long	0x96b
+	.uleb128 0x2
+	.byte	0x91
+	.sleb128 -40
+	.byte	0
+	.uleb128 0x13
+	.long	.LASF853
+	.byte	0x44
+	.quad	.LFB3
+	.quad	.LFE3-.LFB3
+	.uleb128 0x1
+	.byte	0x9c
+	.long	0x4175
+	.uleb128 0xa
+	.long	.LASF178
+	.byte	0x46
+	.byte	0x7
+	.long	0x96b
+	.uleb128 0x2
+	.byte	0x91
+	.sleb128 -24
+	.uleb128 0xa
+	.long	.LASF854
+	.byte	0x46
+	.byte	0xd
+	.long	0x96b
+	.uleb128 0x2
+	.byte	0x91
+	.sleb128 -32
+	.uleb128 0xa
+	.long	.LASF855
+	.byte	0x46
+	.byte	0x13
+	.long	0x96b
+	.uleb128 0x2
+	.byte	0x91
+	.sleb128 -40
+	.byte	0
+	.uleb128 0x13
+	.long	.LASF856
+	.byte	0x3a
+	.quad	.LFB2
+	.quad	.LFE2-.LFB2
+	.uleb128 0x1
+	.byte	0x9c
+	.long	0x41a0
+	.uleb128 0xa
+	.long	.LASF857
+	.byte	0x3c
+	.byte	0x7
+	.long	0x96b
+	.uleb128 0x2
+	.byte	0x91
+	.sleb128 -24
+	.byte	0
+	.uleb128 0x13
+	.long	.LASF858
+	.byte	0x22
+	.quad	.LFB1
+	.quad	.LFE1-.LFB1
+	.uleb128 0x1
+	.byte	0x9c
+	.long	0x41cb
+	.uleb128 0xa
+	.long	.LASF178
+	.byte	0x24
+	.byte	0x7
+	.long	0x96b
+	.uleb128 0x2
+	.byte	0x91
+	.sleb128 -40
+	.byte	0
+	.uleb128 0x35
+	.long	.LASF864
+	.byte	0x1
+	.byte	0x13
+	.byte	0x1
+	.quad	.LFB0
+	.quad	.LFE0-.LFB0
+	.uleb128 0x1
+	.byte	0x9c
+	.byte	0
+	.section	.debug_abbrev,"",@progbits
+.Ldebug_abbrev0:
+	.uleb128 0x1
+	.uleb128 0x28
+	.byte	0
+	.uleb128 0x3
+	.uleb128 0xe
+	.uleb128 0x1c
+	.uleb128 0xb
+	.byte	0
+	.byte	0
+	.uleb128 0x2
+	.uleb128 0xd
+	.byte	0
+	.uleb128 0x3
+	.uleb128 0xe
+	.uleb128 0x3a
+	.uleb128 0xb
+	.uleb128 0x3b
+	.uleb128 0x5
+	.uleb128 0x39
+	.uleb128 0xb
+	.uleb128 0x49
+	.uleb128 0x13
+	.uleb128 0x38
+	.uleb128 0xb
+	.byte	0
+	.byte	0
+	.uleb128 0x3
+	.uleb128 0xd
+	.byte	0
+	.uleb128 0x3
+	.uleb128 0x8
+	.uleb128 0x3a
+	.uleb128 0xb
+	.uleb128 0x3b
+	.uleb128 0x5
+	.uleb128 0x39
+	.uleb128 0xb
+	.uleb128 0x49
+	.uleb128 0x13
+	.uleb128 0x38
+	.uleb128 0xb
+	.byte	0
+	.byte	0
+	.uleb128 0x4
+	.uleb128 0xd
+	.byte	0
+	.uleb128 0x3
+	.uleb128 0xe
+	.uleb128 0x3a
+	.uleb128 0xb
+	.uleb128 0x3b
+	.uleb128 0x5
+	.uleb128 0x39
+	.uleb128 0xb
+	.uleb128 0x49
+	.uleb128 0x13
+	.byte	0
+	.byte	0
+	.uleb128 0x5
+	.uleb128 0x13
+	.byte	0x1
+	.uleb128 0x3
+	.uleb128 0xe
+	.uleb128 0xb
+	.uleb128 0xb
+	.uleb128 0x3a
+	.uleb128 0xb
+	.uleb128 0x3b
+	.uleb128 0x5
+	.uleb128 0x39
+	.uleb128 0x21
+	.sleb128 8
+	.uleb128 0x1
+	.uleb128 0x13
+	.byte	0
+	.byte	0
+	.uleb128 0x6
+	.uleb128 0xd
+	.byte	0
+	.uleb128 0x3
+	.uleb128 0xe
+	.uleb128 0x3a
+	.uleb128 0xb
+	.uleb128 0x3b
+	.uleb128 0xb
+	.uleb128 0x39
+	.uleb128 0xb
+	.uleb128 0x49
+	.uleb128 0x13
+	.uleb128 0x38
+	.uleb128 0xb
+	.byte	0
+	.byte	0
+	.uleb128 0x7
+	.uleb128 0xf
+	.byte	0
+	.uleb128 0xb
+	.uleb128 0x21
+	.sleb128 8
+	.uleb128 0x49
+	.uleb128 0x13
+	.byte	0
+	.byte	0
+	.uleb128 0x8
+	.uleb128 0x5
+	.byte	0
+	.uleb128 0x49
+	.uleb128 0x13
+	.byte	0
+	.byte	0
+	.uleb128 0x9
+	.uleb128 0x16
+	.byte	0
+	.uleb128 0x3
+	.uleb128 0xe
+	.uleb128 0x3a
+	.uleb128 0xb
+	.uleb128 0x3b
+	.uleb128 0xb
+	.uleb128 0x39
+	.uleb128 0xb
+	.uleb128 0x49
+	.uleb128 0x13
+	.byte	0
+	.byte	0
+	.uleb128 0xa
+	.uleb128 0x34
+	.byte	0
+	.uleb128 0x3
+	.uleb128 0xe
+	.uleb128 0x3a
+	.uleb128 0x21
+	.sleb128 1
+	.uleb128 0x3b
+	.uleb128 0xb
+	.uleb128 0x39
+	.uleb128 0xb
+	.uleb128 0x49
+	.uleb128 0x13
+	.uleb128 0x2
+	.uleb128 0x18
+	.byte	0
+	.byte	0
+	.uleb128 0xb
+	.uleb128 0x16
+	.byte	0
+	.uleb128 0x3
+	.uleb128 0xe
+	.uleb128 0x3a
+	.uleb128 0xb
+	.uleb128 0x3b
+	.uleb128 0x5
+	.uleb128 0x39
+	.uleb128 0xb
+	.uleb128 0x49
+	.uleb128 0x13
+	.byte	0
+	.byte	0
+	.uleb128 0xc
+	.uleb128 0x13
+	.byte	0
+	.uleb128 0x3
+	.uleb128 0xe
+	.uleb128 0x3c
+	.uleb128 0x19
+	.byte	0
+	.byte	0
+	.uleb128 0xd
+	.uleb128 0x2e
+	.byte	0x1
+	.uleb128 0x3f
+	.uleb128 0x19
+	.uleb128 0x3
+	.uleb128 0xe
+	.uleb128 0x3a
+	.uleb128 0x21
+	.sleb128 16
+	.uleb128 0x3b
+	.uleb128 0x5
+	.uleb128 0x39
+	.uleb128 0xb
+	.uleb128 0x27
+	.uleb128 0x19
+	.uleb128 0x49
+	.uleb128 0x13
+	.uleb128 0x3c
+	.uleb128 0x19
+	.uleb128 0x1
+	.uleb128 0x13
+	.byte	0
+	.byte	0
+	.uleb128 0xe
+	.uleb128 0x24
+	.byte	0
+	.uleb128 0xb
+	.uleb128 0xb
+	.uleb128 0x3e
+	.uleb128 0xb
+	.uleb128 0x3
+	.uleb128 0xe
+	.byte	0
+	.byte	0
+	.uleb128 0xf
+	.uleb128 0x13
+	.byte	0x1
+	.uleb128 0x3
+	.uleb128 0xe
+	.uleb128 0xb
+	.uleb128 0xb
+	.uleb128 0x3a
+	.uleb128 0xb
+	.uleb128 0x3b
+	.uleb128 0xb
+	.uleb128 0x39
+	.uleb128 0xb
+	.uleb128 0x1
+	.uleb128 0x13
+	.byte	0
+	.byte	0
+	.uleb128 0x10
+	.uleb128 0x1
+	.byte	0x1
+	.uleb128 0x49
+	.uleb128 0x13
+	.uleb128 0x1
+	.uleb128 0x13
+	.byte	0
+	.byte	0
+	.uleb128 0x11
+	.uleb128 0x21
+	.byte	0
+	.uleb128 0x49
+	.uleb128 0x13
+	.uleb128 0x2f
+	.uleb128 0xb
+	.byte	0
+	.byte	0
+	.uleb128 0x12
+	.uleb128 0x28
+	.byte	0
+	.uleb128 0x3
+	.uleb128 0xe
+	.uleb128 0x1c
+	.uleb128 0x5
+	.byte	0
+	.byte	0
+	.uleb128 0x13
+	.uleb128 0x2e
+	.byte	0x1
+	.uleb128 0x3
+	.uleb128 0xe
+	.uleb128 0x3a
+	.uleb128 0x21
+	.sleb128 1
+	.uleb128 0x3b
+	.uleb128 0xb
+	.uleb128 0x39
+	.uleb128 0x21
+	.sleb128 1
+	.uleb128 0x11
+	.uleb128 0x1
+	.uleb128 0x12
+	.uleb128 0x7
+	.uleb128 0x40
+	.uleb128 0x18
+	.uleb128 0x7c
+	.uleb128 0x19
+	.uleb128 0x1
+	.uleb128 0x13
+	.byte	0
+	.byte	0
+	.uleb128 0x14
+	.uleb128 0xd
+	.byte	0
+	.uleb128 0x3
+	.uleb128 0x8
+	.uleb128 0x3a
+	.uleb128 0xb
+	.uleb128 0x3b
+	.uleb128 0x5
+	.uleb128 0x39
+	.uleb128 0xb
+	.uleb128 0x49
+	.uleb128 0x13
+	.byte	0
+	.byte	0
+	.uleb128 0x15
+	.uleb128 0x18
+	.byte	0
+	.byte	0
+	.byte	0
+	.uleb128 0x16
+	.uleb128 0xd
+	.byte	0
+	.uleb128 0x3
+	.uleb128 0x8
+	.uleb128 0x3a
+	.uleb128 0xb
+	.uleb128 0x3b
+	.uleb128 0xb
+	.uleb128 0x39
+	.uleb128 0xb
+	.uleb128 0x49
+	.uleb128 0x13
+	.uleb128 0x38
+	.uleb128 0xb
+	.byte	0
+	.byte	0
+	.uleb128 0x17
+	.uleb128 0x2e
+	.byte	0x1
+	.uleb128 0x3f
+	.uleb128 0x19
+	.uleb128 0x3
+	.uleb128 0xe
+	.uleb128 0x3a
+	.uleb128 0x21
+	.sleb128 20
+	.uleb128 0x3b
+	.uleb128 0xb
+	.uleb128 0x39
+	.uleb128 0x21
+	.sleb128 6
+	.uleb128 0x27
+	.uleb128 0x19
+	.uleb128 0x3c
+	.uleb128 0x19
+	.uleb128 0x1
+	.uleb128 0x13
+	.byte	0
+	.byte	0
+	.uleb128 0x18
+	.uleb128 0x17
+	.byte	0x1
+	.uleb128 0xb
+	.uleb128 0xb
+	.uleb128 0x3a
+	.uleb128 0xb
+	.uleb128 0x3b
+	.uleb128 0x5
+	.uleb128 0x39
+	.uleb128 0x21
+	.sleb128 2
+	.uleb128 0x1
+	.uleb128 0x13
+	.byte	0
+	.byte	0
+	.uleb128 0x19
+	.uleb128 0x2e
+	.byte	0x1
+	.uleb128 0x3f
+	.uleb128 0x19
+	.uleb128 0x3
+	.uleb128 0xe
+	.uleb128 0x3a
+	.uleb128 0xb
+	.uleb128 0x3b
+	.uleb128 0xb
+	.uleb128 0x39
+	.uleb128 0xb
+	.uleb128 0x27
+	.uleb128 0x19
+	.uleb128 0x49
+	.uleb128 0x13
+	.uleb128 0x3c
+	.uleb128 0x19
+	.uleb128 0x1
+	.uleb128 0x13
+	.byte	0
+	.byte	0
+	.uleb128 0x1a
+	.uleb128 0xd
+	.byte	0
+	.uleb128 0x3
+	.uleb128 0xe
+	.uleb128 0x3a
+	.uleb128 0x21
+	.sleb128 10
+	.uleb128 0x3b
+	.uleb128 0xb
+	.uleb128 0x39
+	.uleb128 0xb
+	.uleb128 0x49
+	.uleb128 0x13
+	.byte	0
+	.byte	0
+	.uleb128 0x1b
+	.uleb128 0x16
+	.byte	0
+	.uleb128 0x3
+	.uleb128 0x8
+	.uleb128 0x3a
+	.uleb128 0x21
+	.sleb128 12
+	.uleb128 0x3b
+	.uleb128 0xb
+	.uleb128 0x39
+	.uleb128 0x21
+	.sleb128 22
+	.uleb128 0x49
+	.uleb128 0x13
+	.byte	0
+	.byte	0
+	.uleb128 0x1c
+	.uleb128 0x17
+	.byte	0x1
+	.uleb128 0x3
+	.uleb128 0xe
+	.uleb128 0xb
+	.uleb128 0xb
+	.uleb128 0x3a
+	.uleb128 0xb
+	.uleb128 0x3b
+	.uleb128 0x5
+	.uleb128 0x39
+	.uleb128 0x21
+	.sleb128 7
+	.uleb128 0x1
+	.uleb128 0x13
+	.byte	0
+	.byte	0
+	.uleb128 0x1d
+	.uleb128 0x4
+	.byte	0x1
+	.uleb128 0x3
+	.uleb128 0xe
+	.uleb128 0x3e
+	.uleb128 0x21
+	.sleb128 7
+	.uleb128 0xb
+	.uleb128 0x21
+	.sleb128 4
+	.uleb128 0x49
+	.uleb128 0x13
+	.uleb128 0x3a
+	.uleb128 0x21
+	.sleb128 16
+	.uleb128 0x3b
+	.uleb128 0xb
+	.uleb128 0x39
+	.uleb128 0x21
+	.sleb128 6
+	.uleb128 0x1
+	.uleb128 0x13
+	.byte	0
+	.byte	0
+	.uleb128 0x1e
+	.uleb128 0x4
+	.byte	0x1
+	.uleb128 0x3
+	.uleb128 0xe
+	.uleb128 0x3e
+	.uleb128 0x21
+	.sleb128 7
+	.uleb128 0xb
+	.uleb128 0x21
+	.sleb128 4
+	.uleb128 0x49
+	.uleb128 0x13
+	.uleb128 0x3a
+	.uleb128 0x21
+	.sleb128 16
+	.uleb128 0x3b
+	.uleb128 0x5
+	.uleb128 0x39
+	.uleb128 0x21
+	.sleb128 6
+	.uleb128 0x1
+	.uleb128 0x13
+	.byte	0
+	.byte	0
+	.uleb128 0x1f
+	.uleb128 0x34
+	.byte	0
+	.uleb128 0x3
+	.uleb128 0xe
+	.uleb128 0x3a
+	.uleb128 0x21
+	.sleb128 1
+	.uleb128 0x3b
+	.uleb128 0xb
+	.uleb128 0x39
+	.uleb128 0xb
+	.uleb128 0x49
+	.uleb128 0x13
+	.byte	0
+	.byte	0
+	.uleb128 0x20
+	.uleb128 0x5
+	.byte	0
+	.uleb128 0x3
+	.uleb128 0x8
+	.uleb128 0x3a
+	.uleb128 0x21
+	.sleb128 1
+	.uleb128 0x3b
+	.uleb128 0xb
+	.uleb128 0x39
+	.uleb128 0xb
+	.uleb128 0x49
+	.uleb128 0x13
+	.uleb128 0x2
+	.uleb128 0x18
+	.byte	0
+	.byte	0
+	.uleb128 0x21
+	.uleb128 0x34
+	.byte	0
+	.uleb128 0x3
+	.uleb128 0x8
+	.uleb128 0x3a
+	.uleb128 0x21
+	.sleb128 1
+	.uleb128 0x3b
+	.uleb128 0xb
+	.uleb128 0x39
+	.uleb128 0xb
+	.uleb128 0x49
+	.uleb128 0x13
+	.uleb128 0x2
+	.uleb128 0x18
+	.byte	0
+	.byte	0
+	.uleb128 0x22
+	.uleb128 0x11
+	.byte	0x1
+	.uleb128 0x25
+	.uleb128 0xe
+	.uleb128 0x13
+	.uleb128 0xb
+	.uleb128 0x3
+	.uleb128 0x1f
+	.uleb128 0x1b
+	.uleb128 0x1f
+	.uleb128 0x11
+	.uleb128 0x1
+	.uleb128 0x12
+	.uleb128 0x7
+	.uleb128 0x10
+	.uleb128 0x17
+	.byte	0
+	.byte	0
+	.uleb128 0x23
+	.uleb128 0x24
+	.byte	0
+	.uleb128 0xb
+	.uleb128 0xb
+	.uleb128 0x3e
+	.uleb128 0xb
+	.uleb128 0x3
+	.uleb128 0x8
+	.byte	0
+	.byte	0
+	.uleb128 0x24
+	.uleb128 0xf
+	.byte	0
+	.uleb128 0xb
+	.uleb128 0xb
+	.byte	0
+	.byte	0
+	.uleb128 0x25
+	.uleb128 0x26
+	.byte	0
+	.uleb128 0x49
+	.uleb128 0x13
+	.byte	0
+	.byte	0
+	.uleb128 0x26
+	.uleb128 0x16
+	.byte	0
+	.uleb128 0x3
+	.uleb128 0xe
+	.uleb128 0x3a
+	.uleb128 0xb
+	.uleb128 0x3b
+	.uleb128 0xb
+	.uleb128 0x39
+	.uleb128 0xb
+	.byte	0
+	.byte	0
+	.uleb128 0x27
+	.uleb128 0x17
+	.byte	0x1
+	.uleb128 0x3
+	.uleb128 0xe
+	.uleb128 0xb
+	.uleb128 0xb
+	.uleb128 0x3a
+	.uleb128 0xb
+	.uleb128 0x3b
+	.uleb128 0xb
+	.uleb128 0x39
+	.uleb128 0xb
+	.uleb128 0x1
+	.uleb128 0x13
+	.byte	0
+	.byte	0
+	.uleb128 0x28
+	.uleb128 0x13
+	.byte	0
+	.uleb128 0x3
+	.uleb128 0x8
+	.uleb128 0x3c
+	.uleb128 0x19
+	.byte	0
+	.byte	0
+	.uleb128 0x29
+	.uleb128 0x13
+	.byte	0x1
+	.uleb128 0x3
+	.uleb128 0x8
+	.uleb128 0xb
+	.uleb128 0x5
+	.uleb128 0x3a
+	.uleb128 0xb
+	.uleb128 0x3b
+	.uleb128 0xb
+	.uleb128 0x39
+	.uleb128 0xb
+	.uleb128 0x1
+	.uleb128 0x13
+	.byte	0
+	.byte	0
+	.uleb128 0x2a
+	.uleb128 0x17
+	.byte	0
+	.uleb128 0x3
+	.uleb128 0xe
+	.uleb128 0x3c
+	.uleb128 0x19
+	.byte	0
+	.byte	0
+	.uleb128 0x2b
+	.uleb128 0x13
+	.byte	0x1
+	.uleb128 0x3
+	.uleb128 0xe
+	.uleb128 0xb
+	.uleb128 0x5
+	.uleb128 0x3a
+	.uleb128 0xb
+	.uleb128 0x3b
+	.uleb128 0xb
+	.uleb128 0x39
+	.uleb128 0xb
+	.uleb128 0x1
+	.uleb128 0x13
+	.byte	0
+	.byte	0
+	.uleb128 0x2c
+	.uleb128 0xd
+	.byte	0
+	.uleb128 0x3
+	.uleb128 0xe
+	.uleb128 0x3a
+	.uleb128 0xb
+	.uleb128 0x3b
+	.uleb128 0xb
+	.uleb128 0x39
+	.uleb128 0xb
+	.uleb128 0x49
+	.uleb128 0x13
+	.uleb128 0x38
+	.uleb128 0x5
+	.byte	0
+	.byte	0
+	.uleb128 0x2d
+	.uleb128 0x2e
+	.byte	0
+	.uleb128 0x3f
+	.uleb128 0x19
+	.uleb128 0x3
+	.uleb128 0xe
+	.uleb128 0x3a
+	.uleb128 0xb
+	.uleb128 0x3b
+	.uleb128 0xb
+	.uleb128 0x39
+	.uleb128 0xb
+	.uleb128 0x27
+	.uleb128 0x19
+	.uleb128 0x49
+	.uleb128 0x13
+	.uleb128 0x3c
+	.uleb128 0x19
+	.byte	0
+	.byte	0
+	.uleb128 0x2e
+	.uleb128 0x15
+	.byte	0
+	.uleb128 0x27
+	.uleb128 0x19
+	.byte	0
+	.byte	0
+	.uleb128 0x2f
+	.uleb128 0x2e
+	.byte	0
+	.uleb128 0x3f
+	.uleb128 0x19
+	.uleb128 0x3
+	.uleb128 0xe
+	.uleb128 0x3a
+	.uleb128 0xb
+	.uleb128 0x3b
+	.uleb128 0x5
+	.uleb128 0x39
+	.uleb128 0xb
+	.uleb128 0x27
+	.uleb128 0x19
+	.uleb128 0x3c
+	.uleb128 0x19
+	.byte	0
+	.byte	0
+	.uleb128 0x30
+	.uleb128 0x2e
+	.byte	0x1
+	.uleb128 0x3
+	.uleb128 0xe
+	.uleb128 0x3a
+	.uleb128 0xb
+	.uleb128 0x3b
+	.uleb128 0x5
+	.uleb128 0x39
+	.uleb128 0xb
+	.uleb128 0x27
+	.uleb128 0x19
+	.uleb128 0x49
+	.uleb128 0x13
+	.uleb128 0x11
+	.uleb128 0x1
+	.uleb128 0x12
+	.uleb128 0x7
+	.uleb128 0x40
+	.uleb128 0x18
+	.uleb128 0x7c
+	.uleb128 0x19
+	.uleb128 0x1
+	.uleb128 0x13
+	.byte	0
+	.byte	0
+	.uleb128 0x31
+	.uleb128 0x5
+	.byte	0
+	.uleb128 0x3
+	.uleb128 0xe
+	.uleb128 0x3a
+	.uleb128 0xb
+	.uleb128 0x3b
+	.uleb128 0x5
+	.uleb128 0x39
+	.uleb128 0xb
+	.uleb128 0x49
+	.uleb128 0x13
+	.uleb128 0x2
+	.uleb128 0x18
+	.byte	0
+	.byte	0
+	.uleb128 0x32
+	.uleb128 0x34
+	.byte	0
+	.uleb128 0x3
+	.uleb128 0x8
+	.uleb128 0x3a
+	.uleb128 0xb
+	.uleb128 0x3b
+	.uleb128 0x5
+	.uleb128 0x39
+	.uleb128 0xb
+	.uleb128 0x49
+	.uleb128 0x13
+	.uleb128 0x2
+	.uleb128 0x18
+	.byte	0
+	.byte	0
+	.uleb128 0x33
+	.uleb128 0xb
+	.byte	0x1
+	.uleb128 0x11
+	.uleb128 0x1
+	.uleb128 0x12
+	.uleb128 0x7
+	.byte	0
+	.byte	0
+	.uleb128 0x34
+	.uleb128 0x2e
+	.byte	0x1
+	.uleb128 0x3
+	.uleb128 0xe
+	.uleb128 0x3a
+	.uleb128 0xb
+	.uleb128 0x3b
+	.uleb128 0xb
+	.uleb128 0x39
+	.uleb128 0xb
+	.uleb128 0x27
+	.uleb128 0x19
+	.uleb128 0x49
+	.uleb128 0x13
+	.uleb128 0x11
+	.uleb128 0x1
+	.uleb128 0x12
+	.uleb128 0x7
+	.uleb128 0x40
+	.uleb128 0x18
+	.uleb128 0x7a
+	.uleb128 0x19
+	.uleb128 0x1
+	.uleb128 0x13
+	.byte	0
+	.byte	0
+	.uleb128 0x35
+	.uleb128 0x2e
+	.byte	0
+	.uleb128 0x3f
+	.uleb128 0x19
+	.uleb128 0x3
+	.uleb128 0xe
+	.uleb128 0x3a
+	.uleb128 0xb
+	.uleb128 0x3b
+	.uleb128 0xb
+	.uleb128 0x39
+	.uleb128 0xb
+	.uleb128 0x11
+	.uleb128 0x1
+	.uleb128 0x12
+	.uleb128 0x7
+	.uleb128 0x40
+	.uleb128 0x18
+	.uleb128 0x7c
+	.uleb128 0x19
+	.byte	0
+	.byte	0
+	.byte	0
+	.section	.debug_aranges,"",@progbits
+	.long	0x2c
+	.value	0x2
+	.long	.Ldebug_info0
+	.byte	0x8
+	.byte	0
+	.value	0
+	.value	0
+	.quad	.Ltext0
+	.quad	.Letext0-.Ltext0
+	.quad	0
+	.quad	0
+	.section	.debug_line,"",@progbits
+.Ldebug_line0:
+	.section	.debug_str,"MS",@progbits,1
+.LASF215:
+	.string	"foamCProg"
+.LASF568:
+	.string	"FOAM_BVal_SIntLength"
+.LASF576:
+	.string	"FOAM_BVal_SIntHashCombine"
+.LASF305:
+	.string	"TFormListCons"
+.LASF420:
+	.string	"FOAM_RRElt"
+.LASF741:
+	.string	"FOAM_DDecl_TrailingArray"
+.LASF482:
+	.string	"FOAM_BVal_SFloIsZero"
+.LASF54:
+	.string	"UNotAsLong"
+.LASF631:
+	.string	"FOAM_BVal_SIntToHInt"
+.LASF43:
+	.string	"_unused2"
+.LASF526:
+	.string	"FOAM_BVal_DFloRTimes"
+.LASF29:
+	.string	"_fileno"
+.LASF735:
+	.string	"FOAM_DDecl_Param"
+.LASF671:
+	.string	"FOAM_BVal_TypeInt64"
+.LASF298:
+	.string	"ExpInfo"
+.LASF793:
+	.string	"field"
+.LASF747:
+	.string	"FOAM_DDecl_JavaClass"
+.LASF136:
+	.string	"abLocal"
+.LASF148:
+	.string	"abRaise"
+.LASF563:
+	.string	"FOAM_BVal_SIntGcd"
+.LASF403:
+	.string	"FOAM_VECTOR_START"
+.LASF410:
+	.string	"FOAM_Par"
+.LASF534:
+	.string	"FOAM_BVal_ByteMax"
+.LASF614:
+	.string	"FOAM_BVal_PtrIsNil"
+.LASF235:
+	.string	"foamRRNew"
+.LASF94:
+	.string	"abDocText"
+.LASF230:
+	.string	"foamIf"
+.LASF118:
+	.string	"abFix"
+.LASF151:
+	.string	"abRestrictTo"
+.LASF842:
+	.string	"hUTS"
+.LASF144:
+	.string	"abParen"
+.LASF396:
+	.string	"FOAM_Unit"
+.LASF814:
+	.string	"foamVerifyBuffer"
+.LASF395:
+	.string	"FOAM_Protect"
+.LASF621:
+	.string	"FOAM_BVal_FormatBInt"
+.LASF688:
+	.string	"FOAM_BVal_RawRepSize"
+.LASF717:
+	.string	"FOAM_BVal_ssaPhi"
+.LASF261:
+	.string	"intLoaded"
+.LASF240:
+	.string	"foamCCall"
+.LASF104:
+	.string	"abBuiltin"
+.LASF34:
+	.string	"_shortbuf"
+.LASF756:
+	.string	"fuses"
+.LASF821:
+	.string	"testFalse"
+.LASF765:
+	.string	"ByteData"
+.LASF426:
+	.string	"FOAM_IRElt"
+.LASF90:
+	.string	"abGen"
+.LASF801:
+	.string	"place"
+.LASF147:
+	.string	"abQualify"
+.LASF219:
+	.string	"foamEInfo"
+.LASF736:
+	.string	"FOAM_DDecl_Local"
+.LASF250:
+	.string	"foamKill"
+.LASF807:
+	.string	"magic"
+.LASF84:
+	.string	"symbol"
+.LASF606:
+	.string	"FOAM_BVal_BIntBIPower"
+.LASF849:
+	.string	"tFoamToBuffer"
+.LASF660:
+	.string	"FOAM_BVal_StoIsWritable"
+.LASF577:
+	.string	"FOAM_BVal_WordTimesDouble"
+.LASF15:
+	.string	"_flags"
+.LASF392:
+	.string	"FOAM_Goto"
+.LASF613:
+	.string	"FOAM_BVal_PtrNil"
+.LASF516:
+	.string	"FOAM_BVal_DFloNegate"
+.LASF805:
+	.string	"length"
+.LASF506:
+	.string	"FOAM_BVal_DFloMin"
+.LASF198:
+	.string	"foamDDecl"
+.LASF117:
+	.string	"abExtend"
+.LASF9:
+	.string	"__off_t"
+.LASF595:
+	.string	"FOAM_BVal_BIntNext"
+.LASF648:
+	.string	"FOAM_BVal_RoundNearest"
+.LASF282:
+	.string	"unitb"
+.LASF289:
+	.string	"StabLevel"
+.LASF725:
+	.string	"FOAM_Proto_JavaConstructor"
+.LASF360:
+	.string	"FOAM_SInt"
+.LASF809:
+	.string	"verMinor"
+.LASF700:
+	.string	"FOAM_BVal_SizeOfBInt"
+.LASF126:
+	.string	"abHas"
+.LASF35:
+	.string	"_lock"
+.LASF846:
+	.string	"twist"
+.LASF499:
+	.string	"FOAM_BVal_SFloRTimes"
+.LASF193:
+	.string	"foamRRec"
+.LASF539:
+	.string	"FOAM_BVal_SInt0"
+.LASF540:
+	.string	"FOAM_BVal_SInt1"
+.LASF206:
+	.string	"foamLex"
+.LASF564:
+	.string	"FOAM_BVal_SIntPlusMod"
+.LASF694:
+	.string	"FOAM_BVal_SizeOfNil"
+.LASF371:
+	.string	"FOAM_CONTROL_START"
+.LASF373:
+	.string	"FOAM_BVal"
+.LASF758:
+	.string	"mark"
+.LASF699:
+	.string	"FOAM_BVal_SizeOfSInt"
+.LASF848:
+	.string	"hUTS_FI"
+.LASF451:
+	.string	"FoamTag"
+.LASF722:
+	.string	"FOAM_Proto_Fortran"
+.LASF238:
+	.string	"foamPCall"
+.LASF632:
+	.string	"FOAM_BVal_SIntToBInt"
+.LASF458:
+	.string	"FOAM_BVal_BoolAnd"
+.LASF561:
+	.string	"FOAM_BVal_SIntRem"
+.LASF130:
+	.string	"abImport"
+.LASF68:
+	.string	"fileName"
+.LASF370:
+	.string	"FOAM_DATA_LIMIT"
+.LASF291:
+	.string	"Stab"
+.LASF248:
+	.string	"foamValues"
+.LASF366:
+	.string	"FOAM_Int16"
+.LASF543:
+	.string	"FOAM_BVal_SIntIsZero"
+.LASF605:
+	.string	"FOAM_BVal_BIntSIPower"
+.LASF120:
+	.string	"abFor"
+.LASF689:
+	.string	"FOAM_BVal_SizeOfInt8"
+.LASF637:
+	.string	"FOAM_BVal_BIntToDFlo"
+.LASF839:
+	.string	"reduced"
+.LASF840:
+	.string	"testHash"
+.LASF212:
+	.string	"foamPRef"
+.LASF311:
+	.string	"AbEmbed"
+.LASF775:
+	.string	"values"
+.LASF728:
+	.string	"FOAM_Proto_Init"
+.LASF473:
+	.string	"FOAM_BVal_CharLower"
+.LASF480:
+	.string	"FOAM_BVal_SFloMax"
+.LASF771:
+	.string	"baseType"
+.LASF612:
+	.string	"FOAM_BVal_BIntBit"
+.LASF89:
+	.string	"abHdr"
+.LASF349:
+	.string	"alternatives"
+.LASF21:
+	.string	"_IO_write_end"
+.LASF678:
+	.string	"FOAM_BVal_TypeSInt"
+.LASF787:
+	.string	"prog"
+.LASF259:
+	.string	"rdOnly"
+.LASF127:
+	.string	"abHide"
+.LASF533:
+	.string	"FOAM_BVal_ByteMin"
+.LASF548:
+	.string	"FOAM_BVal_SIntEQ"
+.LASF196:
+	.string	"foamDecl"
+.LASF377:
+	.string	"FOAM_Loose"
+.LASF356:
+	.string	"FOAM_Char"
+.LASF83:
+	.string	"Symbol"
+.LASF367:
+	.string	"FOAM_Int32"
+.LASF218:
+	.string	"foamEEnsure"
+.LASF523:
+	.string	"FOAM_BVal_DFloDivide"
+.LASF791:
+	.string	"index"
+.LASF292:
+	.string	"StabLevelListCons"
+.LASF260:
+	.string	"isOutput"
+.LASF777:
+	.string	"nLabels"
+.LASF818:
+	.string	"foamSeqNextReachable"
+.LASF57:
+	.string	"Length"
+.LASF390:
+	.string	"FOAM_AElt"
+.LASF340:
+	.string	"dest"
+.LASF415:
+	.string	"FOAM_Env"
+.LASF290:
+	.string	"stabLevel"
+.LASF99:
+	.string	"abAnd"
+.LASF466:
+	.string	"FOAM_BVal_CharMax"
+.LASF525:
+	.string	"FOAM_BVal_DFloRMinus"
+.LASF640:
+	.string	"FOAM_BVal_ArrToSFlo"
+.LASF425:
+	.string	"FOAM_RElt"
+.LASF116:
+	.string	"abExport"
+.LASF804:
+	.string	"libSect"
+.LASF281:
+	.string	"constp"
+.LASF280:
+	.string	"constv"
+.LASF242:
+	.string	"foamCFCall"
+.LASF753:
+	.string	"defList"
+.LASF323:
+	.string	"seman"
+.LASF502:
+	.string	"FOAM_BVal_SFloDissemble"
+.LASF784:
+	.string	"locals"
+.LASF221:
+	.string	"foamRElt"
+.LASF626:
+	.string	"FOAM_BVal_SFloToDFlo"
+.LASF254:
+	.string	"foamCatch"
+.LASF745:
+	.string	"FOAM_DDecl_CSig"
+.LASF315:
+	.string	"implicit"
+.LASF844:
+	.string	"hINT"
+.LASF509:
+	.string	"FOAM_BVal_DFloIsZero"
+.LASF168:
+	.string	"type"
+.LASF368:
+	.string	"FOAM_Int64"
+.LASF441:
+	.string	"FOAM_Select"
+.LASF739:
+	.string	"FOAM_DDecl_Union"
+.LASF227:
+	.string	"foamUnimp"
+.LASF530:
+	.string	"FOAM_BVal_DFloAssemble"
+.LASF795:
+	.string	"eltType"
+.LASF843:
+	.string	"hFRAC"
+.LASF481:
+	.string	"FOAM_BVal_SFloEpsilon"
+.LASF674:
+	.string	"FOAM_BVal_TypeChar"
+.LASF589:
+	.string	"FOAM_BVal_BIntEQ"
+.LASF436:
+	.string	"FOAM_DDef"
+.LASF662:
+	.string	"FOAM_BVal_StoRecode"
+.LASF802:
+	.string	"after"
+.LASF508:
+	.string	"FOAM_BVal_DFloEpsilon"
+.LASF830:
+	.string	"testIntEqual"
+.LASF521:
+	.string	"FOAM_BVal_DFloTimes"
+.LASF124:
+	.string	"abGenerate"
+.LASF656:
+	.string	"FOAM_BVal_DFloFraction"
+.LASF518:
+	.string	"FOAM_BVal_DFloNext"
+.LASF316:
+	.string	"embed"
+.LASF468:
+	.string	"FOAM_BVal_CharIsLetter"
+.LASF644:
+	.string	"FOAM_BVal_PlatformRTE"
+.LASF714:
+	.string	"FOAM_BVal_NewExportTable"
+.LASF133:
+	.string	"abLabel"
+.LASF28:
+	.string	"_chain"
+.LASF267:
+	.string	"topc"
+.LASF85:
+	.string	"info"
+.LASF620:
+	.string	"FOAM_BVal_FormatSInt"
+.LASF307:
+	.string	"SymeListCons"
+.LASF262:
+	.string	"idName"
+.LASF115:
+	.string	"abExit"
+.LASF200:
+	.string	"foamDEnv"
+.LASF190:
+	.string	"foamArb"
+.LASF414:
+	.string	"FOAM_Const"
+.LASF2:
+	.string	"unsigned char"
+.LASF413:
+	.string	"FOAM_Fluid"
+.LASF191:
+	.string	"foamArr"
+.LASF314:
+	.string	"defnIdx"
+.LASF553:
+	.string	"FOAM_BVal_SIntPrev"
+.LASF585:
+	.string	"FOAM_BVal_BIntIsPos"
+.LASF659:
+	.string	"FOAM_BVal_StoInHeap"
+.LASF860:
+	.string	"_IO_lock_t"
+.LASF798:
+	.string	"argsPtr"
+.LASF12:
+	.string	"float"
+.LASF740:
+	.string	"FOAM_DDecl_Record"
+.LASF419:
+	.string	"FOAM_TRNew"
+.LASF205:
+	.string	"foamLoc"
+.LASF531:
+	.string	"FOAM_BVal_Byte0"
+.LASF532:
+	.string	"FOAM_BVal_Byte1"
+.LASF169:
+	.string	"locmask"
+.LASF551:
+	.string	"FOAM_BVal_SIntLE"
+.LASF494:
+	.string	"FOAM_BVal_SFloTimes"
+.LASF339:
+	.string	"whole"
+.LASF727:
+	.string	"FOAM_Proto_Lisp"
+.LASF401:
+	.string	"FOAM_JavaObj"
+.LASF63:
+	.string	"MostAlignedType"
+.LASF673:
+	.string	"FOAM_BVal_TypeNil"
+.LASF550:
+	.string	"FOAM_BVal_SIntLT"
+.LASF222:
+	.string	"foamRRElt"
+.LASF755:
+	.string	"invInfo"
+.LASF303:
+	.string	"FoamUses"
+.LASF56:
+	.string	"Hash"
+.LASF310:
+	.string	"UdInfoList"
+.LASF438:
+	.string	"FOAM_Rec"
+.LASF197:
+	.string	"foamGDecl"
+.LASF423:
+	.string	"FOAM_MULTINT_START"
+.LASF806:
+	.string	"libHdr"
+.LASF560:
+	.string	"FOAM_BVal_SIntQuo"
+.LASF369:
+	.string	"FOAM_Int128"
+.LASF75:
+	.string	"SrcPosStack"
+.LASF382:
+	.string	"FOAM_Return"
+.LASF580:
+	.string	"FOAM_BVal_WordTimesStep"
+.LASF562:
+	.string	"FOAM_BVal_SIntDivide"
+.LASF380:
+	.string	"FOAM_Kill"
+.LASF623:
+	.string	"FOAM_BVal_ScanDFlo"
+.LASF663:
+	.string	"FOAM_BVal_StoNewObject"
+.LASF816:
+	.string	"hashCombinePair"
+.LASF352:
+	.string	"within"
+.LASF545:
+	.string	"FOAM_BVal_SIntIsPos"
+.LASF549:
+	.string	"FOAM_BVal_SIntNE"
+.LASF646:
+	.string	"FOAM_BVal_Halt"
+.LASF615:
+	.string	"FOAM_BVal_PtrMagicEQ"
+.LASF76:
+	.string	"stack"
+.LASF796:
+	.string	"clos"
+.LASF600:
+	.string	"FOAM_BVal_BIntMod"
+.LASF655:
+	.string	"FOAM_BVal_DFloTruncate"
+.LASF176:
+	.string	"tposs"
+.LASF301:
+	.string	"_InvInfo"
+.LASF823:
+	.string	"foamNewBCall"
+.LASF188:
+	.string	"foamDFlo"
+.LASF207:
+	.string	"foamGlo"
+.LASF317:
+	.string	"impl"
+.LASF153:
+	.string	"abReturn"
+.LASF465:
+	.string	"FOAM_BVal_CharMin"
+.LASF803:
+	.string	"BIntS"
+.LASF672:
+	.string	"FOAM_BVal_TypeInt128"
+.LASF123:
+	.string	"abFree"
+.LASF643:
+	.string	"FOAM_BVal_ArrToBInt"
+.LASF853:
+	.string	"testConstructors"
+.LASF20:
+	.string	"_IO_write_ptr"
+.LASF213:
+	.string	"foamLabel"
+.LASF214:
+	.string	"foamPtr"
+.LASF779:
+	.string	"infoBits"
+.LASF492:
+	.string	"FOAM_BVal_SFloPlus"
+.LASF201:
+	.string	"foamDFmt"
+.LASF202:
+	.string	"foamDef"
+.LASF344:
+	.string	"elseAlt"
+.LASF592:
+	.string	"FOAM_BVal_BIntLE"
+.LASF574:
+	.string	"FOAM_BVal_SIntOr"
+.LASF328:
+	.string	"test"
+.LASF249:
+	.string	"foamUnit"
+.LASF463:
+	.string	"FOAM_BVal_CharNewline"
+.LASF591:
+	.string	"FOAM_BVal_BIntLT"
+.LASF379:
+	.string	"FOAM_EInfo"
+.LASF243:
+	.string	"foamOFCall"
+.LASF412:
+	.string	"FOAM_Glo"
+.LASF353:
+	.string	"FOAM_START"
+.LASF374:
+	.string	"FOAM_Ptr"
+.LASF295:
+	.string	"optInfo"
+.LASF789:
+	.string	"symeIndex"
+.LASF664:
+	.string	"FOAM_BVal_StoATracer"
+.LASF443:
+	.string	"FOAM_BCall"
+.LASF554:
+	.string	"FOAM_BVal_SIntNext"
+.LASF780:
+	.string	"size"
+.LASF575:
+	.string	"FOAM_BVal_SIntXOr"
+.LASF110:
+	.string	"abDefine"
+.LASF44:
+	.string	"FILE"
+.LASF527:
+	.string	"FOAM_BVal_DFloRTimesPlus"
+.LASF709:
+	.string	"FOAM_BVal_ListNil"
+.LASF149:
+	.string	"abReference"
+.LASF447:
+	.string	"FOAM_Values"
+.LASF772:
+	.string	"eltv"
+.LASF287:
+	.string	"ArEntry"
+.LASF778:
+	.string	"retType"
+.LASF565:
+	.string	"FOAM_BVal_SIntMinusMod"
+.LASF182:
+	.string	"foamBool"
+.LASF14:
+	.string	"size_t"
+.LASF312:
+	.string	"abSeman"
+.LASF180:
+	.string	"foamNil"
+.LASF74:
+	.string	"rest"
+.LASF244:
+	.string	"foamPushEnv"
+.LASF695:
+	.string	"FOAM_BVal_SizeOfChar"
+.LASF108:
+	.string	"abComma"
+.LASF418:
+	.string	"FOAM_PRef"
+.LASF333:
+	.string	"iterv"
+.LASF684:
+	.string	"FOAM_BVal_TypePtr"
+.LASF636:
+	.string	"FOAM_BVal_BIntToSFlo"
+.LASF297:
+	.string	"_UdInfo"
+.LASF345:
+	.string	"param"
+.LASF177:
+	.string	"Foam"
+.LASF788:
+	.string	"protocol"
+.LASF152:
+	.string	"abRetractTo"
+.LASF398:
+	.string	"FOAM_PopEnv"
+.LASF446:
+	.string	"FOAM_Seq"
+.LASF477:
+	.string	"FOAM_BVal_SFlo0"
+.LASF388:
+	.string	"FOAM_Set"
+.LASF288:
+	.string	"ar_entry"
+.LASF24:
+	.string	"_IO_save_base"
+.LASF406:
+	.string	"FOAM_Decl"
+.LASF247:
+	.string	"foamRRFmt"
+.LASF520:
+	.string	"FOAM_BVal_DFloMinus"
+.LASF686:
+	.string	"FOAM_BVal_TypeArr"
+.LASF650:
+	.string	"FOAM_BVal_RoundDown"
+.LASF859:
+	.string	"GNU C99 12.2.0 -mtune=generic -march=x86-64 -g -O0 -std=c99 -fasynchronous-unwind-tables"
+.LASF293:
+	.string	"first"
+.LASF194:
+	.string	"foamProg"
+.LASF862:
+	.string	"bufNew"
+.LASF183:
+	.string	"foamByte"
+.LASF70:
+	.string	"SrcPos"
+.LASF263:
+	.string	"file"
+.LASF766:
+	.string	"HIntData"
+.LASF570:
+	.string	"FOAM_BVal_SIntShiftDn"
+.LASF761:
+	.string	"code"
+.LASF38:
+	.string	"_wide_data"
+.LASF445:
+	.string	"FOAM_OCall"
+.LASF175:
+	.string	"TPoss"
+.LASF138:
+	.string	"abMDefine"
+.LASF657:
+	.string	"FOAM_BVal_DFloRound"
+.LASF752:
+	.string	"defNo"
+.LASF710:
+	.string	"FOAM_BVal_ListEmptyP"
+.LASF255:
+	.string	"foamProtect"
+.LASF811:
+	.string	"Section"
+.LASF391:
+	.string	"FOAM_If"
+.LASF109:
+	.string	"abDefault"
+.LASF204:
+	.string	"foamPar"
+.LASF164:
+	.string	"fieldc"
+.LASF706:
+	.string	"FOAM_BVal_SizeOfRec"
+.LASF172:
+	.string	"fieldv"
+.LASF763:
+	.string	"CharData"
+.LASF493:
+	.string	"FOAM_BVal_SFloMinus"
+.LASF546:
+	.string	"FOAM_BVal_SIntIsEven"
+.LASF335:
+	.string	"value"
+.LASF743:
+	.string	"FOAM_DDecl_Global"
+.LASF304:
+	.string	"foamuses_struct"
+.LASF831:
+	.string	"foamNew"
+.LASF783:
+	.string	"params"
+.LASF79:
+	.string	"isNeg"
+.LASF469:
+	.string	"FOAM_BVal_CharEQ"
+.LASF422:
+	.string	"FOAM_INDEX_LIMIT"
+.LASF654:
+	.string	"FOAM_BVal_SFloRound"
+.LASF223:
+	.string	"foamIRElt"
+.LASF522:
+	.string	"FOAM_BVal_DFloTimesPlus"
+.LASF822:
+	.string	"testPointerEqual"
+.LASF738:
+	.string	"FOAM_DDecl_Multi"
+.LASF331:
+	.string	"expr"
+.LASF797:
+	.string	"retFmt"
+.LASF455:
+	.string	"FOAM_BVal_BoolFalse"
+.LASF552:
+	.string	"FOAM_BVal_SIntNegate"
+.LASF91:
+	.string	"abBlank"
+.LASF661:
+	.string	"FOAM_BVal_StoMarkObject"
+.LASF174:
+	.string	"tform"
+.LASF98:
+	.string	"abAdd"
+.LASF386:
+	.string	"FOAM_RRec"
+.LASF435:
+	.string	"FOAM_DEnv"
+.LASF634:
+	.string	"FOAM_BVal_SIntToSFlo"
+.LASF730:
+	.string	"FOAM_Proto_Other"
+.LASF302:
+	.string	"SImpl"
+.LASF485:
+	.string	"FOAM_BVal_SFloEQ"
+.LASF705:
+	.string	"FOAM_BVal_SizeOfPtr"
+.LASF732:
+	.string	"foamDDeclTag"
+.LASF155:
+	.string	"abSequence"
+.LASF749:
+	.string	"pure"
+.LASF286:
+	.string	"macros"
+.LASF832:
+	.string	"showTest"
+.LASF111:
+	.string	"abDDefine"
+.LASF690:
+	.string	"FOAM_BVal_SizeOfInt16"
+.LASF495:
+	.string	"FOAM_BVal_SFloTimesPlus"
+.LASF100:
+	.string	"abApply"
+.LASF712:
+	.string	"FOAM_BVal_ListTail"
+.LASF52:
+	.string	"AInt"
+.LASF856:
+	.string	"testDDecl"
+.LASF500:
+	.string	"FOAM_BVal_SFloRTimesPlus"
+.LASF427:
+	.string	"FOAM_TRElt"
+.LASF693:
+	.string	"FOAM_BVal_SizeOfInt128"
+.LASF720:
+	.string	"FOAM_PROTO_START"
+.LASF257:
+	.string	"name"
+.LASF96:
+	.string	"abLitString"
+.LASF278:
+	.string	"typeb"
+.LASF274:
+	.string	"typec"
+.LASF790:
+	.string	"usage"
+.LASF507:
+	.string	"FOAM_BVal_DFloMax"
+.LASF26:
+	.string	"_IO_save_end"
+.LASF835:
+	.string	"buf1"
+.LASF277:
+	.string	"typep"
+.LASF642:
+	.string	"FOAM_BVal_ArrToSInt"
+.LASF276:
+	.string	"types"
+.LASF275:
+	.string	"typev"
+.LASF78:
+	.string	"bint"
+.LASF284:
+	.string	"unit"
+.LASF125:
+	.string	"abGoto"
+.LASF566:
+	.string	"FOAM_BVal_SIntTimesMod"
+.LASF598:
+	.string	"FOAM_BVal_BIntTimes"
+.LASF393:
+	.string	"FOAM_Throw"
+.LASF776:
+	.string	"endOffset"
+.LASF233:
+	.string	"foamANew"
+.LASF430:
+	.string	"FOAM_OFCall"
+.LASF346:
+	.string	"rtype"
+.LASF503:
+	.string	"FOAM_BVal_SFloAssemble"
+.LASF604:
+	.string	"FOAM_BVal_BIntGcd"
+.LASF351:
+	.string	"always"
+.LASF616:
+	.string	"FOAM_BVal_PtrEQ"
+.LASF836:
+	.string	"buf2"
+.LASF145:
+	.string	"abPLambda"
+.LASF622:
+	.string	"FOAM_BVal_ScanSFlo"
+.LASF767:
+	.string	"SIntData"
+.LASF103:
+	.string	"abBreak"
+.LASF86:
+	.string	"AbSyn"
+.LASF833:
+	.string	"foam1"
+.LASF834:
+	.string	"foam2"
+.LASF362:
+	.string	"FOAM_DFlo"
+.LASF189:
+	.string	"foamWord"
+.LASF343:
+	.string	"thenAlt"
+.LASF132:
+	.string	"abIterate"
+.LASF372:
+	.string	"FOAM_NOp"
+.LASF157:
+	.string	"abTry"
+.LASF653:
+	.string	"FOAM_BVal_SFloFraction"
+.LASF408:
+	.string	"FOAM_VECTOR_LIMIT"
+.LASF187:
+	.string	"foamSFlo"
+.LASF858:
+	.string	"testCall"
+.LASF453:
+	.string	"foamBValTag"
+.LASF3:
+	.string	"short unsigned int"
+.LASF519:
+	.string	"FOAM_BVal_DFloPlus"
+.LASF6:
+	.string	"signed char"
+.LASF135:
+	.string	"abLet"
+.LASF437:
+	.string	"FOAM_DFmt"
+.LASF195:
+	.string	"foamClos"
+.LASF729:
+	.string	"FOAM_Proto_Include"
+.LASF861:
+	.string	"_SImpl"
+.LASF88:
+	.string	"abSyn"
+.LASF237:
+	.string	"foamCast"
+.LASF217:
+	.string	"foamLoose"
+.LASF150:
+	.string	"abRepeat"
+.LASF60:
+	.string	"CString"
+.LASF457:
+	.string	"FOAM_BVal_BoolNot"
+.LASF472:
+	.string	"FOAM_BVal_CharLE"
+.LASF341:
+	.string	"count"
+.LASF459:
+	.string	"FOAM_BVal_BoolOr"
+.LASF184:
+	.string	"foamHInt"
+.LASF158:
+	.string	"abWhere"
+.LASF471:
+	.string	"FOAM_BVal_CharLT"
+.LASF557:
+	.string	"FOAM_BVal_SIntTimes"
+.LASF50:
+	.string	"UShort"
+.LASF119:
+	.string	"abFluid"
+.LASF308:
+	.string	"SymeList"
+.LASF10:
+	.string	"__off64_t"
+.LASF171:
+	.string	"full"
+.LASF850:
+	.string	"oldHashCombine"
+.LASF173:
+	.string	"TForm"
+.LASF161:
+	.string	"abYield"
+.LASF792:
+	.string	"level"
+.LASF306:
+	.string	"TFormList"
+.LASF18:
+	.string	"_IO_read_base"
+.LASF210:
+	.string	"foamEnv"
+.LASF36:
+	.string	"_offset"
+.LASF542:
+	.string	"FOAM_BVal_SIntMax"
+.LASF467:
+	.string	"FOAM_BVal_CharIsDigit"
+.LASF321:
+	.string	"state"
+.LASF23:
+	.string	"_IO_buf_end"
+.LASF599:
+	.string	"FOAM_BVal_BIntTimesPlus"
+.LASF357:
+	.string	"FOAM_Bool"
+.LASF300:
+	.string	"InvInfo"
+.LASF327:
+	.string	"capsule"
+.LASF498:
+	.string	"FOAM_BVal_SFloRMinus"
+.LASF742:
+	.string	"FOAM_DDecl_Consts"
+.LASF685:
+	.string	"FOAM_BVal_TypeRec"
+.LASF434:
+	.string	"FOAM_DFluid"
+.LASF470:
+	.string	"FOAM_BVal_CharNE"
+.LASF681:
+	.string	"FOAM_BVal_TypeDFlo"
+.LASF42:
+	.string	"_mode"
+.LASF19:
+	.string	"_IO_write_base"
+.LASF440:
+	.string	"FOAM_TR"
+.LASF638:
+	.string	"FOAM_BVal_PtrToSInt"
+.LASF338:
+	.string	"function"
+.LASF668:
+	.string	"FOAM_BVal_TypeInt8"
+.LASF476:
+	.string	"FOAM_BVal_CharNum"
+.LASF826:
+	.string	"testTrue"
+.LASF510:
+	.string	"FOAM_BVal_DFloIsNeg"
+.LASF558:
+	.string	"FOAM_BVal_SIntTimesPlus"
+.LASF658:
+	.string	"FOAM_BVal_StoForceGC"
+.LASF354:
+	.string	"FOAM_DATA_START"
+.LASF847:
+	.string	"hULS_FI"
+.LASF737:
+	.string	"FOAM_DDecl_Fluid"
+.LASF528:
+	.string	"FOAM_BVal_DFloRDivide"
+.LASF627:
+	.string	"FOAM_BVal_DFloToSFlo"
+.LASF166:
+	.string	"bits"
+.LASF781:
+	.string	"time"
+.LASF827:
+	.string	"foamEqual"
+.LASF652:
+	.string	"FOAM_BVal_SFloTruncate"
+.LASF375:
+	.string	"FOAM_CProg"
+.LASF71:
+	.string	"SrcPosCell"
+.LASF786:
+	.string	"levels"
+.LASF179:
+	.string	"foamGen"
+.LASF8:
+	.string	"long int"
+.LASF828:
+	.string	"foamNewCCall"
+.LASF573:
+	.string	"FOAM_BVal_SIntAnd"
+.LASF402:
+	.string	"FOAM_CONTROL_LIMIT"
+.LASF448:
+	.string	"FOAM_Prog"
+.LASF773:
+	.string	"format"
+.LASF602:
+	.string	"FOAM_BVal_BIntRem"
+.LASF45:
+	.string	"_IO_marker"
+.LASF245:
+	.string	"foamPopEnv"
+.LASF405:
+	.string	"FOAM_GDecl"
+.LASF72:
+	.string	"sposCell"
+.LASF358:
+	.string	"FOAM_Byte"
+.LASF734:
+	.string	"FOAM_DDecl_NonLocalEnv"
+.LASF385:
+	.string	"FOAM_RRNew"
+.LASF350:
+	.string	"cond"
+.LASF381:
+	.string	"FOAM_Free"
+.LASF329:
+	.string	"label"
+.LASF490:
+	.string	"FOAM_BVal_SFloPrev"
+.LASF864:
+	.string	"foamTest"
+.LASF571:
+	.string	"FOAM_BVal_SIntBit"
+.LASF347:
+	.string	"context"
+.LASF209:
+	.string	"foamConst"
+.LASF651:
+	.string	"FOAM_BVal_RoundDontCare"
+.LASF483:
+	.string	"FOAM_BVal_SFloIsNeg"
+.LASF154:
+	.string	"abSelect"
+.LASF296:
+	.string	"UdInfo"
+.LASF208:
+	.string	"foamFluid"
+.LASF294:
+	.string	"OptInfo"
+.LASF475:
+	.string	"FOAM_BVal_CharOrd"
+.LASF46:
+	.string	"_IO_codecvt"
+.LASF479:
+	.string	"FOAM_BVal_SFloMin"
+.LASF160:
+	.string	"abWith"
+.LASF478:
+	.string	"FOAM_BVal_SFlo1"
+.LASF320:
+	.string	"unique"
+.LASF444:
+	.string	"FOAM_CCall"
+.LASF675:
+	.string	"FOAM_BVal_TypeBool"
+.LASF462:
+	.string	"FOAM_BVal_CharSpace"
+.LASF625:
+	.string	"FOAM_BVal_ScanBInt"
+.LASF824:
+	.string	"foamNewDDecl"
+.LASF236:
+	.string	"foamTRNew"
+.LASF66:
+	.string	"FileName"
+.LASF719:
+	.string	"foamProtoTag"
+.LASF535:
+	.string	"FOAM_BVal_HInt0"
+.LASF536:
+	.string	"FOAM_BVal_HInt1"
+.LASF590:
+	.string	"FOAM_BVal_BIntNE"
+.LASF721:
+	.string	"FOAM_Proto_Foam"
+.LASF246:
+	.string	"foamMFmt"
+.LASF59:
+	.string	"String"
+.LASF186:
+	.string	"foamBInt"
+.LASF318:
+	.string	"AbSeman"
+.LASF5:
+	.string	"long unsigned int"
+.LASF819:
+	.string	"foamNewSeq"
+.LASF603:
+	.string	"FOAM_BVal_BIntDivide"
+.LASF744:
+	.string	"FOAM_DDecl_FortranSig"
+.LASF617:
+	.string	"FOAM_BVal_PtrNE"
+.LASF55:
+	.string	"Bool"
+.LASF596:
+	.string	"FOAM_BVal_BIntPlus"
+.LASF163:
+	.string	"syme"
+.LASF192:
+	.string	"foamRec"
+.LASF759:
+	.string	"dvMark"
+.LASF504:
+	.string	"FOAM_BVal_DFlo0"
+.LASF505:
+	.string	"FOAM_BVal_DFlo1"
+.LASF619:
+	.string	"FOAM_BVal_FormatDFlo"
+.LASF597:
+	.string	"FOAM_BVal_BIntMinus"
+.LASF11:
+	.string	"char"
+.LASF433:
+	.string	"FOAM_DDecl"
+.LASF474:
+	.string	"FOAM_BVal_CharUpper"
+.LASF69:
+	.string	"partv"
+.LASF251:
+	.string	"foamFree"
+.LASF829:
+	.string	"foamNewPCall"
+.LASF225:
+	.string	"foamEElt"
+.LASF633:
+	.string	"FOAM_BVal_BIntToSInt"
+.LASF378:
+	.string	"FOAM_EEnsure"
+.LASF334:
+	.string	"except"
+.LASF567:
+	.string	"FOAM_BVal_SIntTimesModInv"
+.LASF22:
+	.string	"_IO_buf_base"
+.LASF757:
+	.string	"foamHdr"
+.LASF541:
+	.string	"FOAM_BVal_SIntMin"
+.LASF770:
+	.string	"DFloData"
+.LASF285:
+	.string	"formats"
+.LASF424:
+	.string	"FOAM_Lex"
+.LASF17:
+	.string	"_IO_read_end"
+.LASF838:
+	.string	"testSIntReduce"
+.LASF524:
+	.string	"FOAM_BVal_DFloRPlus"
+.LASF226:
+	.string	"foamBVal"
+.LASF51:
+	.string	"ULong"
+.LASF754:
+	.string	"expInfo"
+.LASF167:
+	.string	"hash"
+.LASF610:
+	.string	"FOAM_BVal_BIntShiftDn"
+.LASF67:
+	.string	"_IO_FILE"
+.LASF47:
+	.string	"_IO_wide_data"
+.LASF234:
+	.string	"foamRNew"
+.LASF762:
+	.string	"sfloat"
+.LASF764:
+	.string	"BoolData"
+.LASF101:
+	.string	"abAssert"
+.LASF442:
+	.string	"FOAM_PCall"
+.LASF65:
+	.string	"buffer"
+.LASF716:
+	.string	"FOAM_BVal_FreeExportTable"
+.LASF265:
+	.string	"self"
+.LASF211:
+	.string	"foamEEnv"
+.LASF491:
+	.string	"FOAM_BVal_SFloNext"
+.LASF556:
+	.string	"FOAM_BVal_SIntMinus"
+.LASF140:
+	.string	"abNever"
+.LASF53:
+	.string	"UAInt"
+.LASF239:
+	.string	"foamBCall"
+.LASF61:
+	.string	"SFloat"
+.LASF702:
+	.string	"FOAM_BVal_SizeOfDFlo"
+.LASF496:
+	.string	"FOAM_BVal_SFloDivide"
+.LASF713:
+	.string	"FOAM_BVal_ListCons"
+.LASF299:
+	.string	"_ExpInfo"
+.LASF112:
+	.string	"abDo"
+.LASF256:
+	.string	"foamReturn"
+.LASF750:
+	.string	"fixed"
+.LASF92:
+	.string	"abId"
+.LASF129:
+	.string	"abIf"
+.LASF384:
+	.string	"FOAM_ANew"
+.LASF80:
+	.string	"placea"
+.LASF825:
+	.string	"strCopy"
+.LASF81:
+	.string	"placec"
+.LASF41:
+	.string	"__pad5"
+.LASF497:
+	.string	"FOAM_BVal_SFloRPlus"
+.LASF529:
+	.string	"FOAM_BVal_DFloDissemble"
+.LASF82:
+	.string	"placev"
+.LASF676:
+	.string	"FOAM_BVal_TypeByte"
+.LASF817:
+	.string	"strHash"
+.LASF363:
+	.string	"FOAM_Word"
+.LASF579:
+	.string	"FOAM_BVal_WordPlusStep"
+.LASF635:
+	.string	"FOAM_BVal_SIntToDFlo"
+.LASF27:
+	.string	"_markers"
+.LASF751:
+	.string	"lazy"
+.LASF628:
+	.string	"FOAM_BVal_ByteToSInt"
+.LASF216:
+	.string	"foamCEnv"
+.LASF715:
+	.string	"FOAM_BVal_AddToExportTable"
+.LASF220:
+	.string	"foamAElt"
+.LASF665:
+	.string	"FOAM_BVal_StoCTracer"
+.LASF62:
+	.string	"DFloat"
+.LASF361:
+	.string	"FOAM_SFlo"
+.LASF272:
+	.string	"codev"
+.LASF330:
+	.string	"what"
+.LASF37:
+	.string	"_codecvt"
+.LASF854:
+	.string	"arg1"
+.LASF855:
+	.string	"arg2"
+.LASF630:
+	.string	"FOAM_BVal_HIntToSInt"
+.LASF611:
+	.string	"FOAM_BVal_BIntShiftRem"
+.LASF13:
+	.string	"double"
+.LASF387:
+	.string	"FOAM_Clos"
+.LASF383:
+	.string	"FOAM_Cast"
+.LASF581:
+	.string	"FOAM_BVal_BInt0"
+.LASF582:
+	.string	"FOAM_BVal_BInt1"
+.LASF231:
+	.string	"foamSeq"
+.LASF229:
+	.string	"foamSet"
+.LASF322:
+	.string	"argc"
+.LASF454:
+	.string	"FOAM_BVAL_START"
+.LASF359:
+	.string	"FOAM_HInt"
+.LASF696:
+	.string	"FOAM_BVal_SizeOfBool"
+.LASF279:
+	.string	"constc"
+.LASF142:
+	.string	"abNothing"
+.LASF313:
+	.string	"comment"
+.LASF106:
+	.string	"abCoerceTo"
+.LASF601:
+	.string	"FOAM_BVal_BIntQuo"
+.LASF538:
+	.string	"FOAM_BVal_HIntMax"
+.LASF733:
+	.string	"FOAM_DDecl_LocalEnv"
+.LASF512:
+	.string	"FOAM_BVal_DFloEQ"
+.LASF325:
+	.string	"data"
+.LASF559:
+	.string	"FOAM_BVal_SIntMod"
+.LASF431:
+	.string	"FOAM_MULTINT_LIMIT"
+.LASF156:
+	.string	"abTest"
+.LASF241:
+	.string	"foamOCall"
+.LASF87:
+	.string	"sposStack"
+.LASF162:
+	.string	"Syme"
+.LASF452:
+	.string	"foamTag"
+.LASF178:
+	.string	"foam"
+.LASF394:
+	.string	"FOAM_Catch"
+.LASF845:
+	.string	"hMapping"
+.LASF121:
+	.string	"abForeignImport"
+.LASF64:
+	.string	"Buffer"
+.LASF682:
+	.string	"FOAM_BVal_TypeWord"
+.LASF309:
+	.string	"UdInfoListCons"
+.LASF326:
+	.string	"base"
+.LASF404:
+	.string	"FOAM_Unimp"
+.LASF785:
+	.string	"fluids"
+.LASF134:
+	.string	"abLambda"
+.LASF608:
+	.string	"FOAM_BVal_BIntLength"
+.LASF460:
+	.string	"FOAM_BVal_BoolEQ"
+.LASF680:
+	.string	"FOAM_BVal_TypeSFlo"
+.LASF586:
+	.string	"FOAM_BVal_BIntIsEven"
+.LASF258:
+	.string	"arent"
+.LASF697:
+	.string	"FOAM_BVal_SizeOfByte"
+.LASF683:
+	.string	"FOAM_BVal_TypeClos"
+.LASF768:
+	.string	"BIntData"
+.LASF593:
+	.string	"FOAM_BVal_BIntNegate"
+.LASF342:
+	.string	"property"
+.LASF857:
+	.string	"ddecl"
+.LASF199:
+	.string	"foamDFluid"
+.LASF40:
+	.string	"_freeres_buf"
+.LASF73:
+	.string	"spos"
+.LASF677:
+	.string	"FOAM_BVal_TypeHInt"
+.LASF143:
+	.string	"abOr"
+.LASF264:
+	.string	"offset"
+.LASF808:
+	.string	"verMajor"
+.LASF32:
+	.string	"_cur_column"
+.LASF364:
+	.string	"FOAM_Arb"
+.LASF159:
+	.string	"abWhile"
+.LASF165:
+	.string	"kind"
+.LASF450:
+	.string	"FOAM_LIMIT"
+.LASF252:
+	.string	"foamGoto"
+.LASF464:
+	.string	"FOAM_BVal_CharTab"
+.LASF439:
+	.string	"FOAM_Arr"
+.LASF624:
+	.string	"FOAM_BVal_ScanSInt"
+.LASF837:
+	.string	"testFoamBuffer"
+.LASF718:
+	.string	"FOAM_BVAL_LIMIT"
+.LASF629:
+	.string	"FOAM_BVal_SIntToByte"
+.LASF131:
+	.string	"abInline"
+.LASF97:
+	.string	"abLitFloat"
+.LASF137:
+	.string	"abMacro"
+.LASF411:
+	.string	"FOAM_Loc"
+.LASF517:
+	.string	"FOAM_BVal_DFloPrev"
+.LASF185:
+	.string	"foamSInt"
+.LASF107:
+	.string	"abCollect"
+.LASF25:
+	.string	"_IO_backup_base"
+.LASF16:
+	.string	"_IO_read_ptr"
+.LASF232:
+	.string	"foamSelect"
+.LASF666:
+	.string	"FOAM_BVal_StoShow"
+.LASF122:
+	.string	"abForeignExport"
+.LASF488:
+	.string	"FOAM_BVal_SFloLE"
+.LASF170:
+	.string	"hasmask"
+.LASF93:
+	.string	"abIdSy"
+.LASF852:
+	.string	"testTests"
+.LASF815:
+	.string	"foamSIntReduce"
+.LASF487:
+	.string	"FOAM_BVal_SFloLT"
+.LASF39:
+	.string	"_freeres_list"
+.LASF669:
+	.string	"FOAM_BVal_TypeInt16"
+.LASF146:
+	.string	"abPretendTo"
+.LASF812:
+	.string	"Index"
+.LASF139:
+	.string	"abMLambda"
+.LASF399:
+	.string	"FOAM_MFmt"
+.LASF708:
+	.string	"FOAM_BVal_SizeOfTR"
+.LASF407:
+	.string	"FOAM_BInt"
+.LASF584:
+	.string	"FOAM_BVal_BIntIsNeg"
+.LASF724:
+	.string	"FOAM_Proto_Java"
+.LASF774:
+	.string	"nargs"
+.LASF639:
+	.string	"FOAM_BVal_SIntToPtr"
+.LASF31:
+	.string	"_old_offset"
+.LASF224:
+	.string	"foamTRElt"
+.LASF572:
+	.string	"FOAM_BVal_SIntNot"
+.LASF726:
+	.string	"FOAM_Proto_JavaMethod"
+.LASF513:
+	.string	"FOAM_BVal_DFloNE"
+.LASF489:
+	.string	"FOAM_BVal_SFloNegate"
+.LASF268:
+	.string	"symec"
+.LASF141:
+	.string	"abNot"
+.LASF841:
+	.string	"hULS"
+.LASF271:
+	.string	"symep"
+.LASF515:
+	.string	"FOAM_BVal_DFloLE"
+.LASF270:
+	.string	"symes"
+.LASF269:
+	.string	"symev"
+.LASF48:
+	.string	"long long int"
+.LASF486:
+	.string	"FOAM_BVal_SFloNE"
+.LASF253:
+	.string	"foamThrow"
+.LASF514:
+	.string	"FOAM_BVal_DFloLT"
+.LASF30:
+	.string	"_flags2"
+.LASF432:
+	.string	"FOAM_NARY_START"
+.LASF769:
+	.string	"SFloData"
+.LASF128:
+	.string	"abHook"
+.LASF618:
+	.string	"FOAM_BVal_FormatSFlo"
+.LASF428:
+	.string	"FOAM_EElt"
+.LASF114:
+	.string	"abExcept"
+.LASF113:
+	.string	"abDocumented"
+.LASF421:
+	.string	"FOAM_Label"
+.LASF537:
+	.string	"FOAM_BVal_HIntMin"
+.LASF389:
+	.string	"FOAM_Def"
+.LASF319:
+	.string	"poss"
+.LASF102:
+	.string	"abAssign"
+.LASF569:
+	.string	"FOAM_BVal_SIntShiftUp"
+.LASF365:
+	.string	"FOAM_Int8"
+.LASF332:
+	.string	"body"
+.LASF723:
+	.string	"FOAM_Proto_C"
+.LASF555:
+	.string	"FOAM_BVal_SIntPlus"
+.LASF409:
+	.string	"FOAM_INDEX_START"
+.LASF687:
+	.string	"FOAM_BVal_TypeTR"
+.LASF181:
+	.string	"foamChar"
+.LASF228:
+	.string	"foamNOp"
+.LASF58:
+	.string	"Offset"
+.LASF544:
+	.string	"FOAM_BVal_SIntIsNeg"
+.LASF456:
+	.string	"FOAM_BVal_BoolTrue"
+.LASF583:
+	.string	"FOAM_BVal_BIntIsZero"
+.LASF800:
+	.string	"parent"
+.LASF417:
+	.string	"FOAM_RNew"
+.LASF429:
+	.string	"FOAM_CFCall"
+.LASF649:
+	.string	"FOAM_BVal_RoundUp"
+.LASF105:
+	.string	"abDeclare"
+.LASF692:
+	.string	"FOAM_BVal_SizeOfInt64"
+.LASF679:
+	.string	"FOAM_BVal_TypeBInt"
+.LASF416:
+	.string	"FOAM_EEnv"
+.LASF49:
+	.string	"UByte"
+.LASF641:
+	.string	"FOAM_BVal_ArrToDFlo"
+.LASF336:
+	.string	"origin"
+.LASF647:
+	.string	"FOAM_BVal_RoundZero"
+.LASF667:
+	.string	"FOAM_BVal_StoShowArgs"
+.LASF337:
+	.string	"destination"
+.LASF799:
+	.string	"defs"
+.LASF355:
+	.string	"FOAM_Nil"
+.LASF703:
+	.string	"FOAM_BVal_SizeOfWord"
+.LASF691:
+	.string	"FOAM_BVal_SizeOfInt32"
+.LASF511:
+	.string	"FOAM_BVal_DFloIsPos"
+.LASF588:
+	.string	"FOAM_BVal_BIntIsSingle"
+.LASF746:
+	.string	"FOAM_DDecl_JavaSig"
+.LASF711:
+	.string	"FOAM_BVal_ListHead"
+.LASF283:
+	.string	"postbl"
+.LASF748:
+	.string	"FOAM_DDECL_LIMIT"
+.LASF607:
+	.string	"FOAM_BVal_BIntPowerMod"
+.LASF461:
+	.string	"FOAM_BVal_BoolNE"
+.LASF701:
+	.string	"FOAM_BVal_SizeOfSFlo"
+.LASF670:
+	.string	"FOAM_BVal_TypeInt32"
+.LASF820:
+	.string	"foamIsMultiAssign"
+.LASF782:
+	.string	"auxInfo"
+.LASF587:
+	.string	"FOAM_BVal_BIntIsOdd"
+.LASF4:
+	.string	"unsigned int"
+.LASF810:
+	.string	"numSect"
+.LASF704:
+	.string	"FOAM_BVal_SizeOfClos"
+.LASF348:
+	.string	"testPart"
+.LASF77:
+	.string	"BInt"
+.LASF7:
+	.string	"short int"
+.LASF501:
+	.string	"FOAM_BVal_SFloRDivide"
+.LASF397:
+	.string	"FOAM_PushEnv"
+.LASF547:
+	.string	"FOAM_BVal_SIntIsOdd"
+.LASF645:
+	.string	"FOAM_BVal_PlatformOS"
+.LASF376:
+	.string	"FOAM_CEnv"
+.LASF698:
+	.string	"FOAM_BVal_SizeOfHInt"
+.LASF863:
+	.string	"sxiInit"
+.LASF731:
+	.string	"FOAM_PROTO_LIMIT"
+.LASF33:
+	.string	"_vtable_offset"
+.LASF400:
+	.string	"FOAM_RRFmt"
+.LASF609:
+	.string	"FOAM_BVal_BIntShiftUp"
+.LASF273:
+	.string	"triggers"
+.LASF449:
+	.string	"FOAM_NARY_LIMIT"
+.LASF324:
+	.string	"argv"
+.LASF594:
+	.string	"FOAM_BVal_BIntPrev"
+.LASF203:
+	.string	"foamDDef"
+.LASF266:
+	.string	"stab"
+.LASF760:
+	.string	"defnId"
+.LASF707:
+	.string	"FOAM_BVal_SizeOfArr"
+.LASF484:
+	.string	"FOAM_BVal_SFloIsPos"
+.LASF578:
+	.string	"FOAM_BVal_WordDivideDouble"
+.LASF813:
+	.string	"foamToBuffer"
+.LASF95:
+	.string	"abLitInteger"
+.LASF851:
+	.string	"testIter"
+.LASF794:
+	.string	"builtinTag"
+	.section	.debug_line_str,"MS",@progbits,1
+.LASF1:
+	.string	"/repo/aldor/aldor/src"
+.LASF0:
+	.string	"test/test_foam.c"
+	.ident	"GCC: (Debian 12.2.0-14+deb12u1) 12.2.0"
+	.section	.note.GNU-stack,"",@progbits
